@@ -37,12 +37,21 @@ type comparison =
 | Lt
 | Gt
 
-(** val add : nat -> nat -> nat **)
+(** val compOpp : comparison -> comparison **)
 
-let rec add n0 m0 =
-  match n0 with
-  | O -> m0
-  | S p -> S (add p m0)
+let compOpp = function
+| Eq -> Eq
+| Lt -> Gt
+| Gt -> Lt
+
+module Coq__1 = struct
+ (** val add : nat -> nat -> nat **)
+ let rec add n0 m0 =
+   match n0 with
+   | O -> m0
+   | S p -> S (add p m0)
+end
+include Coq__1
 
 (** val mul : nat -> nat -> nat **)
 
@@ -60,8 +69,22 @@ let rec sub n0 m0 =
             | O -> n0
             | S l -> sub k l)
 
+(** val eqb : bool -> bool -> bool **)
+
+let eqb b1 b2 =
+  if b1 then b2 else if b2 then false else true
+
 module Nat =
  struct
+  (** val sub : nat -> nat -> nat **)
+
+  let rec sub n0 m0 =
+    match n0 with
+    | O -> n0
+    | S k -> (match m0 with
+              | O -> n0
+              | S l -> sub k l)
+
   (** val eqb : nat -> nat -> bool **)
 
   let rec eqb n0 m0 =
@@ -87,6 +110,15 @@ module Nat =
   let ltb n0 m0 =
     leb (S n0) m0
 
+  (** val max : nat -> nat -> nat **)
+
+  let rec max n0 m0 =
+    match n0 with
+    | O -> m0
+    | S n' -> (match m0 with
+               | O -> n0
+               | S m' -> S (max n' m'))
+
   (** val min : nat -> nat -> nat **)
 
   let rec min n0 m0 =
@@ -103,6 +135,28 @@ module Nat =
   | S n1 -> (match n1 with
              | O -> false
              | S n' -> even n')
+
+  (** val divmod : nat -> nat -> nat -> nat -> nat * nat **)
+
+  let rec divmod x y q u =
+    match x with
+    | O -> (q, u)
+    | S x' ->
+      (match u with
+       | O -> divmod x' y (S q) y
+       | S u' -> divmod x' y q u')
+
+  (** val div : nat -> nat -> nat **)
+
+  let div x y = match y with
+  | O -> y
+  | S y' -> fst (divmod x y' O y')
+
+  (** val modulo : nat -> nat -> nat **)
+
+  let modulo x = function
+  | O -> x
+  | S y' -> sub y' (snd (divmod x y' O y'))
  end
 
 (** val tl : 'a1 list -> 'a1 list **)
@@ -172,11 +226,27 @@ let rec forallb f = function
 | [] -> true
 | a :: l0 -> (&&) (f a) (forallb f l0)
 
+(** val filter : ('a1 -> bool) -> 'a1 list -> 'a1 list **)
+
+let rec filter f = function
+| [] -> []
+| x :: l0 -> if f x then x :: (filter f l0) else filter f l0
+
 (** val find : ('a1 -> bool) -> 'a1 list -> 'a1 option **)
 
 let rec find f = function
 | [] -> None
 | x :: tl0 -> if f x then Some x else find f tl0
+
+(** val combine : 'a1 list -> 'a2 list -> ('a1 * 'a2) list **)
+
+let rec combine l l' =
+  match l with
+  | [] -> []
+  | x :: tl0 ->
+    (match l' with
+     | [] -> []
+     | y :: tl' -> (x, y) :: (combine tl0 tl'))
 
 (** val firstn : nat -> 'a1 list -> 'a1 list **)
 
@@ -196,6 +266,12 @@ let rec skipn n0 l =
              | [] -> []
              | _ :: l0 -> skipn n1 l0)
 
+(** val seq : nat -> nat -> nat list **)
+
+let rec seq start = function
+| O -> []
+| S len0 -> start :: (seq (S start) len0)
+
 (** val repeat : 'a1 -> nat -> 'a1 list **)
 
 let rec repeat x = function
@@ -210,6 +286,11 @@ type positive =
 type n =
 | N0
 | Npos of positive
+
+type z =
+| Z0
+| Zpos of positive
+| Zneg of positive
 
 module Pos =
  struct
@@ -368,15 +449,34 @@ module Coq_Pos =
 
   let rec eqb p q =
     match p with
-    | XI p0 -> (match q with
-                | XI q0 -> eqb p0 q0
+    | XI p1 -> (match q with
+                | XI q0 -> eqb p1 q0
                 | _ -> false)
-    | XO p0 -> (match q with
-                | XO q0 -> eqb p0 q0
+    | XO p1 -> (match q with
+                | XO q0 -> eqb p1 q0
                 | _ -> false)
     | XH -> (match q with
              | XH -> true
              | _ -> false)
+
+  (** val iter_op : ('a1 -> 'a1 -> 'a1) -> positive -> 'a1 -> 'a1 **)
+
+  let rec iter_op op p a =
+    match p with
+    | XI p1 -> op a (iter_op op p1 (op a a))
+    | XO p1 -> iter_op op p1 (op a a)
+    | XH -> a
+
+  (** val to_nat : positive -> nat **)
+
+  let to_nat x =
+    iter_op Coq__1.add x (S O)
+
+  (** val of_succ_nat : nat -> positive **)
+
+  let rec of_succ_nat = function
+  | O -> XH
+  | S x -> succ (of_succ_nat x)
  end
 
 module N =
@@ -497,6 +597,182 @@ module N =
 
   let modulo a b =
     snd (div_eucl a b)
+
+  (** val to_nat : n -> nat **)
+
+  let to_nat = function
+  | N0 -> O
+  | Npos p -> Coq_Pos.to_nat p
+
+  (** val of_nat : nat -> n **)
+
+  let of_nat = function
+  | O -> N0
+  | S n' -> Npos (Coq_Pos.of_succ_nat n')
+ end
+
+module Z =
+ struct
+  (** val double : z -> z **)
+
+  let double = function
+  | Z0 -> Z0
+  | Zpos p -> Zpos (XO p)
+  | Zneg p -> Zneg (XO p)
+
+  (** val succ_double : z -> z **)
+
+  let succ_double = function
+  | Z0 -> Zpos XH
+  | Zpos p -> Zpos (XI p)
+  | Zneg p -> Zneg (Coq_Pos.pred_double p)
+
+  (** val pred_double : z -> z **)
+
+  let pred_double = function
+  | Z0 -> Zneg XH
+  | Zpos p -> Zpos (Coq_Pos.pred_double p)
+  | Zneg p -> Zneg (XI p)
+
+  (** val pos_sub : positive -> positive -> z **)
+
+  let rec pos_sub x y =
+    match x with
+    | XI p ->
+      (match y with
+       | XI q -> double (pos_sub p q)
+       | XO q -> succ_double (pos_sub p q)
+       | XH -> Zpos (XO p))
+    | XO p ->
+      (match y with
+       | XI q -> pred_double (pos_sub p q)
+       | XO q -> double (pos_sub p q)
+       | XH -> Zpos (Coq_Pos.pred_double p))
+    | XH ->
+      (match y with
+       | XI q -> Zneg (XO q)
+       | XO q -> Zneg (Coq_Pos.pred_double q)
+       | XH -> Z0)
+
+  (** val add : z -> z -> z **)
+
+  let add x y =
+    match x with
+    | Z0 -> y
+    | Zpos x' ->
+      (match y with
+       | Z0 -> x
+       | Zpos y' -> Zpos (Coq_Pos.add x' y')
+       | Zneg y' -> pos_sub x' y')
+    | Zneg x' ->
+      (match y with
+       | Z0 -> x
+       | Zpos y' -> pos_sub y' x'
+       | Zneg y' -> Zneg (Coq_Pos.add x' y'))
+
+  (** val opp : z -> z **)
+
+  let opp = function
+  | Z0 -> Z0
+  | Zpos x0 -> Zneg x0
+  | Zneg x0 -> Zpos x0
+
+  (** val sub : z -> z -> z **)
+
+  let sub m0 n0 =
+    add m0 (opp n0)
+
+  (** val mul : z -> z -> z **)
+
+  let mul x y =
+    match x with
+    | Z0 -> Z0
+    | Zpos x' ->
+      (match y with
+       | Z0 -> Z0
+       | Zpos y' -> Zpos (Coq_Pos.mul x' y')
+       | Zneg y' -> Zneg (Coq_Pos.mul x' y'))
+    | Zneg x' ->
+      (match y with
+       | Z0 -> Z0
+       | Zpos y' -> Zneg (Coq_Pos.mul x' y')
+       | Zneg y' -> Zpos (Coq_Pos.mul x' y'))
+
+  (** val compare : z -> z -> comparison **)
+
+  let compare x y =
+    match x with
+    | Z0 -> (match y with
+             | Z0 -> Eq
+             | Zpos _ -> Lt
+             | Zneg _ -> Gt)
+    | Zpos x' -> (match y with
+                  | Zpos y' -> Coq_Pos.compare x' y'
+                  | _ -> Gt)
+    | Zneg x' ->
+      (match y with
+       | Zneg y' -> compOpp (Coq_Pos.compare x' y')
+       | _ -> Lt)
+
+  (** val leb : z -> z -> bool **)
+
+  let leb x y =
+    match compare x y with
+    | Gt -> false
+    | _ -> true
+
+  (** val ltb : z -> z -> bool **)
+
+  let ltb x y =
+    match compare x y with
+    | Lt -> true
+    | _ -> false
+
+  (** val eqb : z -> z -> bool **)
+
+  let eqb x y =
+    match x with
+    | Z0 -> (match y with
+             | Z0 -> true
+             | _ -> false)
+    | Zpos p -> (match y with
+                 | Zpos q -> Coq_Pos.eqb p q
+                 | _ -> false)
+    | Zneg p -> (match y with
+                 | Zneg q -> Coq_Pos.eqb p q
+                 | _ -> false)
+
+  (** val max : z -> z -> z **)
+
+  let max n0 m0 =
+    match compare n0 m0 with
+    | Lt -> m0
+    | _ -> n0
+
+  (** val min : z -> z -> z **)
+
+  let min n0 m0 =
+    match compare n0 m0 with
+    | Gt -> m0
+    | _ -> n0
+
+  (** val abs : z -> z **)
+
+  let abs = function
+  | Zneg p -> Zpos p
+  | x -> x
+
+  (** val to_nat : z -> nat **)
+
+  let to_nat = function
+  | Zpos p -> Coq_Pos.to_nat p
+  | _ -> O
+
+  (** val of_N : n -> z **)
+
+  let of_N = function
+  | N0 -> Z0
+  | Npos p -> Zpos p
  end
 
 type 'a res =
@@ -552,7 +828,7 @@ let rec bsplit s p = match p with
    | c :: t ->
      if Nat.leb (clen c) p
      then (match bsplit t (sub p (clen c)) with
-           | Some p0 -> let (l, r) = p0 in Some ((c :: l), r)
+           | Some p1 -> let (l, r) = p1 in Some ((c :: l), r)
            | None -> None)
      else None)
 
@@ -1114,8 +1390,8 @@ type hist = { h_entries : str list; h_max : nat; h_ign_space : bool;
 
 (** val hist_new : nat -> bool -> bool -> hist **)
 
-let hist_new max ign_space ign_dups =
-  { h_entries = []; h_max = max; h_ign_space = ign_space; h_ign_dups =
+let hist_new max0 ign_space ign_dups =
+  { h_entries = []; h_max = max0; h_ign_space = ign_space; h_ign_dups =
     ign_dups }
 
 (** val hlen : hist -> nat **)
@@ -1200,9 +1476,9 @@ type sdir =
 let rec find_first test l i =
   match l with
   | [] -> None
-  | e :: t ->
-    (match test e with
-     | Some c -> Some ((i, c), e)
+  | e0 :: t ->
+    (match test e0 with
+     | Some c -> Some ((i, c), e0)
      | None -> find_first test t (S i))
 
 (** val h_search_match :
@@ -1219,30 +1495,30 @@ let h_search_match h term start dir test =
           | Forward ->
             (match find_first test (skipn start h.h_entries) O with
              | Some p ->
-               let (p0, e) = p in
-               let (i, c) = p0 in Some (((add i start), c), e)
+               let (p1, e0) = p in
+               let (i, c) = p1 in Some (((add i start), c), e0)
              | None -> None)
           | Reverse ->
             (match find_first test
                      (skipn (sub (sub (hlen h) (S O)) start)
                        (rev h.h_entries)) O with
              | Some p ->
-               let (p0, e) = p in
-               let (i, c) = p0 in Some (((sub start i), c), e)
+               let (p1, e0) = p in
+               let (i, c) = p1 in Some (((sub start i), c), e0)
              | None -> None))
 
 (** val h_search :
     hist -> str -> nat -> sdir -> ((nat * nat) * str) option **)
 
 let h_search h term start dir =
-  h_search_match h term start dir (fun e -> find_sub term e)
+  h_search_match h term start dir (fun e0 -> find_sub term e0)
 
 (** val h_starts_with :
     hist -> str -> nat -> sdir -> ((nat * nat) * str) option **)
 
 let h_starts_with h term start dir =
-  h_search_match h term start dir (fun e ->
-    if prefix_b term e then Some (blen term) else None)
+  h_search_match h term start dir (fun e0 ->
+    if prefix_b term e0 then Some (blen term) else None)
 
 type hop =
 | HAdd of str
@@ -1290,11 +1566,36 @@ let file_version_v2 =
   (Npos (XI (XI (XO (XO (XO XH)))))) :: ((Npos (XO (XI (XI (XO (XI (XO
     XH))))))) :: ((Npos (XO (XI (XO (XO (XI XH)))))) :: []))
 
+(** val max_line : n **)
+
+let max_line =
+  Npos (XO (XO (XO (XO (XO (XO (XO (XO (XO (XO (XO (XO XH))))))))))))
+
 (** val indent_max : nat **)
 
 let indent_max =
   S (S (S (S (S (S (S (S (S (S (S (S (S (S (S (S (S (S (S (S (S (S (S (S (S
     (S (S (S (S (S (S (S O)))))))))))))))))))))))))))))))
+
+(** val default_tab_stop : nat **)
+
+let default_tab_stop =
+  S (S (S (S (S (S (S (S O)))))))
+
+(** val default_indent_size : nat **)
+
+let default_indent_size =
+  S (S O)
+
+(** val default_completion_prompt_limit : nat **)
+
+let default_completion_prompt_limit =
+  S (S (S (S (S (S (S (S (S (S (S (S (S (S (S (S (S (S (S (S (S (S (S (S (S
+    (S (S (S (S (S (S (S (S (S (S (S (S (S (S (S (S (S (S (S (S (S (S (S (S
+    (S (S (S (S (S (S (S (S (S (S (S (S (S (S (S (S (S (S (S (S (S (S (S (S
+    (S (S (S (S (S (S (S (S (S (S (S (S (S (S (S (S (S (S (S (S (S (S (S (S
+    (S (S (S
+    O)))))))))))))))))))))))))))))))))))))))))))))))))))))))))))))))))))))))))))))))))))))))))))))))))))
 
 (** val default_break_chars : n list **)
 
@@ -1374,8 +1675,8 @@ let rec unesc = function
 
 (** val entry_bytes : str -> n list **)
 
-let entry_bytes e =
-  app (encode (esc e)) ((Npos (XO (XI (XO XH)))) :: [])
+let entry_bytes e0 =
+  app (encode (esc e0)) ((Npos (XO (XI (XO XH)))) :: [])
 
 (** val entries_bytes : str list -> n list **)
 
@@ -1423,8 +1724,8 @@ type fhist = { f_mem : hist; f_new : nat; f_pinfo : (nat * nat) option }
 
 (** val f_new_cfg : nat -> bool -> bool -> fhist **)
 
-let f_new_cfg max igs igd =
-  { f_mem = (hist_new max igs igd); f_new = O; f_pinfo = None }
+let f_new_cfg max0 igs igd =
+  { f_mem = (hist_new max0 igs igd); f_new = O; f_pinfo = None }
 
 (** val f_entries : fhist -> str list **)
 
@@ -1638,8 +1939,8 @@ let w_step u w o =
     | None -> (w, FoNoSession)
   in
   (match o with
-   | FNew (i, max, igs, igd) ->
-     ({ w_sessions = (sess_set ss i (f_new_cfg max igs igd)); w_fs = fs },
+   | FNew (i, max0, igs, igd) ->
+     ({ w_sessions = (sess_set ss i (f_new_cfg max0 igs igd)); w_fs = fs },
        FoUnit)
    | FAdd (i, l) ->
      with_sess i (fun f ->
@@ -1731,8 +2032,8 @@ let rec apply_bs_go gs out sizes =
 
 (** val apply_bs_impl : (str -> str list) -> str -> str res **)
 
-let apply_bs_impl seg s =
-  apply_bs_go (seg s) [] []
+let apply_bs_impl seg0 s =
+  apply_bs_go (seg0 s) [] []
 
 (** val bs_stack : str list -> str list **)
 
@@ -1743,8 +2044,8 @@ let bs_stack gs =
 
 (** val apply_bs : (str -> str list) -> str -> str **)
 
-let apply_bs seg s =
-  concat (rev (bs_stack (seg s)))
+let apply_bs seg0 s =
+  concat (rev (bs_stack (seg0 s)))
 
 type vres =
 | VValid
@@ -1801,32 +2102,32 @@ let strip_terminator s =
 (** val direct_go :
     (str -> str list) -> (str -> vres) option -> str -> str list -> dres list **)
 
-let rec direct_go seg v acc = function
+let rec direct_go seg0 v acc = function
 | [] -> DEof :: []
 | l :: t ->
   let (p, tr) = strip_terminator (app acc l) in
   let (s, tn) = p in
-  (match apply_bs_impl seg s with
+  (match apply_bs_impl seg0 s with
    | Ok inp ->
      (match v with
       | Some vf ->
         (match vf inp with
-         | VValid -> (DLine inp) :: (direct_go seg v [] t)
+         | VValid -> (DLine inp) :: (direct_go seg0 v [] t)
          | VIncomplete ->
-           direct_go seg v
+           direct_go seg0 v
              (app inp
                (app (if tr then (Npos (XI (XO (XI XH)))) :: [] else [])
                  (if tn then (Npos (XO (XI (XO XH)))) :: [] else []))) t
-         | VError -> DErr :: (direct_go seg v [] t)
-         | _ -> direct_go seg v inp t)
-      | None -> (DLine inp) :: (direct_go seg v [] t))
+         | VError -> DErr :: (direct_go seg0 v [] t)
+         | _ -> direct_go seg0 v inp t)
+      | None -> (DLine inp) :: (direct_go seg0 v [] t))
    | Panic -> DPanic :: [])
 
 (** val direct_all :
     (str -> str list) -> (str -> vres) option -> str -> dres list **)
 
-let direct_all seg v input =
-  direct_go seg v [] (dlines input)
+let direct_all seg0 v input =
+  direct_go seg0 v [] (dlines input)
 
 (** val brackets_go : str -> n list -> vres **)
 
@@ -2058,8 +2359,8 @@ let filename_complete root path esc0 brk q =
   let (dir_name, file_name) = rsplit_sep path in
   (match lookup_dir root dir_name with
    | Some ents ->
-     flat_map (fun e ->
-       let (name, isdir) = e in
+     flat_map (fun e0 ->
+       let (name, isdir) = e0 in
        if prefix_b file_name name
        then let p = app dir_name (app name (if isdir then sep :: [] else []))
             in
@@ -2081,7 +2382,7 @@ let complete_path root line =
        let start = add idx (S O) in
        let word =
          match bsplit line start with
-         | Some p0 -> let (_, w) = p0 in w
+         | Some p1 -> let (_, w) = p1 in w
          | None -> []
        in
        (start,
@@ -2091,7 +2392,7 @@ let complete_path root line =
        let start = add idx (S O) in
        let word =
          match bsplit line start with
-         | Some p0 -> let (_, w) = p0 in w
+         | Some p1 -> let (_, w) = p1 in w
          | None -> []
        in
        (start, (filename_complete root word None is_break0 q)))
@@ -2124,7 +2425,7 @@ let slice s a b =
         | Some p ->
           let (_, r) = p in
           (match bsplit r (sub b a) with
-           | Some p0 -> let (m0, _) = p0 in Ok m0
+           | Some p1 -> let (m0, _) = p1 in Ok m0
            | None -> Panic)
         | None -> Panic)
 
@@ -2137,7 +2438,7 @@ let str_drain s a b =
         | Some p ->
           let (l, r) = p in
           (match bsplit r (sub b a) with
-           | Some p0 -> let (m0, r') = p0 in Ok (m0, (app l r'))
+           | Some p1 -> let (m0, r') = p1 in Ok (m0, (app l r'))
            | None -> Panic)
         | None -> Panic)
 
@@ -2252,8 +2553,8 @@ let rec index_from i = function
 
 (** val gindices : (str -> str list) -> str -> (nat * str) list **)
 
-let gindices seg s =
-  index_from O (seg s)
+let gindices seg0 s =
+  index_from O (seg0 s)
 
 type 'a m = lb -> (('a * lb) * event list) res
 
@@ -2270,7 +2571,7 @@ let bind m0 f b =
     let (p, e1) = a0 in
     let (a, b1) = p in
     (match f a b1 with
-     | Ok a1 -> let (p0, e2) = a1 in Ok (p0, (app e1 e2))
+     | Ok a1 -> let (p1, e2) = a1 in Ok (p1, (app e1 e2))
      | Panic -> Panic)
   | Panic -> Panic
 
@@ -2298,8 +2599,8 @@ let lift r b =
 
 (** val emit : event -> unit m **)
 
-let emit e b =
-  Ok (((), b), (e :: []))
+let emit e0 b =
+  Ok (((), b), (e0 :: []))
 
 (** val drain : nat -> nat -> direction -> str m **)
 
@@ -2371,26 +2672,26 @@ let rec last_opt0 = function
 
 (** val next_pos : (str -> str list) -> lb -> nat -> nat option res **)
 
-let next_pos seg b n0 =
+let next_pos seg0 b n0 =
   if Nat.eqb b.pos (lb_len b)
   then Ok None
   else (match slice_from b.buf b.pos with
         | Ok r ->
           Ok
-            (match last_opt0 (firstn n0 (gindices seg r)) with
+            (match last_opt0 (firstn n0 (gindices seg0 r)) with
              | Some p -> let (i, s) = p in Some (add (add i b.pos) (blen s))
              | None -> None)
         | Panic -> Panic)
 
 (** val prev_pos : (str -> str list) -> lb -> nat -> nat option res **)
 
-let prev_pos seg b n0 =
+let prev_pos seg0 b n0 =
   if Nat.eqb b.pos O
   then Ok None
   else (match slice_to b.buf b.pos with
         | Ok l ->
           Ok
-            (match last_opt0 (firstn n0 (rev (gindices seg l))) with
+            (match last_opt0 (firstn n0 (rev (gindices seg0 l))) with
              | Some p -> let (i, _) = p in Some i
              | None -> None)
         | Panic -> Panic)
@@ -2478,11 +2779,11 @@ let rec pw_outer u w n0 gis sow =
     uData -> (str -> str list) -> lb -> nat -> word_def -> nat -> nat option
     res **)
 
-let prev_word_pos u seg b p w n0 =
+let prev_word_pos u seg0 b p w n0 =
   if Nat.eqb p O
   then Ok None
   else (match slice_to b.buf p with
-        | Ok l -> Ok (Some (pw_outer u w n0 (rev (gindices seg l)) O))
+        | Ok l -> Ok (Some (pw_outer u w n0 (rev (gindices seg0 l)) O))
         | Panic -> Panic)
 
 (** val at_is_start : at_pos -> bool **)
@@ -2539,12 +2840,12 @@ let rec nw_outer u a w n0 gis wp gi =
     uData -> (str -> str list) -> lb -> nat -> at_pos -> word_def -> nat ->
     nat option res **)
 
-let next_word_pos u seg b p a w n0 =
+let next_word_pos u seg0 b p a w n0 =
   if Nat.eqb p (lb_len b)
   then Ok None
   else (match slice_from b.buf p with
         | Ok r ->
-          let gis = gindices seg r in
+          let gis = gindices seg0 r in
           if at_is_before a
           then (match gis with
                 | [] ->
@@ -2556,8 +2857,8 @@ let next_word_pos u seg b p a w n0 =
                    then if (||) (is_emacs w) (at_is_after a)
                         then Some (lb_len b)
                         else (match gi with
-                              | Some p0 ->
-                                let (i, _) = p0 in
+                              | Some p1 ->
+                                let (i, _) = p1 in
                                 if Nat.eqb i O then None else Some (add i p)
                               | None -> None)
                    else Some (add wp p))
@@ -2569,8 +2870,8 @@ let next_word_pos u seg b p a w n0 =
                    then if (||) (is_emacs w) (at_is_after a)
                         then Some (lb_len b)
                         else (match gi with
-                              | Some p0 ->
-                                let (i, _) = p0 in
+                              | Some p1 ->
+                                let (i, _) = p1 in
                                 if Nat.eqb i O then None else Some (add i p)
                               | None -> None)
                    else Some (add wp p)))
@@ -2581,8 +2882,8 @@ let next_word_pos u seg b p a w n0 =
                 then if (||) (is_emacs w) (at_is_after a)
                      then Some (lb_len b)
                      else (match gi with
-                           | Some p0 ->
-                             let (i, _) = p0 in
+                           | Some p1 ->
+                             let (i, _) = p1 in
                              if Nat.eqb i O then None else Some (add i p)
                            | None -> None)
                 else Some (add wp p))
@@ -2609,14 +2910,14 @@ let rec last_char_len = function
 (** val search_char_pos :
     (str -> str list) -> lb -> char_search -> nat -> nat option res **)
 
-let search_char_pos seg b cs n0 =
+let search_char_pos seg0 b cs n0 =
   match cs with
   | CsForward c ->
     if Nat.eqb b.pos (lb_len b)
     then Ok None
     else (match slice_from b.buf b.pos with
           | Ok r ->
-            (match seg r with
+            (match seg0 r with
              | [] -> Ok None
              | cc :: _ ->
                let shift = add b.pos (blen cc) in
@@ -2643,7 +2944,7 @@ let search_char_pos seg b cs n0 =
     then Ok None
     else (match slice_from b.buf b.pos with
           | Ok r ->
-            (match seg r with
+            (match seg0 r with
              | [] -> Ok None
              | cc :: _ ->
                let shift = add b.pos (blen cc) in
@@ -2712,13 +3013,13 @@ let n_lines_up b n0 =
      | Ok r ->
        (match rfind_char lF l with
         | Some off ->
-          let e =
+          let e0 =
             match find_char lF r with
             | Some x -> add (add b.pos x) (S O)
             | None -> lb_len b
           in
           (match lines_up_loop b.buf n0 (add off (S O)) with
-           | Ok s -> Ok (Some (s, e))
+           | Ok s -> Ok (Some (s, e0))
            | Panic -> Panic)
         | None -> Ok None)
      | Panic -> Panic)
@@ -2726,14 +3027,14 @@ let n_lines_up b n0 =
 
 (** val lines_down_loop : str -> nat -> nat -> nat -> nat res **)
 
-let rec lines_down_loop s len n0 e =
+let rec lines_down_loop s len n0 e0 =
   match n0 with
-  | O -> Ok e
+  | O -> Ok e0
   | S n' ->
-    (match slice_from s e with
+    (match slice_from s e0 with
      | Ok r ->
        (match find_char lF r with
-        | Some off -> lines_down_loop s len n' (add (add e off) (S O))
+        | Some off -> lines_down_loop s len n' (add (add e0 off) (S O))
         | None -> Ok len)
      | Panic -> Panic)
 
@@ -2752,7 +3053,7 @@ let n_lines_down b n0 =
           in
           (match lines_down_loop b.buf (lb_len b) n0
                    (add (add b.pos off) (S O)) with
-           | Ok e -> Ok (Some (s, e))
+           | Ok e0 -> Ok (Some (s, e0))
            | Panic -> Panic)
         | None -> Ok None)
      | Panic -> Panic)
@@ -2765,18 +3066,18 @@ let set_pos p =
 
 (** val move_backward : (str -> str list) -> nat -> bool m **)
 
-let move_backward seg n0 =
+let move_backward seg0 n0 =
   bind get (fun b ->
-    bind (lift (prev_pos seg b n0)) (fun r ->
+    bind (lift (prev_pos seg0 b n0)) (fun r ->
       match r with
       | Some p -> bind (put_pos p) (fun _ -> ret true)
       | None -> ret false))
 
 (** val move_forward : (str -> str list) -> nat -> bool m **)
 
-let move_forward seg n0 =
+let move_forward seg0 n0 =
   bind get (fun b ->
-    bind (lift (next_pos seg b n0)) (fun r ->
+    bind (lift (next_pos seg0 b n0)) (fun r ->
       match r with
       | Some p -> bind (put_pos p) (fun _ -> ret true)
       | None -> ret false))
@@ -2810,10 +3111,10 @@ let move_home =
 
 let move_end =
   bind get (fun b ->
-    bind (lift (end_of_line b)) (fun e ->
-      if Nat.eqb b.pos e
+    bind (lift (end_of_line b)) (fun e0 ->
+      if Nat.eqb b.pos e0
       then ret false
-      else bind (put_pos e) (fun _ -> ret true)))
+      else bind (put_pos e0) (fun _ -> ret true)))
 
 (** val trim_end_len : uData -> str -> nat **)
 
@@ -2873,26 +3174,26 @@ let yank text n0 =
 
 let yank_pop yank_size text =
   bind get (fun b ->
-    let e = b.pos in
-    if Nat.ltb e yank_size
+    let e0 = b.pos in
+    if Nat.ltb e0 yank_size
     then fail
-    else bind (drain (sub e yank_size) e DForward) (fun _ ->
-           bind (put_pos (sub e yank_size)) (fun _ -> yank text (S O))))
+    else bind (drain (sub e0 yank_size) e0 DForward) (fun _ ->
+           bind (put_pos (sub e0 yank_size)) (fun _ -> yank text (S O))))
 
 (** val delete : (str -> str list) -> nat -> str option m **)
 
-let delete seg n0 =
+let delete seg0 n0 =
   bind get (fun b ->
-    bind (lift (next_pos seg b n0)) (fun r ->
+    bind (lift (next_pos seg0 b n0)) (fun r ->
       match r with
       | Some p -> bind (drain b.pos p DForward) (fun s -> ret (Some s))
       | None -> ret None))
 
 (** val backspace : (str -> str list) -> nat -> bool m **)
 
-let backspace seg n0 =
+let backspace seg0 n0 =
   bind get (fun b ->
-    bind (lift (prev_pos seg b n0)) (fun r ->
+    bind (lift (prev_pos seg0 b n0)) (fun r ->
       match r with
       | Some p ->
         bind (drain p b.pos DBackward) (fun _ ->
@@ -2901,15 +3202,15 @@ let backspace seg n0 =
 
 (** val kill_line : (str -> str list) -> bool m **)
 
-let kill_line seg =
+let kill_line seg0 =
   bind get (fun b ->
     if (&&) (negb (Nat.eqb (lb_len b) O)) (Nat.ltb b.pos (lb_len b))
-    then bind (lift (end_of_line b)) (fun e ->
+    then bind (lift (end_of_line b)) (fun e0 ->
            bind
-             (if Nat.eqb b.pos e
-              then bind (delete seg (S O)) (fun _ -> ret ())
-              else bind (drain b.pos e DForward) (fun _ -> ret ())) (fun _ ->
-             ret true))
+             (if Nat.eqb b.pos e0
+              then bind (delete seg0 (S O)) (fun _ -> ret ())
+              else bind (drain b.pos e0 DForward) (fun _ -> ret ()))
+             (fun _ -> ret true))
     else ret false)
 
 (** val kill_buffer : bool m **)
@@ -2922,12 +3223,12 @@ let kill_buffer =
 
 (** val discard_line : (str -> str list) -> bool m **)
 
-let discard_line seg =
+let discard_line seg0 =
   bind get (fun b ->
     if (&&) (Nat.ltb O b.pos) (negb (Nat.eqb (lb_len b) O))
     then bind (lift (start_of_line b)) (fun s ->
            if Nat.eqb b.pos s
-           then backspace seg (S O)
+           then backspace seg0 (S O)
            else bind (drain s b.pos DBackward) (fun _ ->
                   bind (put_pos s) (fun _ -> ret true)))
     else ret false)
@@ -2943,28 +3244,28 @@ let discard_buffer =
 
 (** val transpose_chars : (str -> str list) -> bool m **)
 
-let transpose_chars seg =
+let transpose_chars seg0 =
   bind get (fun b ->
-    if (||) (Nat.eqb b.pos O) (Nat.ltb (length (seg b.buf)) (S (S O)))
+    if (||) (Nat.eqb b.pos O) (Nat.ltb (length (seg0 b.buf)) (S (S O)))
     then ret false
     else bind
            (if Nat.eqb b.pos (lb_len b)
-            then bind (move_backward seg (S O)) (fun _ -> ret ())
+            then bind (move_backward seg0 (S O)) (fun _ -> ret ())
             else ret ()) (fun _ ->
-           bind (delete seg (S O)) (fun r ->
+           bind (delete seg0 (S O)) (fun r ->
              match r with
              | Some chars ->
-               bind (move_backward seg (S O)) (fun _ ->
+               bind (move_backward seg0 (S O)) (fun _ ->
                  bind (yank chars (S O)) (fun _ ->
-                   bind (move_forward seg (S O)) (fun _ -> ret true)))
+                   bind (move_forward seg0 (S O)) (fun _ -> ret true)))
              | None -> fail)))
 
 (** val move_to_prev_word :
     uData -> (str -> str list) -> word_def -> nat -> bool m **)
 
-let move_to_prev_word u seg w n0 =
+let move_to_prev_word u seg0 w n0 =
   bind get (fun b ->
-    bind (lift (prev_word_pos u seg b b.pos w n0)) (fun r ->
+    bind (lift (prev_word_pos u seg0 b b.pos w n0)) (fun r ->
       match r with
       | Some p -> bind (put_pos p) (fun _ -> ret true)
       | None -> ret false))
@@ -2972,9 +3273,9 @@ let move_to_prev_word u seg w n0 =
 (** val delete_prev_word :
     uData -> (str -> str list) -> word_def -> nat -> bool m **)
 
-let delete_prev_word u seg w n0 =
+let delete_prev_word u seg0 w n0 =
   bind get (fun b ->
-    bind (lift (prev_word_pos u seg b b.pos w n0)) (fun r ->
+    bind (lift (prev_word_pos u seg0 b b.pos w n0)) (fun r ->
       match r with
       | Some p ->
         bind (drain p b.pos DBackward) (fun _ ->
@@ -2984,9 +3285,9 @@ let delete_prev_word u seg w n0 =
 (** val move_to_next_word :
     uData -> (str -> str list) -> at_pos -> word_def -> nat -> bool m **)
 
-let move_to_next_word u seg a w n0 =
+let move_to_next_word u seg0 a w n0 =
   bind get (fun b ->
-    bind (lift (next_word_pos u seg b b.pos a w n0)) (fun r ->
+    bind (lift (next_word_pos u seg0 b b.pos a w n0)) (fun r ->
       match r with
       | Some p -> bind (put_pos p) (fun _ -> ret true)
       | None -> ret false))
@@ -2994,31 +3295,31 @@ let move_to_next_word u seg a w n0 =
 (** val delete_word :
     uData -> (str -> str list) -> at_pos -> word_def -> nat -> bool m **)
 
-let delete_word u seg a w n0 =
+let delete_word u seg0 a w n0 =
   bind get (fun b ->
-    bind (lift (next_word_pos u seg b b.pos a w n0)) (fun r ->
+    bind (lift (next_word_pos u seg0 b b.pos a w n0)) (fun r ->
       match r with
       | Some p -> bind (drain b.pos p DForward) (fun _ -> ret true)
       | None -> ret false))
 
 (** val move_to : (str -> str list) -> char_search -> nat -> bool m **)
 
-let move_to seg cs n0 =
+let move_to seg0 cs n0 =
   bind get (fun b ->
-    bind (lift (search_char_pos seg b cs n0)) (fun r ->
+    bind (lift (search_char_pos seg0 b cs n0)) (fun r ->
       match r with
       | Some p -> bind (put_pos p) (fun _ -> ret true)
       | None -> ret false))
 
 (** val delete_to : (str -> str list) -> char_search -> nat -> bool m **)
 
-let delete_to seg cs n0 =
+let delete_to seg0 cs n0 =
   bind get (fun b ->
     bind
       (lift
         (match cs with
-         | CsForwardBefore c -> search_char_pos seg b (CsForward c) n0
-         | _ -> search_char_pos seg b cs n0)) (fun r ->
+         | CsForwardBefore c -> search_char_pos seg0 b (CsForward c) n0
+         | _ -> search_char_pos seg0 b cs n0)) (fun r ->
       match r with
       | Some p ->
         (match cs with
@@ -3041,13 +3342,13 @@ let rec first_alnum u = function
 (** val skip_whitespace :
     uData -> (str -> str list) -> lb -> nat option res **)
 
-let skip_whitespace u seg b =
+let skip_whitespace u seg0 b =
   if Nat.eqb b.pos (lb_len b)
   then Ok None
   else (match slice_from b.buf b.pos with
         | Ok r ->
           Ok
-            (match first_alnum u (gindices seg r) with
+            (match first_alnum u (gindices seg0 r) with
              | Some i -> Some (add i b.pos)
              | None -> None)
         | Panic -> Panic)
@@ -3064,23 +3365,23 @@ let to_lower u s =
 
 (** val edit_word : uData -> (str -> str list) -> word_action -> bool m **)
 
-let edit_word u seg a =
+let edit_word u seg0 a =
   bind get (fun b ->
-    bind (lift (skip_whitespace u seg b)) (fun r ->
+    bind (lift (skip_whitespace u seg0 b)) (fun r ->
       match r with
       | Some start ->
-        bind (lift (next_word_pos u seg b start AtAfterEnd WEmacs (S O)))
+        bind (lift (next_word_pos u seg0 b start AtAfterEnd WEmacs (S O)))
           (fun r2 ->
           match r2 with
-          | Some e ->
-            if Nat.eqb start e
+          | Some e0 ->
+            if Nat.eqb start e0
             then ret false
-            else bind (drain start e DForward) (fun word ->
+            else bind (drain start e0 DForward) (fun word ->
                    bind
                      (lift
                        (match a with
                         | Capitalize ->
-                          (match seg word with
+                          (match seg0 word with
                            | [] -> Panic
                            | ch :: _ ->
                              (match slice_from word (blen ch) with
@@ -3097,17 +3398,17 @@ let edit_word u seg a =
 
 (** val transpose_words : uData -> (str -> str list) -> nat -> bool m **)
 
-let transpose_words u seg n0 =
-  bind (move_to_next_word u seg AtAfterEnd WEmacs n0) (fun _ ->
+let transpose_words u seg0 n0 =
+  bind (move_to_next_word u seg0 AtAfterEnd WEmacs n0) (fun _ ->
     bind get (fun b1 ->
       let w2_end = b1.pos in
-      bind (move_to_prev_word u seg WEmacs (S O)) (fun _ ->
+      bind (move_to_prev_word u seg0 WEmacs (S O)) (fun _ ->
         bind get (fun b2 ->
           let w2_beg = b2.pos in
-          bind (move_to_prev_word u seg WEmacs n0) (fun _ ->
+          bind (move_to_prev_word u seg0 WEmacs n0) (fun _ ->
             bind get (fun b3 ->
               let w1_beg = b3.pos in
-              bind (move_to_next_word u seg AtAfterEnd WEmacs (S O))
+              bind (move_to_next_word u seg0 AtAfterEnd WEmacs (S O))
                 (fun _ ->
                 bind get (fun b4 ->
                   let w1_end = b4.pos in
@@ -3153,22 +3454,22 @@ let update s p =
 (** val vi_first_print_pos :
     uData -> (str -> str list) -> lb -> nat option res **)
 
-let vi_first_print_pos u seg b =
+let vi_first_print_pos u seg0 b =
   match b.buf with
   | [] -> Ok (Some O)
   | c :: _ ->
     if u.u_is_whitespace c
-    then next_word_pos u seg b O AtStart WBig (S O)
+    then next_word_pos u seg0 b O AtStart WBig (S O)
     else Ok (Some O)
 
 (** val copy :
     uData -> (str -> str list) -> lb -> movement -> str option res **)
 
-let copy u seg b m0 =
+let copy u seg0 b m0 =
   if Nat.eqb (lb_len b) O
   then Ok None
-  else let sl = fun a e ->
-         match slice b.buf a e with
+  else let sl = fun a e0 ->
+         match slice b.buf a e0 with
          | Ok s -> Ok (Some s)
          | Panic -> Panic
        in
@@ -3184,7 +3485,7 @@ let copy u seg b m0 =
           (match start_of_line b with
            | Ok s ->
              (match end_of_line b with
-              | Ok e -> if Nat.eqb s e then Ok None else sl s e
+              | Ok e0 -> if Nat.eqb s e0 then Ok None else sl s e0
               | Panic -> Panic)
            | Panic -> Panic)
         | MBeginningOfLine ->
@@ -3193,41 +3494,42 @@ let copy u seg b m0 =
            | Panic -> Panic)
         | MEndOfLine ->
           (match end_of_line b with
-           | Ok e -> if Nat.eqb b.pos e then Ok None else sl b.pos e
+           | Ok e0 -> if Nat.eqb b.pos e0 then Ok None else sl b.pos e0
            | Panic -> Panic)
         | MBackwardWord (n0, w) ->
-          opt_map (prev_word_pos u seg b b.pos w n0) (fun p -> sl p b.pos)
+          opt_map (prev_word_pos u seg0 b b.pos w n0) (fun p -> sl p b.pos)
         | MForwardWord (n0, a, w) ->
-          opt_map (next_word_pos u seg b b.pos a w n0) (fun p -> sl b.pos p)
+          opt_map (next_word_pos u seg0 b b.pos a w n0) (fun p -> sl b.pos p)
         | MViCharSearch (n0, cs) ->
           opt_map
             (match cs with
-             | CsForwardBefore c -> search_char_pos seg b (CsForward c) n0
-             | _ -> search_char_pos seg b cs n0) (fun p ->
+             | CsForwardBefore c -> search_char_pos seg0 b (CsForward c) n0
+             | _ -> search_char_pos seg0 b cs n0) (fun p ->
             match cs with
             | CsForward c -> sl b.pos (add p (clen c))
             | CsForwardBefore _ -> sl b.pos p
             | _ -> sl p b.pos)
         | MViFirstPrint ->
-          opt_map (vi_first_print_pos u seg b) (fun p ->
+          opt_map (vi_first_print_pos u seg0 b) (fun p ->
             if Nat.ltb p b.pos
             then sl p b.pos
             else if Nat.ltb b.pos p then sl b.pos p else Ok None)
         | MBackwardChar n0 ->
-          opt_map (prev_pos seg b n0) (fun p -> sl p b.pos)
-        | MForwardChar n0 -> opt_map (next_pos seg b n0) (fun p -> sl b.pos p)
+          opt_map (prev_pos seg0 b n0) (fun p -> sl p b.pos)
+        | MForwardChar n0 ->
+          opt_map (next_pos seg0 b n0) (fun p -> sl b.pos p)
         | MLineUp n0 ->
           (match n_lines_up b n0 with
            | Ok a ->
              (match a with
-              | Some p -> let (s, e) = p in sl s e
+              | Some p -> let (s, e0) = p in sl s e0
               | None -> Ok None)
            | Panic -> Panic)
         | MLineDown n0 ->
           (match n_lines_down b n0 with
            | Ok a ->
              (match a with
-              | Some p -> let (s, e) = p in sl s e
+              | Some p -> let (s, e0) = p in sl s e0
               | None -> Ok None)
            | Panic -> Panic)
         | MWholeBuffer -> Ok (Some b.buf)
@@ -3245,19 +3547,19 @@ let notifies = function
 
 (** val kill : uData -> (str -> str list) -> movement -> bool m **)
 
-let kill u seg m0 =
+let kill u seg0 m0 =
   bind (if notifies m0 then emit EStartKill else ret ()) (fun _ ->
     bind
       (match m0 with
-       | MWholeLine -> bind move_home (fun _ -> kill_line seg)
-       | MBeginningOfLine -> discard_line seg
-       | MEndOfLine -> kill_line seg
-       | MBackwardWord (n0, w) -> delete_prev_word u seg w n0
-       | MForwardWord (n0, a, w) -> delete_word u seg a w n0
-       | MViCharSearch (n0, cs) -> delete_to seg cs n0
+       | MWholeLine -> bind move_home (fun _ -> kill_line seg0)
+       | MBeginningOfLine -> discard_line seg0
+       | MEndOfLine -> kill_line seg0
+       | MBackwardWord (n0, w) -> delete_prev_word u seg0 w n0
+       | MForwardWord (n0, a, w) -> delete_word u seg0 a w n0
+       | MViCharSearch (n0, cs) -> delete_to seg0 cs n0
        | MViFirstPrint ->
          bind get (fun b ->
-           bind (lift (vi_first_print_pos u seg b)) (fun r ->
+           bind (lift (vi_first_print_pos u seg0 b)) (fun r ->
              match r with
              | Some p ->
                if Nat.ltb p b.pos
@@ -3267,9 +3569,9 @@ let kill u seg m0 =
                     then bind (drain b.pos p DForward) (fun _ -> ret true)
                     else ret false
              | None -> ret false))
-       | MBackwardChar n0 -> backspace seg n0
+       | MBackwardChar n0 -> backspace seg0 n0
        | MForwardChar n0 ->
-         bind (delete seg n0) (fun r ->
+         bind (delete seg0 n0) (fun r ->
            ret (match r with
                 | Some _ -> true
                 | None -> false))
@@ -3278,14 +3580,14 @@ let kill u seg m0 =
            bind (lift (n_lines_up b n0)) (fun r ->
              match r with
              | Some p ->
-               let (s, e) = p in bind (delete_range s e) (fun _ -> ret true)
+               let (s, e0) = p in bind (delete_range s e0) (fun _ -> ret true)
              | None -> ret false))
        | MLineDown n0 ->
          bind get (fun b ->
            bind (lift (n_lines_down b n0)) (fun r ->
              match r with
              | Some p ->
-               let (s, e) = p in bind (delete_range s e) (fun _ -> ret true)
+               let (s, e0) = p in bind (delete_range s e0) (fun _ -> ret true)
              | None -> ret false))
        | MWholeBuffer -> bind move_buffer_start (fun _ -> kill_buffer)
        | MBeginningOfBuffer -> discard_buffer
@@ -3360,20 +3662,20 @@ let rec indent_lines lines amount index =
 (** val indent :
     uData -> (str -> str list) -> movement -> nat -> bool -> bool m **)
 
-let indent u seg m0 amount dedent =
+let indent u seg0 m0 amount dedent =
   bind get (fun b ->
     bind
       (lift
         (match m0 with
          | MBackwardWord (n0, w) ->
-           (match prev_word_pos u seg b b.pos w n0 with
+           (match prev_word_pos u seg0 b b.pos w n0 with
             | Ok a ->
               (match a with
                | Some p -> Ok (Some (p, b.pos))
                | None -> Ok None)
             | Panic -> Panic)
          | MForwardWord (n0, a, w) ->
-           (match next_word_pos u seg b b.pos a w n0 with
+           (match next_word_pos u seg0 b b.pos a w n0 with
             | Ok a0 ->
               (match a0 with
                | Some p -> Ok (Some (b.pos, p))
@@ -3395,12 +3697,12 @@ let indent u seg m0 amount dedent =
           | None -> O
         in
         bind (lift (slice_from b.buf e0)) (fun r ->
-          let e =
+          let e1 =
             match rfind_char lF r with
             | Some p -> add e0 p
             | None -> lb_len b
           in
-          bind (lift (slice b.buf start e)) (fun text ->
+          bind (lift (slice b.buf start e1)) (fun text ->
             bind
               (if dedent
                then dedent_lines u (split_lf text []) amount start
@@ -3427,7 +3729,7 @@ let rec line_up_loop s k dest_start dest_end =
 (** val move_to_line_up :
     (str -> str list) -> (str -> nat) -> nat -> nat -> bool m **)
 
-let move_to_line_up seg width n0 prompt_col =
+let move_to_line_up seg0 width n0 prompt_col =
   bind get (fun b ->
     bind (lift (slice_to b.buf b.pos)) (fun l ->
       match rfind_char lF l with
@@ -3447,7 +3749,7 @@ let move_to_line_up seg width n0 prompt_col =
               bind (lift (slice b.buf ds de)) (fun dest ->
                 bind
                   (put_pos
-                    (match nth_error (gindices seg dest) (sub column offset) with
+                    (match nth_error (gindices seg0 dest) (sub column offset) with
                      | Some p -> let (idx, _) = p in add ds idx
                      | None -> de)) (fun _ -> ret true)))))
       | None -> ret false))
@@ -3473,7 +3775,7 @@ let rec line_down_loop s len k dest_start dest_end =
 (** val move_to_line_down :
     (str -> str list) -> (str -> nat) -> nat -> nat -> bool m **)
 
-let move_to_line_down seg width n0 prompt_col =
+let move_to_line_down seg0 width n0 prompt_col =
   bind get (fun b ->
     bind (lift (slice_from b.buf b.pos)) (fun r ->
       match find_char lF r with
@@ -3502,7 +3804,7 @@ let move_to_line_down seg width n0 prompt_col =
                 bind (lift (slice b.buf ds de)) (fun dest ->
                   bind
                     (put_pos
-                      (match nth_error (gindices seg dest) column with
+                      (match nth_error (gindices seg0 dest) column with
                        | Some p -> let (idx, _) = p in add ds idx
                        | None -> de)) (fun _ -> ret true))))))
       | None -> ret false))
@@ -3562,50 +3864,51 @@ let pureM f =
 
 (** val lb_apply : uData -> (str -> str list) -> lbop -> lbret m **)
 
-let lb_apply u seg = function
+let lb_apply u seg0 = function
 | OpIns (c, n0) -> mapM (fun x -> ROptBool x) (insert c n0)
 | OpYank (s, n0) -> mapM (fun x -> ROptBool x) (yank s n0)
 | OpYankPop (k, s) -> mapM (fun x -> ROptBool x) (yank_pop k s)
-| OpMoveBackward n0 -> mapM (fun x -> RBool x) (move_backward seg n0)
-| OpMoveForward n0 -> mapM (fun x -> RBool x) (move_forward seg n0)
+| OpMoveBackward n0 -> mapM (fun x -> RBool x) (move_backward seg0 n0)
+| OpMoveForward n0 -> mapM (fun x -> RBool x) (move_forward seg0 n0)
 | OpBufferStart -> mapM (fun x -> RBool x) move_buffer_start
 | OpBufferEnd -> mapM (fun x -> RBool x) move_buffer_end
 | OpHome -> mapM (fun x -> RBool x) move_home
 | OpEnd -> mapM (fun x -> RBool x) move_end
 | OpIsEndOfInput -> pureM (fun b -> Ok (RBool (is_end_of_input u b)))
-| OpDelete n0 -> mapM (fun x -> ROptStr x) (delete seg n0)
-| OpBackspace n0 -> mapM (fun x -> RBool x) (backspace seg n0)
-| OpKillLine -> mapM (fun x -> RBool x) (kill_line seg)
+| OpDelete n0 -> mapM (fun x -> ROptStr x) (delete seg0 n0)
+| OpBackspace n0 -> mapM (fun x -> RBool x) (backspace seg0 n0)
+| OpKillLine -> mapM (fun x -> RBool x) (kill_line seg0)
 | OpKillBuffer -> mapM (fun x -> RBool x) kill_buffer
-| OpDiscardLine -> mapM (fun x -> RBool x) (discard_line seg)
+| OpDiscardLine -> mapM (fun x -> RBool x) (discard_line seg0)
 | OpDiscardBuffer -> mapM (fun x -> RBool x) discard_buffer
-| OpTransposeChars -> mapM (fun x -> RBool x) (transpose_chars seg)
-| OpPrevWord (w, n0) -> mapM (fun x -> RBool x) (move_to_prev_word u seg w n0)
+| OpTransposeChars -> mapM (fun x -> RBool x) (transpose_chars seg0)
+| OpPrevWord (w, n0) ->
+  mapM (fun x -> RBool x) (move_to_prev_word u seg0 w n0)
 | OpDeletePrevWord (w, n0) ->
-  mapM (fun x -> RBool x) (delete_prev_word u seg w n0)
+  mapM (fun x -> RBool x) (delete_prev_word u seg0 w n0)
 | OpNextWord (a, w, n0) ->
-  mapM (fun x -> RBool x) (move_to_next_word u seg a w n0)
-| OpMoveTo (cs, n0) -> mapM (fun x -> RBool x) (move_to seg cs n0)
+  mapM (fun x -> RBool x) (move_to_next_word u seg0 a w n0)
+| OpMoveTo (cs, n0) -> mapM (fun x -> RBool x) (move_to seg0 cs n0)
 | OpDeleteWord (a, w, n0) ->
-  mapM (fun x -> RBool x) (delete_word u seg a w n0)
-| OpDeleteTo (cs, n0) -> mapM (fun x -> RBool x) (delete_to seg cs n0)
-| OpEditWord a -> mapM (fun x -> RBool x) (edit_word u seg a)
-| OpTransposeWords n0 -> mapM (fun x -> RBool x) (transpose_words u seg n0)
+  mapM (fun x -> RBool x) (delete_word u seg0 a w n0)
+| OpDeleteTo (cs, n0) -> mapM (fun x -> RBool x) (delete_to seg0 cs n0)
+| OpEditWord a -> mapM (fun x -> RBool x) (edit_word u seg0 a)
+| OpTransposeWords n0 -> mapM (fun x -> RBool x) (transpose_words u seg0 n0)
 | OpReplace (a, b, s) -> mapM (fun _ -> RUnit) (replace a b s)
 | OpInsertStr (i, s) -> mapM (fun x -> RBool x) (insert_str i s)
 | OpDeleteRange (a, b) -> mapM (fun _ -> RUnit) (delete_range a b)
 | OpCopy m0 ->
   pureM (fun b ->
-    match copy u seg b m0 with
+    match copy u seg0 b m0 with
     | Ok r -> Ok (ROptStr r)
     | Panic -> Panic)
-| OpKill m0 -> mapM (fun x -> RBool x) (kill u seg m0)
-| OpIndent (m0, a, d) -> mapM (fun x -> RBool x) (indent u seg m0 a d)
+| OpKill m0 -> mapM (fun x -> RBool x) (kill u seg0 m0)
+| OpIndent (m0, a, d) -> mapM (fun x -> RBool x) (indent u seg0 m0 a d)
 | OpUpdate (s, p) -> mapM (fun _ -> RUnit) (update s p)
 | OpSetPos p -> mapM (fun _ -> RUnit) (set_pos p)
 | OpNextPos n0 ->
   pureM (fun b ->
-    match next_pos seg b n0 with
+    match next_pos seg0 b n0 with
     | Ok r -> Ok (ROptNat r)
     | Panic -> Panic)
 
@@ -3613,12 +3916,5419 @@ let lb_apply u seg = function
     uData -> (str -> str list) -> lbop list -> lb -> ((lbret * lb) * event
     list) option list **)
 
-let rec lb_run u seg ops b =
+let rec lb_run u seg0 ops b =
   match ops with
   | [] -> []
   | o :: t ->
-    (match lb_apply u seg o b with
+    (match lb_apply u seg0 o b with
      | Ok a ->
        let (p, ev) = a in
-       let (r, b') = p in (Some ((r, b'), ev)) :: (lb_run u seg t b')
+       let (r, b') = p in (Some ((r, b'), ev)) :: (lb_run u seg0 t b')
      | Panic -> None :: [])
+
+type change =
+| UBegin
+| UEnd
+| UInsert of nat * str
+| UDelete of nat * str
+| UReplace of nat * str * str
+
+type changeset = { cs_level : nat; cs_undos : change list }
+
+(** val cs_new : changeset **)
+
+let cs_new =
+  { cs_level = O; cs_undos = [] }
+
+(** val cs_begin : changeset -> changeset * nat **)
+
+let cs_begin c =
+  ({ cs_level = (S c.cs_level); cs_undos = (UBegin :: c.cs_undos) },
+    (length c.cs_undos))
+
+(** val cs_end_loop : nat -> change list -> bool -> change list * bool **)
+
+let rec cs_end_loop level undos touched =
+  match level with
+  | O -> (undos, touched)
+  | S l ->
+    (match undos with
+     | [] -> cs_end_loop l (UEnd :: undos) true
+     | c :: rest ->
+       (match c with
+        | UBegin -> cs_end_loop l rest touched
+        | _ -> cs_end_loop l (UEnd :: undos) true))
+
+(** val cs_end : changeset -> changeset * bool **)
+
+let cs_end c =
+  let (u, t) = cs_end_loop c.cs_level c.cs_undos false in
+  ({ cs_level = O; cs_undos = u }, t)
+
+(** val cs_insert : uData -> changeset -> nat -> n -> changeset **)
+
+let cs_insert u c idx ch =
+  match c.cs_undos with
+  | [] ->
+    { cs_level = c.cs_level; cs_undos = ((UInsert (idx,
+      (ch :: []))) :: c.cs_undos) }
+  | c0 :: rest ->
+    (match c0 with
+     | UInsert (i, text) ->
+       if (&&) (u.u_is_alphanumeric ch) (Nat.eqb (add i (blen text)) idx)
+       then { cs_level = c.cs_level; cs_undos = ((UInsert (i,
+              (app text (ch :: [])))) :: rest) }
+       else { cs_level = c.cs_level; cs_undos = ((UInsert (idx,
+              (ch :: []))) :: c.cs_undos) }
+     | _ ->
+       { cs_level = c.cs_level; cs_undos = ((UInsert (idx,
+         (ch :: []))) :: c.cs_undos) })
+
+(** val cs_insert_str : changeset -> nat -> str -> changeset **)
+
+let cs_insert_str c idx s = match s with
+| [] -> c
+| _ :: _ ->
+  { cs_level = c.cs_level; cs_undos = ((UInsert (idx, s)) :: c.cs_undos) }
+
+(** val single_char : uData -> (str -> str list) -> str -> bool **)
+
+let single_char u seg0 s =
+  match seg0 s with
+  | [] -> false
+  | g :: l ->
+    (match l with
+     | [] -> forallb u.u_is_alphanumeric g
+     | _ :: _ -> false)
+
+(** val cs_delete :
+    uData -> (str -> str list) -> changeset -> nat -> str -> changeset **)
+
+let cs_delete u seg0 c indx s = match s with
+| [] -> c
+| _ :: _ ->
+  (match c.cs_undos with
+   | [] ->
+     { cs_level = c.cs_level; cs_undos = ((UDelete (indx, s)) :: c.cs_undos) }
+   | c0 :: rest ->
+     (match c0 with
+      | UDelete (i, text) ->
+        if (&&) (single_char u seg0 s)
+             ((||) (Nat.eqb i indx) (Nat.eqb i (add indx (blen s))))
+        then if Nat.eqb i indx
+             then { cs_level = c.cs_level; cs_undos = ((UDelete (i,
+                    (app text s))) :: rest) }
+             else { cs_level = c.cs_level; cs_undos = ((UDelete (indx,
+                    (app s text))) :: rest) }
+        else { cs_level = c.cs_level; cs_undos = ((UDelete (indx,
+               s)) :: c.cs_undos) }
+      | _ ->
+        { cs_level = c.cs_level; cs_undos = ((UDelete (indx,
+          s)) :: c.cs_undos) }))
+
+(** val cs_replace : changeset -> nat -> str -> str -> changeset **)
+
+let cs_replace c indx old_ new_ =
+  match c.cs_undos with
+  | [] ->
+    { cs_level = c.cs_level; cs_undos = ((UReplace (indx, old_,
+      new_)) :: c.cs_undos) }
+  | c0 :: rest ->
+    (match c0 with
+     | UReplace (i, old, new0) ->
+       if Nat.eqb (add i (blen new0)) indx
+       then { cs_level = c.cs_level; cs_undos = ((UReplace (i,
+              (app old old_), (app new0 new_))) :: rest) }
+       else { cs_level = c.cs_level; cs_undos = ((UReplace (indx, old_,
+              new_)) :: c.cs_undos) }
+     | _ ->
+       { cs_level = c.cs_level; cs_undos = ((UReplace (indx, old_,
+         new_)) :: c.cs_undos) })
+
+(** val cs_notify :
+    uData -> (str -> str list) -> changeset -> event -> changeset **)
+
+let cs_notify u seg0 c = function
+| EInsertChar (i, ch) -> cs_insert u c i ch
+| EInsertStr (i, s) -> cs_insert_str c i s
+| EDelete (i, s, _) -> cs_delete u seg0 c i s
+| EReplace (i, o, n0) -> cs_replace c i o n0
+| _ -> c
+
+(** val cs_notify_all :
+    uData -> (str -> str list) -> changeset -> event list -> changeset **)
+
+let cs_notify_all u seg0 c es =
+  fold_left (cs_notify u seg0) es c
+
+(** val change_undo : change -> lb -> lb res **)
+
+let change_undo ch b =
+  match ch with
+  | UInsert (idx, text) ->
+    (match delete_range idx (add idx (blen text)) b with
+     | Ok a -> let (p, _) = a in let (_, b') = p in Ok b'
+     | Panic -> Panic)
+  | UDelete (idx, text) ->
+    (match insert_str idx text b with
+     | Ok a ->
+       let (p, _) = a in
+       let (_, b') = p in
+       (match set_pos (add idx (blen text)) b' with
+        | Ok a0 -> let (p1, _) = a0 in let (_, b'') = p1 in Ok b''
+        | Panic -> Panic)
+     | Panic -> Panic)
+  | UReplace (idx, old, new0) ->
+    (match replace idx (add idx (blen new0)) old b with
+     | Ok a -> let (p, _) = a in let (_, b') = p in Ok b'
+     | Panic -> Panic)
+  | _ -> Panic
+
+(** val cs_undo_loop :
+    change list -> lb -> nat -> nat -> z -> bool -> ((change
+    list * lb) * bool) res **)
+
+let rec cs_undo_loop undos b n0 count waiting undone =
+  match undos with
+  | [] -> Ok (([], b), undone)
+  | ch :: rest ->
+    let step = fun b' waiting' undone' ->
+      if Z.leb waiting' Z0
+      then if Nat.leb n0 (S count)
+           then Ok ((rest, b'), undone')
+           else cs_undo_loop rest b' n0 (S count) waiting' undone'
+      else cs_undo_loop rest b' n0 count waiting' undone'
+    in
+    (match ch with
+     | UBegin -> step b (Z.sub waiting (Zpos XH)) undone
+     | UEnd -> step b (Z.add waiting (Zpos XH)) undone
+     | _ ->
+       (match change_undo ch b with
+        | Ok b' -> step b' waiting true
+        | Panic -> Panic))
+
+(** val cs_undo : changeset -> lb -> nat -> ((changeset * lb) * bool) res **)
+
+let cs_undo c b n0 =
+  match cs_undo_loop c.cs_undos b n0 O Z0 false with
+  | Ok a ->
+    let (p, d) = a in
+    let (u, b') = p in Ok (({ cs_level = c.cs_level; cs_undos = u }, b'), d)
+  | Panic -> Panic
+
+(** val trunc_level : change list -> nat -> nat **)
+
+let rec trunc_level dropped level =
+  match dropped with
+  | [] -> level
+  | ch :: rest ->
+    let l = trunc_level rest level in
+    (match ch with
+     | UBegin -> sub l (S O)
+     | UEnd -> S l
+     | _ -> l)
+
+(** val cs_truncate : changeset -> nat -> changeset **)
+
+let cs_truncate c len =
+  let k = sub (length c.cs_undos) len in
+  { cs_level = (trunc_level (firstn k c.cs_undos) c.cs_level); cs_undos =
+  (skipn k c.cs_undos) }
+
+(** val cs_last_insert_go : change list -> str option **)
+
+let rec cs_last_insert_go = function
+| [] -> None
+| c :: rest ->
+  (match c with
+   | UEnd -> cs_last_insert_go rest
+   | UInsert (_, text) -> Some text
+   | UReplace (_, _, new0) -> Some new0
+   | _ -> None)
+
+(** val cs_last_insert : changeset -> str option **)
+
+let cs_last_insert c =
+  cs_last_insert_go c.cs_undos
+
+type kr_action =
+| KAKill
+| KAYank of nat
+| KAOther
+
+type kr_mode =
+| KAppend
+| KPrepend
+
+type killring = { kr_slots : str list; kr_cap : nat; kr_index : nat;
+                  kr_last : kr_action; kr_killing : bool }
+
+(** val kr_new : nat -> killring **)
+
+let kr_new size =
+  { kr_slots = []; kr_cap = size; kr_index = O; kr_last = KAOther;
+    kr_killing = false }
+
+(** val kr_reset : killring -> killring **)
+
+let kr_reset k =
+  { kr_slots = k.kr_slots; kr_cap = k.kr_cap; kr_index = k.kr_index;
+    kr_last = KAOther; kr_killing = k.kr_killing }
+
+(** val list_set : 'a1 list -> nat -> 'a1 -> 'a1 list **)
+
+let rec list_set l i x =
+  match l with
+  | [] -> []
+  | a :: t -> (match i with
+               | O -> x :: t
+               | S j -> a :: (list_set t j x))
+
+(** val kr_kill : killring -> str -> kr_mode -> killring res **)
+
+let kr_kill k text m0 =
+  match k.kr_last with
+  | KAKill ->
+    if Nat.eqb k.kr_cap O
+    then Ok k
+    else (match nth_error k.kr_slots k.kr_index with
+          | Some s ->
+            let s' =
+              match m0 with
+              | KAppend -> app s text
+              | KPrepend -> app text s
+            in
+            Ok { kr_slots = (list_set k.kr_slots k.kr_index s'); kr_cap =
+            k.kr_cap; kr_index = k.kr_index; kr_last = KAKill; kr_killing =
+            k.kr_killing }
+          | None -> Panic)
+  | _ ->
+    if Nat.eqb k.kr_cap O
+    then Ok { kr_slots = k.kr_slots; kr_cap = k.kr_cap; kr_index =
+           k.kr_index; kr_last = KAKill; kr_killing = k.kr_killing }
+    else let idx =
+           if Nat.eqb k.kr_index (sub k.kr_cap (S O))
+           then O
+           else if negb (Nat.eqb (length k.kr_slots) O)
+                then S k.kr_index
+                else k.kr_index
+         in
+         if Nat.eqb idx (length k.kr_slots)
+         then Ok { kr_slots = (app k.kr_slots (text :: [])); kr_cap =
+                k.kr_cap; kr_index = idx; kr_last = KAKill; kr_killing =
+                k.kr_killing }
+         else if Nat.ltb idx (length k.kr_slots)
+              then Ok { kr_slots = (list_set k.kr_slots idx text); kr_cap =
+                     k.kr_cap; kr_index = idx; kr_last = KAKill; kr_killing =
+                     k.kr_killing }
+              else Panic
+
+(** val kr_yank : killring -> killring * str option **)
+
+let kr_yank k =
+  match nth_error k.kr_slots k.kr_index with
+  | Some s ->
+    ({ kr_slots = k.kr_slots; kr_cap = k.kr_cap; kr_index = k.kr_index;
+      kr_last = (KAYank (blen s)); kr_killing = k.kr_killing }, (Some s))
+  | None -> (k, None)
+
+(** val kr_yank_pop : killring -> killring * (nat * str) option **)
+
+let kr_yank_pop k =
+  match k.kr_last with
+  | KAYank size ->
+    (match k.kr_slots with
+     | [] -> (k, None)
+     | _ :: _ ->
+       let idx =
+         if Nat.eqb k.kr_index O
+         then sub (length k.kr_slots) (S O)
+         else sub k.kr_index (S O)
+       in
+       (match nth_error k.kr_slots idx with
+        | Some s ->
+          ({ kr_slots = k.kr_slots; kr_cap = k.kr_cap; kr_index = idx;
+            kr_last = (KAYank (blen s)); kr_killing = k.kr_killing }, (Some
+            (size, s)))
+        | None -> (k, None)))
+  | _ -> (k, None)
+
+(** val kr_notify : killring -> event -> killring res **)
+
+let kr_notify k = function
+| EDelete (_, s, d) ->
+  if k.kr_killing
+  then kr_kill k s (match d with
+                    | DForward -> KAppend
+                    | DBackward -> KPrepend)
+  else Ok k
+| EStartKill ->
+  Ok { kr_slots = k.kr_slots; kr_cap = k.kr_cap; kr_index = k.kr_index;
+    kr_last = k.kr_last; kr_killing = true }
+| EStopKill ->
+  Ok { kr_slots = k.kr_slots; kr_cap = k.kr_cap; kr_index = k.kr_index;
+    kr_last = k.kr_last; kr_killing = false }
+| _ -> Ok k
+
+(** val kr_notify_all : killring -> event list -> killring res **)
+
+let rec kr_notify_all k = function
+| [] -> Ok k
+| e0 :: t ->
+  (match kr_notify k e0 with
+   | Ok k' -> kr_notify_all k' t
+   | Panic -> Panic)
+
+type pos2 = { p_col : nat; p_row : nat }
+
+(** val p0 : pos2 **)
+
+let p0 =
+  { p_col = O; p_row = O }
+
+(** val pos2_eqb : pos2 -> pos2 -> bool **)
+
+let pos2_eqb a b =
+  (&&) (Nat.eqb a.p_col b.p_col) (Nat.eqb a.p_row b.p_row)
+
+type layout = { l_prompt_size : pos2; l_default_prompt : bool;
+                l_cursor : pos2; l_end : pos2 }
+
+(** val layout0 : layout **)
+
+let layout0 =
+  { l_prompt_size = p0; l_default_prompt = false; l_cursor = p0; l_end = p0 }
+
+(** val wcwidth : uData -> str -> nat **)
+
+let wcwidth u g =
+  fold_left (fun a c -> add a (u.u_width c)) g O
+
+(** val gwidth : uData -> str -> nat -> nat * nat **)
+
+let gwidth u g = function
+| O ->
+  if str_eqb g ((Npos (XI (XI (XO (XI XH))))) :: [])
+  then (O, (S O))
+  else if str_eqb g ((Npos (XO (XI (XO XH)))) :: [])
+       then (O, O)
+       else ((wcwidth u g), O)
+| S n0 ->
+  (match n0 with
+   | O ->
+     (O,
+       (if str_eqb g ((Npos (XI (XI (XO (XI (XI (XO XH))))))) :: [])
+        then S (S O)
+        else O))
+   | S n1 ->
+     (match n1 with
+      | O ->
+        (O,
+          (if (||) (str_eqb g ((Npos (XI (XI (XO (XI (XI XH)))))) :: []))
+                (match g with
+                 | [] -> false
+                 | c :: _ ->
+                   (&&) (N.leb (Npos (XO (XO (XO (XO (XI XH)))))) c)
+                     (N.leb c (Npos (XI (XO (XO (XI (XI XH))))))))
+           then S (S O)
+           else O))
+      | S _ ->
+        if str_eqb g ((Npos (XI (XI (XO (XI XH))))) :: [])
+        then (O, (S O))
+        else if str_eqb g ((Npos (XO (XI (XO XH)))) :: [])
+             then (O, O)
+             else ((wcwidth u g), O)))
+
+(** val calc_go : uData -> nat -> nat -> str list -> pos2 -> nat -> pos2 **)
+
+let rec calc_go u cols0 tab_stop gs p esc0 =
+  match gs with
+  | [] -> p
+  | g :: t ->
+    if str_eqb g ((Npos (XO (XI (XO XH)))) :: [])
+    then calc_go u cols0 tab_stop t { p_col = O; p_row = (S p.p_row) } esc0
+    else let (cw, esc') =
+           if str_eqb g ((Npos (XI (XO (XO XH)))) :: [])
+           then ((sub tab_stop (Nat.modulo p.p_col tab_stop)), esc0)
+           else gwidth u g esc0
+         in
+         let col = add p.p_col cw in
+         if Nat.ltb cols0 col
+         then calc_go u cols0 tab_stop t { p_col = cw; p_row = (S p.p_row) }
+                esc'
+         else calc_go u cols0 tab_stop t { p_col = col; p_row = p.p_row } esc'
+
+(** val calculate_position :
+    uData -> (str -> str list) -> nat -> nat -> str -> pos2 -> pos2 **)
+
+let calculate_position u seg0 cols0 tab_stop s orig =
+  let p = calc_go u cols0 tab_stop (seg0 s) orig O in
+  if Nat.eqb p.p_col cols0 then { p_col = O; p_row = (S p.p_row) } else p
+
+(** val layout_width : uData -> str -> nat **)
+
+let layout_width =
+  wcwidth
+
+(** val compute_layout :
+    uData -> (str -> str list) -> nat -> nat -> pos2 -> bool -> str -> str ->
+    str option -> layout **)
+
+let compute_layout u seg0 cols0 tab_stop prompt_size default_prompt before after info =
+  let cursor = calculate_position u seg0 cols0 tab_stop before prompt_size in
+  let e0 =
+    match after with
+    | [] -> cursor
+    | _ :: _ -> calculate_position u seg0 cols0 tab_stop after cursor
+  in
+  let e' =
+    match info with
+    | Some i -> calculate_position u seg0 cols0 tab_stop i e0
+    | None -> e0
+  in
+  { l_prompt_size = prompt_size; l_default_prompt = default_prompt;
+  l_cursor = cursor; l_end = e' }
+
+(** val digits_fuel : nat -> nat -> str -> str **)
+
+let rec digits_fuel fuel n0 acc =
+  match fuel with
+  | O -> acc
+  | S f ->
+    let d = N.of_nat (Nat.modulo n0 (S (S (S (S (S (S (S (S (S (S O)))))))))))
+    in
+    let acc' = (N.add (Npos (XO (XO (XO (XO (XI XH)))))) d) :: acc in
+    if Nat.ltb n0 (S (S (S (S (S (S (S (S (S (S O))))))))))
+    then acc'
+    else digits_fuel f (Nat.div n0 (S (S (S (S (S (S (S (S (S (S O)))))))))))
+           acc'
+
+(** val dec : nat -> str **)
+
+let dec n0 =
+  digits_fuel (S n0) n0 []
+
+(** val eSC : n **)
+
+let eSC =
+  Npos (XI (XI (XO (XI XH))))
+
+(** val csi : nat -> n -> str **)
+
+let csi n0 final =
+  app (eSC :: ((Npos (XI (XI (XO (XI (XI (XO XH))))))) :: []))
+    (app (dec n0) (final :: []))
+
+(** val clear_old_rows : layout -> str **)
+
+let clear_old_rows lay =
+  let cur = lay.l_cursor.p_row in
+  let old_rows = lay.l_end.p_row in
+  let mv = sub old_rows cur in
+  app
+    (if Nat.ltb O mv
+     then csi mv (Npos (XO (XI (XO (XO (XO (XO XH)))))))
+     else [])
+    (app
+      (concat
+        (repeat ((Npos (XI (XO (XI XH)))) :: (eSC :: ((Npos (XI (XI (XO (XI
+          (XI (XO XH))))))) :: ((Npos (XI (XI (XO (XI (XO (XO
+          XH))))))) :: (eSC :: ((Npos (XI (XI (XO (XI (XI (XO
+          XH))))))) :: ((Npos (XI (XO (XO (XO (XO (XO XH))))))) :: [])))))))
+          old_rows)) ((Npos (XI (XO (XI XH)))) :: (eSC :: ((Npos (XI (XI (XO
+      (XI (XI (XO XH))))))) :: ((Npos (XI (XI (XO (XI (XO (XO
+      XH))))))) :: [])))))
+
+(** val ends_with_lf : str -> bool **)
+
+let rec ends_with_lf = function
+| [] -> false
+| c :: t ->
+  (match t with
+   | [] -> N.eqb c (Npos (XO (XI (XO XH))))
+   | _ :: _ -> ends_with_lf t)
+
+(** val refresh_bytes :
+    str -> str -> str -> str option -> layout -> layout -> str **)
+
+let refresh_bytes prompt line_shown line_raw hint old new0 =
+  let cursor = new0.l_cursor in
+  let e0 = new0.l_end in
+  app (clear_old_rows old)
+    (app prompt
+      (app line_shown
+        (app (match hint with
+              | Some h -> h
+              | None -> [])
+          (app
+            (if (&&) ((&&) (Nat.eqb e0.p_col O) (Nat.ltb O e0.p_row))
+                  (negb
+                    (match hint with
+                     | Some h -> ends_with_lf h
+                     | None -> ends_with_lf line_raw))
+             then (Npos (XO (XI (XO XH)))) :: []
+             else [])
+            (app
+              (let up = sub e0.p_row cursor.p_row in
+               if Nat.ltb O up
+               then csi up (Npos (XI (XO (XO (XO (XO (XO XH)))))))
+               else [])
+              (if Nat.ltb O cursor.p_col
+               then app ((Npos (XI (XO (XI XH)))) :: [])
+                      (csi cursor.p_col (Npos (XI (XI (XO (XO (XO (XO
+                        XH))))))))
+               else (Npos (XI (XO (XI XH)))) :: []))))))
+
+(** val move_one_or_n : nat -> n -> str **)
+
+let move_one_or_n n0 final =
+  if Nat.eqb n0 (S O)
+  then eSC :: ((Npos (XI (XI (XO (XI (XI (XO XH))))))) :: (final :: []))
+  else csi n0 final
+
+(** val move_cursor_bytes : pos2 -> pos2 -> str **)
+
+let move_cursor_bytes old new0 =
+  app
+    (if Nat.ltb old.p_row new0.p_row
+     then move_one_or_n (sub new0.p_row old.p_row) (Npos (XO (XI (XO (XO (XO
+            (XO XH)))))))
+     else if Nat.ltb new0.p_row old.p_row
+          then move_one_or_n (sub old.p_row new0.p_row) (Npos (XI (XO (XO (XO
+                 (XO (XO XH)))))))
+          else [])
+    (if Nat.ltb old.p_col new0.p_col
+     then move_one_or_n (sub new0.p_col old.p_col) (Npos (XI (XI (XO (XO (XO
+            (XO XH)))))))
+     else if Nat.ltb new0.p_col old.p_col
+          then move_one_or_n (sub old.p_col new0.p_col) (Npos (XO (XO (XI (XO
+                 (XO (XO XH)))))))
+          else [])
+
+type keycode =
+| KChar of n
+| KBackspace
+| KBackTab
+| KDelete
+| KDown
+| KEnd
+| KEnter
+| KEsc
+| KF of nat
+| KHome
+| KInsert
+| KLeft
+| KNull
+| KPageDown
+| KPageUp
+| KRight
+| KTab
+| KUp
+| KUnknown
+| KPasteStart
+| KPasteEnd
+
+type mods = { m_ctrl : bool; m_alt : bool; m_shift : bool }
+
+type key = keycode * mods
+
+(** val m_NONE : mods **)
+
+let m_NONE =
+  { m_ctrl = false; m_alt = false; m_shift = false }
+
+(** val m_CTRL : mods **)
+
+let m_CTRL =
+  { m_ctrl = true; m_alt = false; m_shift = false }
+
+(** val m_ALT : mods **)
+
+let m_ALT =
+  { m_ctrl = false; m_alt = true; m_shift = false }
+
+(** val m_CTRL_ALT : mods **)
+
+let m_CTRL_ALT =
+  { m_ctrl = true; m_alt = true; m_shift = false }
+
+(** val mods_eqb : mods -> mods -> bool **)
+
+let mods_eqb a b =
+  (&&) ((&&) (eqb a.m_ctrl b.m_ctrl) (eqb a.m_alt b.m_alt))
+    (eqb a.m_shift b.m_shift)
+
+(** val mods_empty : mods -> bool **)
+
+let mods_empty m0 =
+  mods_eqb m0 m_NONE
+
+(** val with_ctrl : mods -> mods **)
+
+let with_ctrl m0 =
+  { m_ctrl = true; m_alt = m0.m_alt; m_shift = m0.m_shift }
+
+(** val with_alt : mods -> mods **)
+
+let with_alt m0 =
+  { m_ctrl = m0.m_ctrl; m_alt = true; m_shift = m0.m_shift }
+
+(** val no_shift : mods -> mods **)
+
+let no_shift m0 =
+  { m_ctrl = m0.m_ctrl; m_alt = m0.m_alt; m_shift = false }
+
+(** val keycode_eqb : keycode -> keycode -> bool **)
+
+let keycode_eqb a b =
+  match a with
+  | KChar x -> (match b with
+                | KChar y -> N.eqb x y
+                | _ -> false)
+  | KBackspace -> (match b with
+                   | KBackspace -> true
+                   | _ -> false)
+  | KBackTab -> (match b with
+                 | KBackTab -> true
+                 | _ -> false)
+  | KDelete -> (match b with
+                | KDelete -> true
+                | _ -> false)
+  | KDown -> (match b with
+              | KDown -> true
+              | _ -> false)
+  | KEnd -> (match b with
+             | KEnd -> true
+             | _ -> false)
+  | KEnter -> (match b with
+               | KEnter -> true
+               | _ -> false)
+  | KEsc -> (match b with
+             | KEsc -> true
+             | _ -> false)
+  | KF x -> (match b with
+             | KF y -> Nat.eqb x y
+             | _ -> false)
+  | KHome -> (match b with
+              | KHome -> true
+              | _ -> false)
+  | KInsert -> (match b with
+                | KInsert -> true
+                | _ -> false)
+  | KLeft -> (match b with
+              | KLeft -> true
+              | _ -> false)
+  | KNull -> (match b with
+              | KNull -> true
+              | _ -> false)
+  | KPageDown -> (match b with
+                  | KPageDown -> true
+                  | _ -> false)
+  | KPageUp -> (match b with
+                | KPageUp -> true
+                | _ -> false)
+  | KRight -> (match b with
+               | KRight -> true
+               | _ -> false)
+  | KTab -> (match b with
+             | KTab -> true
+             | _ -> false)
+  | KUp -> (match b with
+            | KUp -> true
+            | _ -> false)
+  | KUnknown -> (match b with
+                 | KUnknown -> true
+                 | _ -> false)
+  | KPasteStart -> (match b with
+                    | KPasteStart -> true
+                    | _ -> false)
+  | KPasteEnd -> (match b with
+                  | KPasteEnd -> true
+                  | _ -> false)
+
+(** val key_eqb : key -> key -> bool **)
+
+let key_eqb a b =
+  (&&) (keycode_eqb (fst a) (fst b)) (mods_eqb (snd a) (snd b))
+
+(** val key_new : uData -> n -> mods -> key **)
+
+let key_new u c m0 =
+  if negb (u.u_is_control c)
+  then ((KChar c), (if mods_empty m0 then m0 else no_shift m0))
+  else if N.eqb c N0
+       then ((KChar (Npos (XO (XO (XO (XO (XO (XO XH)))))))), (with_ctrl m0))
+       else if N.eqb c (Npos (XO (XO (XO XH))))
+            then (KBackspace, m0)
+            else if N.eqb c (Npos (XI (XO (XO XH))))
+                 then if m0.m_shift
+                      then (KBackTab, (no_shift m0))
+                      else (KTab, m0)
+                 else if N.eqb c (Npos (XI (XO (XI XH))))
+                      then (KEnter, m0)
+                      else if N.eqb c (Npos (XI (XI (XO (XI XH)))))
+                           then (KEsc, m0)
+                           else if N.ltb c (Npos (XO (XO (XO (XO (XO XH))))))
+                                then ((KChar
+                                       (N.add c (Npos (XO (XO (XO (XO (XO (XO
+                                         XH))))))))), (with_ctrl m0))
+                                else if N.eqb c (Npos (XI (XI (XI (XI (XI (XI
+                                          XH)))))))
+                                     then (KBackspace, m0)
+                                     else if N.eqb c (Npos (XI (XI (XO (XI
+                                               (XI (XO (XO XH))))))))
+                                          then (KEsc, { m_ctrl = m0.m_ctrl;
+                                                 m_alt = m0.m_alt; m_shift =
+                                                 true })
+                                          else (KNull, m0)
+
+(** val is_digit : n -> bool **)
+
+let is_digit c =
+  (&&) (N.leb (Npos (XO (XO (XO (XO (XI XH)))))) c)
+    (N.leb c (Npos (XI (XO (XO (XI (XI XH)))))))
+
+(** val assoc_key : n list -> (n list * key) list -> key option **)
+
+let rec assoc_key k = function
+| [] -> None
+| p1 :: rest ->
+  let (p, v) = p1 in if str_eqb p k then Some v else assoc_key k rest
+
+(** val k_UNKNOWN : key **)
+
+let k_UNKNOWN =
+  (KUnknown, m_NONE)
+
+(** val lookup_key : n list -> (n list * key) list -> key **)
+
+let lookup_key k t =
+  match assoc_key k t with
+  | Some v -> v
+  | None -> k_UNKNOWN
+
+(** val tab_csi_ansi : (n list * key) list **)
+
+let tab_csi_ansi =
+  (((Npos (XI (XO (XO (XO (XO (XO XH))))))) :: []), (KUp, { m_ctrl = false;
+    m_alt = false; m_shift = false })) :: ((((Npos (XO (XI (XO (XO (XO (XO
+    XH))))))) :: []), (KDown, { m_ctrl = false; m_alt = false; m_shift =
+    false })) :: ((((Npos (XI (XI (XO (XO (XO (XO XH))))))) :: []), (KRight,
+    { m_ctrl = false; m_alt = false; m_shift = false })) :: ((((Npos (XO (XO
+    (XI (XO (XO (XO XH))))))) :: []), (KLeft, { m_ctrl = false; m_alt =
+    false; m_shift = false })) :: ((((Npos (XO (XI (XI (XO (XO (XO
+    XH))))))) :: []), (KEnd, { m_ctrl = false; m_alt = false; m_shift =
+    false })) :: ((((Npos (XO (XO (XO (XI (XO (XO XH))))))) :: []), (KHome,
+    { m_ctrl = false; m_alt = false; m_shift = false })) :: ((((Npos (XO (XI
+    (XO (XI (XI (XO XH))))))) :: []), (KBackTab, { m_ctrl = false; m_alt =
+    false; m_shift = false })) :: ((((Npos (XI (XO (XO (XO (XO (XI
+    XH))))))) :: []), (KUp, { m_ctrl = false; m_alt = false; m_shift =
+    true })) :: ((((Npos (XO (XI (XO (XO (XO (XI XH))))))) :: []), (KDown,
+    { m_ctrl = false; m_alt = false; m_shift = true })) :: ((((Npos (XI (XI
+    (XO (XO (XO (XI XH))))))) :: []), (KRight, { m_ctrl = false; m_alt =
+    false; m_shift = true })) :: ((((Npos (XO (XO (XI (XO (XO (XI
+    XH))))))) :: []), (KLeft, { m_ctrl = false; m_alt = false; m_shift =
+    true })) :: []))))))))))
+
+(** val tab_csi_linux : (n list * key) list **)
+
+let tab_csi_linux =
+  (((Npos (XI (XO (XO (XO (XO (XO XH))))))) :: []), ((KF (S O)), { m_ctrl =
+    false; m_alt = false; m_shift = false })) :: ((((Npos (XO (XI (XO (XO (XO
+    (XO XH))))))) :: []), ((KF (S (S O))), { m_ctrl = false; m_alt = false;
+    m_shift = false })) :: ((((Npos (XI (XI (XO (XO (XO (XO XH))))))) :: []),
+    ((KF (S (S (S O)))), { m_ctrl = false; m_alt = false; m_shift =
+    false })) :: ((((Npos (XO (XO (XI (XO (XO (XO XH))))))) :: []), ((KF (S
+    (S (S (S O))))), { m_ctrl = false; m_alt = false; m_shift =
+    false })) :: ((((Npos (XI (XO (XI (XO (XO (XO XH))))))) :: []), ((KF (S
+    (S (S (S (S O)))))), { m_ctrl = false; m_alt = false; m_shift =
+    false })) :: []))))
+
+(** val tab_ext_tilde : (n list * key) list **)
+
+let tab_ext_tilde =
+  (((Npos (XI (XO (XO (XO (XI XH)))))) :: []), (KHome, { m_ctrl = false;
+    m_alt = false; m_shift = false })) :: ((((Npos (XI (XI (XI (XO (XI
+    XH)))))) :: []), (KHome, { m_ctrl = false; m_alt = false; m_shift =
+    false })) :: ((((Npos (XO (XI (XO (XO (XI XH)))))) :: []), (KInsert,
+    { m_ctrl = false; m_alt = false; m_shift = false })) :: ((((Npos (XI (XI
+    (XO (XO (XI XH)))))) :: []), (KDelete, { m_ctrl = false; m_alt = false;
+    m_shift = false })) :: ((((Npos (XO (XO (XI (XO (XI XH)))))) :: []),
+    (KEnd, { m_ctrl = false; m_alt = false; m_shift = false })) :: ((((Npos
+    (XO (XO (XO (XI (XI XH)))))) :: []), (KEnd, { m_ctrl = false; m_alt =
+    false; m_shift = false })) :: ((((Npos (XI (XO (XI (XO (XI
+    XH)))))) :: []), (KPageUp, { m_ctrl = false; m_alt = false; m_shift =
+    false })) :: ((((Npos (XO (XI (XI (XO (XI XH)))))) :: []), (KPageDown,
+    { m_ctrl = false; m_alt = false; m_shift = false })) :: [])))))))
+
+(** val tab_ext_2d_tilde : (n list * key) list **)
+
+let tab_ext_2d_tilde =
+  (((Npos (XI (XO (XO (XO (XI XH)))))) :: ((Npos (XI (XO (XO (XO (XI
+    XH)))))) :: [])), ((KF (S O)), { m_ctrl = false; m_alt = false; m_shift =
+    false })) :: ((((Npos (XI (XO (XO (XO (XI XH)))))) :: ((Npos (XO (XI (XO
+    (XO (XI XH)))))) :: [])), ((KF (S (S O))), { m_ctrl = false; m_alt =
+    false; m_shift = false })) :: ((((Npos (XI (XO (XO (XO (XI
+    XH)))))) :: ((Npos (XI (XI (XO (XO (XI XH)))))) :: [])), ((KF (S (S (S
+    O)))), { m_ctrl = false; m_alt = false; m_shift = false })) :: ((((Npos
+    (XI (XO (XO (XO (XI XH)))))) :: ((Npos (XO (XO (XI (XO (XI
+    XH)))))) :: [])), ((KF (S (S (S (S O))))), { m_ctrl = false; m_alt =
+    false; m_shift = false })) :: ((((Npos (XI (XO (XO (XO (XI
+    XH)))))) :: ((Npos (XI (XO (XI (XO (XI XH)))))) :: [])), ((KF (S (S (S (S
+    (S O)))))), { m_ctrl = false; m_alt = false; m_shift =
+    false })) :: ((((Npos (XI (XO (XO (XO (XI XH)))))) :: ((Npos (XI (XI (XI
+    (XO (XI XH)))))) :: [])), ((KF (S (S (S (S (S (S O))))))), { m_ctrl =
+    false; m_alt = false; m_shift = false })) :: ((((Npos (XI (XO (XO (XO (XI
+    XH)))))) :: ((Npos (XO (XO (XO (XI (XI XH)))))) :: [])), ((KF (S (S (S (S
+    (S (S (S O)))))))), { m_ctrl = false; m_alt = false; m_shift =
+    false })) :: ((((Npos (XI (XO (XO (XO (XI XH)))))) :: ((Npos (XI (XO (XO
+    (XI (XI XH)))))) :: [])), ((KF (S (S (S (S (S (S (S (S O))))))))),
+    { m_ctrl = false; m_alt = false; m_shift = false })) :: ((((Npos (XO (XI
+    (XO (XO (XI XH)))))) :: ((Npos (XO (XO (XO (XO (XI XH)))))) :: [])), ((KF
+    (S (S (S (S (S (S (S (S (S O)))))))))), { m_ctrl = false; m_alt = false;
+    m_shift = false })) :: ((((Npos (XO (XI (XO (XO (XI XH)))))) :: ((Npos
+    (XI (XO (XO (XO (XI XH)))))) :: [])), ((KF (S (S (S (S (S (S (S (S (S (S
+    O))))))))))), { m_ctrl = false; m_alt = false; m_shift =
+    false })) :: ((((Npos (XO (XI (XO (XO (XI XH)))))) :: ((Npos (XI (XI (XO
+    (XO (XI XH)))))) :: [])), ((KF (S (S (S (S (S (S (S (S (S (S (S
+    O)))))))))))), { m_ctrl = false; m_alt = false; m_shift =
+    false })) :: ((((Npos (XO (XI (XO (XO (XI XH)))))) :: ((Npos (XO (XO (XI
+    (XO (XI XH)))))) :: [])), ((KF (S (S (S (S (S (S (S (S (S (S (S (S
+    O))))))))))))), { m_ctrl = false; m_alt = false; m_shift =
+    false })) :: [])))))))))))
+
+(** val tab_ext_2d_mod_tilde : (n list * key) list **)
+
+let tab_ext_2d_mod_tilde =
+  (((Npos (XI (XO (XO (XO (XI XH)))))) :: ((Npos (XI (XO (XI (XO (XI
+    XH)))))) :: ((Npos (XI (XO (XI (XO (XI XH)))))) :: []))), ((KF (S (S (S
+    (S (S O)))))), { m_ctrl = true; m_alt = false; m_shift =
+    false })) :: ((((Npos (XI (XO (XO (XO (XI XH)))))) :: ((Npos (XI (XI (XI
+    (XO (XI XH)))))) :: ((Npos (XI (XO (XI (XO (XI XH)))))) :: []))), ((KF (S
+    (S (S (S (S (S O))))))), { m_ctrl = true; m_alt = false; m_shift =
+    false })) :: ((((Npos (XI (XO (XO (XO (XI XH)))))) :: ((Npos (XO (XO (XO
+    (XI (XI XH)))))) :: ((Npos (XI (XO (XI (XO (XI XH)))))) :: []))), ((KF (S
+    (S (S (S (S (S (S O)))))))), { m_ctrl = true; m_alt = false; m_shift =
+    false })) :: ((((Npos (XI (XO (XO (XO (XI XH)))))) :: ((Npos (XI (XO (XO
+    (XI (XI XH)))))) :: ((Npos (XI (XO (XI (XO (XI XH)))))) :: []))), ((KF (S
+    (S (S (S (S (S (S (S O))))))))), { m_ctrl = true; m_alt = false;
+    m_shift = false })) :: ((((Npos (XO (XI (XO (XO (XI XH)))))) :: ((Npos
+    (XO (XO (XO (XO (XI XH)))))) :: ((Npos (XI (XO (XI (XO (XI
+    XH)))))) :: []))), ((KF (S (S (S (S (S (S (S (S (S O)))))))))),
+    { m_ctrl = true; m_alt = false; m_shift = false })) :: ((((Npos (XO (XI
+    (XO (XO (XI XH)))))) :: ((Npos (XI (XO (XO (XO (XI XH)))))) :: ((Npos (XI
+    (XO (XI (XO (XI XH)))))) :: []))), ((KF (S (S (S (S (S (S (S (S (S (S
+    O))))))))))), { m_ctrl = true; m_alt = false; m_shift =
+    false })) :: ((((Npos (XO (XI (XO (XO (XI XH)))))) :: ((Npos (XI (XI (XO
+    (XO (XI XH)))))) :: ((Npos (XI (XO (XI (XO (XI XH)))))) :: []))), ((KF (S
+    (S (S (S (S (S (S (S (S (S (S O)))))))))))), { m_ctrl = true; m_alt =
+    false; m_shift = false })) :: ((((Npos (XO (XI (XO (XO (XI
+    XH)))))) :: ((Npos (XO (XO (XI (XO (XI XH)))))) :: ((Npos (XI (XO (XI (XO
+    (XI XH)))))) :: []))), ((KF (S (S (S (S (S (S (S (S (S (S (S (S
+    O))))))))))))), { m_ctrl = true; m_alt = false; m_shift =
+    false })) :: [])))))))
+
+(** val tab_ext_3d_tilde : (n list * key) list **)
+
+let tab_ext_3d_tilde =
+  (((Npos (XO (XI (XO (XO (XI XH)))))) :: ((Npos (XO (XO (XO (XO (XI
+    XH)))))) :: ((Npos (XO (XO (XO (XO (XI XH)))))) :: []))), (KPasteStart,
+    { m_ctrl = false; m_alt = false; m_shift = false })) :: ((((Npos (XO (XI
+    (XO (XO (XI XH)))))) :: ((Npos (XO (XO (XO (XO (XI XH)))))) :: ((Npos (XI
+    (XO (XO (XO (XI XH)))))) :: []))), (KPasteEnd, { m_ctrl = false; m_alt =
+    false; m_shift = false })) :: [])
+
+(** val tab_ext_1_mod : (n list * key) list **)
+
+let tab_ext_1_mod =
+  (((Npos (XO (XI (XO (XO (XI XH)))))) :: ((Npos (XI (XO (XO (XO (XO (XO
+    XH))))))) :: [])), (KUp, { m_ctrl = false; m_alt = false; m_shift =
+    true })) :: ((((Npos (XO (XI (XO (XO (XI XH)))))) :: ((Npos (XO (XI (XO
+    (XO (XO (XO XH))))))) :: [])), (KDown, { m_ctrl = false; m_alt = false;
+    m_shift = true })) :: ((((Npos (XO (XI (XO (XO (XI XH)))))) :: ((Npos (XI
+    (XI (XO (XO (XO (XO XH))))))) :: [])), (KRight, { m_ctrl = false; m_alt =
+    false; m_shift = true })) :: ((((Npos (XO (XI (XO (XO (XI
+    XH)))))) :: ((Npos (XO (XO (XI (XO (XO (XO XH))))))) :: [])), (KLeft,
+    { m_ctrl = false; m_alt = false; m_shift = true })) :: ((((Npos (XO (XI
+    (XO (XO (XI XH)))))) :: ((Npos (XO (XI (XI (XO (XO (XO XH))))))) :: [])),
+    (KEnd, { m_ctrl = false; m_alt = false; m_shift = true })) :: ((((Npos
+    (XO (XI (XO (XO (XI XH)))))) :: ((Npos (XO (XO (XO (XI (XO (XO
+    XH))))))) :: [])), (KHome, { m_ctrl = false; m_alt = false; m_shift =
+    true })) :: ((((Npos (XI (XI (XO (XO (XI XH)))))) :: ((Npos (XI (XO (XO
+    (XO (XO (XO XH))))))) :: [])), (KUp, { m_ctrl = false; m_alt = true;
+    m_shift = false })) :: ((((Npos (XI (XI (XO (XO (XI XH)))))) :: ((Npos
+    (XO (XI (XO (XO (XO (XO XH))))))) :: [])), (KDown, { m_ctrl = false;
+    m_alt = true; m_shift = false })) :: ((((Npos (XI (XI (XO (XO (XI
+    XH)))))) :: ((Npos (XI (XI (XO (XO (XO (XO XH))))))) :: [])), (KRight,
+    { m_ctrl = false; m_alt = true; m_shift = false })) :: ((((Npos (XI (XI
+    (XO (XO (XI XH)))))) :: ((Npos (XO (XO (XI (XO (XO (XO XH))))))) :: [])),
+    (KLeft, { m_ctrl = false; m_alt = true; m_shift = false })) :: ((((Npos
+    (XI (XI (XO (XO (XI XH)))))) :: ((Npos (XO (XI (XI (XO (XO (XO
+    XH))))))) :: [])), (KEnd, { m_ctrl = false; m_alt = true; m_shift =
+    false })) :: ((((Npos (XI (XI (XO (XO (XI XH)))))) :: ((Npos (XO (XO (XO
+    (XI (XO (XO XH))))))) :: [])), (KHome, { m_ctrl = false; m_alt = true;
+    m_shift = false })) :: ((((Npos (XO (XO (XI (XO (XI XH)))))) :: ((Npos
+    (XI (XO (XO (XO (XO (XO XH))))))) :: [])), (KUp, { m_ctrl = false;
+    m_alt = true; m_shift = true })) :: ((((Npos (XO (XO (XI (XO (XI
+    XH)))))) :: ((Npos (XO (XI (XO (XO (XO (XO XH))))))) :: [])), (KDown,
+    { m_ctrl = false; m_alt = true; m_shift = true })) :: ((((Npos (XO (XO
+    (XI (XO (XI XH)))))) :: ((Npos (XI (XI (XO (XO (XO (XO XH))))))) :: [])),
+    (KRight, { m_ctrl = false; m_alt = true; m_shift = true })) :: ((((Npos
+    (XO (XO (XI (XO (XI XH)))))) :: ((Npos (XO (XO (XI (XO (XO (XO
+    XH))))))) :: [])), (KLeft, { m_ctrl = false; m_alt = true; m_shift =
+    true })) :: ((((Npos (XO (XO (XI (XO (XI XH)))))) :: ((Npos (XO (XI (XI
+    (XO (XO (XO XH))))))) :: [])), (KEnd, { m_ctrl = false; m_alt = true;
+    m_shift = true })) :: ((((Npos (XO (XO (XI (XO (XI XH)))))) :: ((Npos (XO
+    (XO (XO (XI (XO (XO XH))))))) :: [])), (KHome, { m_ctrl = false; m_alt =
+    true; m_shift = true })) :: ((((Npos (XI (XO (XI (XO (XI
+    XH)))))) :: ((Npos (XI (XO (XO (XO (XO (XO XH))))))) :: [])), (KUp,
+    { m_ctrl = true; m_alt = false; m_shift = false })) :: ((((Npos (XI (XO
+    (XI (XO (XI XH)))))) :: ((Npos (XO (XI (XO (XO (XO (XO XH))))))) :: [])),
+    (KDown, { m_ctrl = true; m_alt = false; m_shift = false })) :: ((((Npos
+    (XI (XO (XI (XO (XI XH)))))) :: ((Npos (XI (XI (XO (XO (XO (XO
+    XH))))))) :: [])), (KRight, { m_ctrl = true; m_alt = false; m_shift =
+    false })) :: ((((Npos (XI (XO (XI (XO (XI XH)))))) :: ((Npos (XO (XO (XI
+    (XO (XO (XO XH))))))) :: [])), (KLeft, { m_ctrl = true; m_alt = false;
+    m_shift = false })) :: ((((Npos (XI (XO (XI (XO (XI XH)))))) :: ((Npos
+    (XO (XI (XI (XO (XO (XO XH))))))) :: [])), (KEnd, { m_ctrl = true;
+    m_alt = false; m_shift = false })) :: ((((Npos (XI (XO (XI (XO (XI
+    XH)))))) :: ((Npos (XO (XO (XO (XI (XO (XO XH))))))) :: [])), (KHome,
+    { m_ctrl = true; m_alt = false; m_shift = false })) :: ((((Npos (XI (XO
+    (XI (XO (XI XH)))))) :: ((Npos (XO (XO (XO (XO (XI (XO XH))))))) :: [])),
+    ((KF (S O)), { m_ctrl = true; m_alt = false; m_shift =
+    false })) :: ((((Npos (XI (XO (XI (XO (XI XH)))))) :: ((Npos (XI (XO (XO
+    (XO (XI (XO XH))))))) :: [])), ((KF (S (S O))), { m_ctrl = true; m_alt =
+    false; m_shift = false })) :: ((((Npos (XI (XO (XI (XO (XI
+    XH)))))) :: ((Npos (XI (XI (XO (XO (XI (XO XH))))))) :: [])), ((KF (S (S
+    (S (S O))))), { m_ctrl = true; m_alt = false; m_shift =
+    false })) :: ((((Npos (XI (XO (XI (XO (XI XH)))))) :: ((Npos (XO (XO (XO
+    (XO (XI (XI XH))))))) :: [])), ((KChar (Npos (XO (XO (XO (XO (XI
+    XH))))))), { m_ctrl = true; m_alt = false; m_shift =
+    false })) :: ((((Npos (XI (XO (XI (XO (XI XH)))))) :: ((Npos (XI (XO (XO
+    (XO (XI (XI XH))))))) :: [])), ((KChar (Npos (XI (XO (XO (XO (XI
+    XH))))))), { m_ctrl = true; m_alt = false; m_shift =
+    false })) :: ((((Npos (XI (XO (XI (XO (XI XH)))))) :: ((Npos (XO (XI (XO
+    (XO (XI (XI XH))))))) :: [])), ((KChar (Npos (XO (XI (XO (XO (XI
+    XH))))))), { m_ctrl = true; m_alt = false; m_shift =
+    false })) :: ((((Npos (XI (XO (XI (XO (XI XH)))))) :: ((Npos (XI (XI (XO
+    (XO (XI (XI XH))))))) :: [])), ((KChar (Npos (XI (XI (XO (XO (XI
+    XH))))))), { m_ctrl = true; m_alt = false; m_shift =
+    false })) :: ((((Npos (XI (XO (XI (XO (XI XH)))))) :: ((Npos (XO (XO (XI
+    (XO (XI (XI XH))))))) :: [])), ((KChar (Npos (XO (XO (XI (XO (XI
+    XH))))))), { m_ctrl = true; m_alt = false; m_shift =
+    false })) :: ((((Npos (XI (XO (XI (XO (XI XH)))))) :: ((Npos (XI (XO (XI
+    (XO (XI (XI XH))))))) :: [])), ((KChar (Npos (XI (XO (XI (XO (XI
+    XH))))))), { m_ctrl = true; m_alt = false; m_shift =
+    false })) :: ((((Npos (XI (XO (XI (XO (XI XH)))))) :: ((Npos (XO (XI (XI
+    (XO (XI (XI XH))))))) :: [])), ((KChar (Npos (XO (XI (XI (XO (XI
+    XH))))))), { m_ctrl = true; m_alt = false; m_shift =
+    false })) :: ((((Npos (XI (XO (XI (XO (XI XH)))))) :: ((Npos (XI (XI (XI
+    (XO (XI (XI XH))))))) :: [])), ((KChar (Npos (XI (XI (XI (XO (XI
+    XH))))))), { m_ctrl = true; m_alt = false; m_shift =
+    false })) :: ((((Npos (XI (XO (XI (XO (XI XH)))))) :: ((Npos (XO (XO (XO
+    (XI (XI (XI XH))))))) :: [])), ((KChar (Npos (XO (XO (XO (XI (XI
+    XH))))))), { m_ctrl = true; m_alt = false; m_shift =
+    false })) :: ((((Npos (XI (XO (XI (XO (XI XH)))))) :: ((Npos (XI (XO (XO
+    (XI (XI (XI XH))))))) :: [])), ((KChar (Npos (XI (XO (XO (XI (XI
+    XH))))))), { m_ctrl = true; m_alt = false; m_shift =
+    false })) :: ((((Npos (XO (XI (XI (XO (XI XH)))))) :: ((Npos (XI (XO (XO
+    (XO (XO (XO XH))))))) :: [])), (KUp, { m_ctrl = true; m_alt = false;
+    m_shift = true })) :: ((((Npos (XO (XI (XI (XO (XI XH)))))) :: ((Npos (XO
+    (XI (XO (XO (XO (XO XH))))))) :: [])), (KDown, { m_ctrl = true; m_alt =
+    false; m_shift = true })) :: ((((Npos (XO (XI (XI (XO (XI
+    XH)))))) :: ((Npos (XI (XI (XO (XO (XO (XO XH))))))) :: [])), (KRight,
+    { m_ctrl = true; m_alt = false; m_shift = true })) :: ((((Npos (XO (XI
+    (XI (XO (XI XH)))))) :: ((Npos (XO (XO (XI (XO (XO (XO XH))))))) :: [])),
+    (KLeft, { m_ctrl = true; m_alt = false; m_shift = true })) :: ((((Npos
+    (XO (XI (XI (XO (XI XH)))))) :: ((Npos (XO (XI (XI (XO (XO (XO
+    XH))))))) :: [])), (KEnd, { m_ctrl = true; m_alt = false; m_shift =
+    true })) :: ((((Npos (XO (XI (XI (XO (XI XH)))))) :: ((Npos (XO (XO (XO
+    (XI (XO (XO XH))))))) :: [])), (KHome, { m_ctrl = true; m_alt = false;
+    m_shift = true })) :: ((((Npos (XO (XI (XI (XO (XI XH)))))) :: ((Npos (XO
+    (XO (XO (XO (XI (XI XH))))))) :: [])), ((KChar (Npos (XO (XO (XO (XO (XI
+    XH))))))), { m_ctrl = true; m_alt = false; m_shift = true })) :: ((((Npos
+    (XO (XI (XI (XO (XI XH)))))) :: ((Npos (XI (XO (XO (XO (XI (XI
+    XH))))))) :: [])), ((KChar (Npos (XI (XO (XO (XO (XI XH))))))),
+    { m_ctrl = true; m_alt = false; m_shift = true })) :: ((((Npos (XO (XI
+    (XI (XO (XI XH)))))) :: ((Npos (XO (XI (XO (XO (XI (XI XH))))))) :: [])),
+    ((KChar (Npos (XO (XI (XO (XO (XI XH))))))), { m_ctrl = true; m_alt =
+    false; m_shift = true })) :: ((((Npos (XO (XI (XI (XO (XI
+    XH)))))) :: ((Npos (XI (XI (XO (XO (XI (XI XH))))))) :: [])), ((KChar
+    (Npos (XI (XI (XO (XO (XI XH))))))), { m_ctrl = true; m_alt = false;
+    m_shift = true })) :: ((((Npos (XO (XI (XI (XO (XI XH)))))) :: ((Npos (XO
+    (XO (XI (XO (XI (XI XH))))))) :: [])), ((KChar (Npos (XO (XO (XI (XO (XI
+    XH))))))), { m_ctrl = true; m_alt = false; m_shift = true })) :: ((((Npos
+    (XO (XI (XI (XO (XI XH)))))) :: ((Npos (XI (XO (XI (XO (XI (XI
+    XH))))))) :: [])), ((KChar (Npos (XI (XO (XI (XO (XI XH))))))),
+    { m_ctrl = true; m_alt = false; m_shift = true })) :: ((((Npos (XO (XI
+    (XI (XO (XI XH)))))) :: ((Npos (XO (XI (XI (XO (XI (XI XH))))))) :: [])),
+    ((KChar (Npos (XO (XI (XI (XO (XI XH))))))), { m_ctrl = true; m_alt =
+    false; m_shift = true })) :: ((((Npos (XO (XI (XI (XO (XI
+    XH)))))) :: ((Npos (XI (XI (XI (XO (XI (XI XH))))))) :: [])), ((KChar
+    (Npos (XI (XI (XI (XO (XI XH))))))), { m_ctrl = true; m_alt = false;
+    m_shift = true })) :: ((((Npos (XO (XI (XI (XO (XI XH)))))) :: ((Npos (XO
+    (XO (XO (XI (XI (XI XH))))))) :: [])), ((KChar (Npos (XO (XO (XO (XI (XI
+    XH))))))), { m_ctrl = true; m_alt = false; m_shift = true })) :: ((((Npos
+    (XO (XI (XI (XO (XI XH)))))) :: ((Npos (XI (XO (XO (XI (XI (XI
+    XH))))))) :: [])), ((KChar (Npos (XI (XO (XO (XI (XI XH))))))),
+    { m_ctrl = true; m_alt = false; m_shift = true })) :: ((((Npos (XI (XI
+    (XI (XO (XI XH)))))) :: ((Npos (XI (XO (XO (XO (XO (XO XH))))))) :: [])),
+    (KUp, { m_ctrl = true; m_alt = true; m_shift = false })) :: ((((Npos (XI
+    (XI (XI (XO (XI XH)))))) :: ((Npos (XO (XI (XO (XO (XO (XO
+    XH))))))) :: [])), (KDown, { m_ctrl = true; m_alt = true; m_shift =
+    false })) :: ((((Npos (XI (XI (XI (XO (XI XH)))))) :: ((Npos (XI (XI (XO
+    (XO (XO (XO XH))))))) :: [])), (KRight, { m_ctrl = true; m_alt = true;
+    m_shift = false })) :: ((((Npos (XI (XI (XI (XO (XI XH)))))) :: ((Npos
+    (XO (XO (XI (XO (XO (XO XH))))))) :: [])), (KLeft, { m_ctrl = true;
+    m_alt = true; m_shift = false })) :: ((((Npos (XI (XI (XI (XO (XI
+    XH)))))) :: ((Npos (XO (XI (XI (XO (XO (XO XH))))))) :: [])), (KEnd,
+    { m_ctrl = true; m_alt = true; m_shift = false })) :: ((((Npos (XI (XI
+    (XI (XO (XI XH)))))) :: ((Npos (XO (XO (XO (XI (XO (XO XH))))))) :: [])),
+    (KHome, { m_ctrl = true; m_alt = true; m_shift = false })) :: ((((Npos
+    (XI (XI (XI (XO (XI XH)))))) :: ((Npos (XO (XO (XO (XO (XI (XI
+    XH))))))) :: [])), ((KChar (Npos (XO (XO (XO (XO (XI XH))))))),
+    { m_ctrl = true; m_alt = true; m_shift = false })) :: ((((Npos (XI (XI
+    (XI (XO (XI XH)))))) :: ((Npos (XI (XO (XO (XO (XI (XI XH))))))) :: [])),
+    ((KChar (Npos (XI (XO (XO (XO (XI XH))))))), { m_ctrl = true; m_alt =
+    true; m_shift = false })) :: ((((Npos (XI (XI (XI (XO (XI
+    XH)))))) :: ((Npos (XO (XI (XO (XO (XI (XI XH))))))) :: [])), ((KChar
+    (Npos (XO (XI (XO (XO (XI XH))))))), { m_ctrl = true; m_alt = true;
+    m_shift = false })) :: ((((Npos (XI (XI (XI (XO (XI XH)))))) :: ((Npos
+    (XI (XI (XO (XO (XI (XI XH))))))) :: [])), ((KChar (Npos (XI (XI (XO (XO
+    (XI XH))))))), { m_ctrl = true; m_alt = true; m_shift =
+    false })) :: ((((Npos (XI (XI (XI (XO (XI XH)))))) :: ((Npos (XO (XO (XI
+    (XO (XI (XI XH))))))) :: [])), ((KChar (Npos (XO (XO (XI (XO (XI
+    XH))))))), { m_ctrl = true; m_alt = true; m_shift = false })) :: ((((Npos
+    (XI (XI (XI (XO (XI XH)))))) :: ((Npos (XI (XO (XI (XO (XI (XI
+    XH))))))) :: [])), ((KChar (Npos (XI (XO (XI (XO (XI XH))))))),
+    { m_ctrl = true; m_alt = true; m_shift = false })) :: ((((Npos (XI (XI
+    (XI (XO (XI XH)))))) :: ((Npos (XO (XI (XI (XO (XI (XI XH))))))) :: [])),
+    ((KChar (Npos (XO (XI (XI (XO (XI XH))))))), { m_ctrl = true; m_alt =
+    true; m_shift = false })) :: ((((Npos (XI (XI (XI (XO (XI
+    XH)))))) :: ((Npos (XI (XI (XI (XO (XI (XI XH))))))) :: [])), ((KChar
+    (Npos (XI (XI (XI (XO (XI XH))))))), { m_ctrl = true; m_alt = true;
+    m_shift = false })) :: ((((Npos (XI (XI (XI (XO (XI XH)))))) :: ((Npos
+    (XO (XO (XO (XI (XI (XI XH))))))) :: [])), ((KChar (Npos (XO (XO (XO (XI
+    (XI XH))))))), { m_ctrl = true; m_alt = true; m_shift =
+    false })) :: ((((Npos (XI (XI (XI (XO (XI XH)))))) :: ((Npos (XI (XO (XO
+    (XI (XI (XI XH))))))) :: [])), ((KChar (Npos (XI (XO (XO (XI (XI
+    XH))))))), { m_ctrl = true; m_alt = true; m_shift = false })) :: ((((Npos
+    (XO (XO (XO (XI (XI XH)))))) :: ((Npos (XI (XO (XO (XO (XO (XO
+    XH))))))) :: [])), (KUp, { m_ctrl = true; m_alt = true; m_shift =
+    true })) :: ((((Npos (XO (XO (XO (XI (XI XH)))))) :: ((Npos (XO (XI (XO
+    (XO (XO (XO XH))))))) :: [])), (KDown, { m_ctrl = true; m_alt = true;
+    m_shift = true })) :: ((((Npos (XO (XO (XO (XI (XI XH)))))) :: ((Npos (XI
+    (XI (XO (XO (XO (XO XH))))))) :: [])), (KRight, { m_ctrl = true; m_alt =
+    true; m_shift = true })) :: ((((Npos (XO (XO (XO (XI (XI
+    XH)))))) :: ((Npos (XO (XO (XI (XO (XO (XO XH))))))) :: [])), (KLeft,
+    { m_ctrl = true; m_alt = true; m_shift = true })) :: ((((Npos (XO (XO (XO
+    (XI (XI XH)))))) :: ((Npos (XO (XI (XI (XO (XO (XO XH))))))) :: [])),
+    (KEnd, { m_ctrl = true; m_alt = true; m_shift = true })) :: ((((Npos (XO
+    (XO (XO (XI (XI XH)))))) :: ((Npos (XO (XO (XO (XI (XO (XO
+    XH))))))) :: [])), (KHome, { m_ctrl = true; m_alt = true; m_shift =
+    true })) :: ((((Npos (XO (XO (XO (XI (XI XH)))))) :: ((Npos (XO (XO (XO
+    (XO (XI (XI XH))))))) :: [])), ((KChar (Npos (XO (XO (XO (XO (XI
+    XH))))))), { m_ctrl = true; m_alt = true; m_shift = true })) :: ((((Npos
+    (XO (XO (XO (XI (XI XH)))))) :: ((Npos (XI (XO (XO (XO (XI (XI
+    XH))))))) :: [])), ((KChar (Npos (XI (XO (XO (XO (XI XH))))))),
+    { m_ctrl = true; m_alt = true; m_shift = true })) :: ((((Npos (XO (XO (XO
+    (XI (XI XH)))))) :: ((Npos (XO (XI (XO (XO (XI (XI XH))))))) :: [])),
+    ((KChar (Npos (XO (XI (XO (XO (XI XH))))))), { m_ctrl = true; m_alt =
+    true; m_shift = true })) :: ((((Npos (XO (XO (XO (XI (XI
+    XH)))))) :: ((Npos (XI (XI (XO (XO (XI (XI XH))))))) :: [])), ((KChar
+    (Npos (XI (XI (XO (XO (XI XH))))))), { m_ctrl = true; m_alt = true;
+    m_shift = true })) :: ((((Npos (XO (XO (XO (XI (XI XH)))))) :: ((Npos (XO
+    (XO (XI (XO (XI (XI XH))))))) :: [])), ((KChar (Npos (XO (XO (XI (XO (XI
+    XH))))))), { m_ctrl = true; m_alt = true; m_shift = true })) :: ((((Npos
+    (XO (XO (XO (XI (XI XH)))))) :: ((Npos (XI (XO (XI (XO (XI (XI
+    XH))))))) :: [])), ((KChar (Npos (XI (XO (XI (XO (XI XH))))))),
+    { m_ctrl = true; m_alt = true; m_shift = true })) :: ((((Npos (XO (XO (XO
+    (XI (XI XH)))))) :: ((Npos (XO (XI (XI (XO (XI (XI XH))))))) :: [])),
+    ((KChar (Npos (XO (XI (XI (XO (XI XH))))))), { m_ctrl = true; m_alt =
+    true; m_shift = true })) :: ((((Npos (XO (XO (XO (XI (XI
+    XH)))))) :: ((Npos (XI (XI (XI (XO (XI (XI XH))))))) :: [])), ((KChar
+    (Npos (XI (XI (XI (XO (XI XH))))))), { m_ctrl = true; m_alt = true;
+    m_shift = true })) :: ((((Npos (XO (XO (XO (XI (XI XH)))))) :: ((Npos (XO
+    (XO (XO (XI (XI (XI XH))))))) :: [])), ((KChar (Npos (XO (XO (XO (XI (XI
+    XH))))))), { m_ctrl = true; m_alt = true; m_shift = true })) :: ((((Npos
+    (XO (XO (XO (XI (XI XH)))))) :: ((Npos (XI (XO (XO (XI (XI (XI
+    XH))))))) :: [])), ((KChar (Npos (XI (XO (XO (XI (XI XH))))))),
+    { m_ctrl = true; m_alt = true; m_shift = true })) :: ((((Npos (XI (XO (XO
+    (XI (XI XH)))))) :: ((Npos (XI (XO (XO (XO (XO (XO XH))))))) :: [])),
+    (KUp, { m_ctrl = false; m_alt = true; m_shift = false })) :: ((((Npos (XI
+    (XO (XO (XI (XI XH)))))) :: ((Npos (XO (XI (XO (XO (XO (XO
+    XH))))))) :: [])), (KDown, { m_ctrl = false; m_alt = true; m_shift =
+    false })) :: ((((Npos (XI (XO (XO (XI (XI XH)))))) :: ((Npos (XI (XI (XO
+    (XO (XO (XO XH))))))) :: [])), (KRight, { m_ctrl = false; m_alt = true;
+    m_shift = false })) :: ((((Npos (XI (XO (XO (XI (XI XH)))))) :: ((Npos
+    (XO (XO (XI (XO (XO (XO XH))))))) :: [])), (KLeft, { m_ctrl = false;
+    m_alt = true; m_shift =
+    false })) :: []))))))))))))))))))))))))))))))))))))))))))))))))))))))))))))))))))))))))))))))))))))))))
+
+(** val tab_ext_mod_tilde : (n list * key) list **)
+
+let tab_ext_mod_tilde =
+  (((Npos (XO (XI (XO (XO (XI XH)))))) :: ((Npos (XO (XI (XO (XO (XI
+    XH)))))) :: [])), (KInsert, { m_ctrl = false; m_alt = false; m_shift =
+    true })) :: ((((Npos (XO (XI (XO (XO (XI XH)))))) :: ((Npos (XI (XI (XO
+    (XO (XI XH)))))) :: [])), (KInsert, { m_ctrl = false; m_alt = true;
+    m_shift = false })) :: ((((Npos (XO (XI (XO (XO (XI XH)))))) :: ((Npos
+    (XO (XO (XI (XO (XI XH)))))) :: [])), (KInsert, { m_ctrl = false; m_alt =
+    true; m_shift = true })) :: ((((Npos (XO (XI (XO (XO (XI
+    XH)))))) :: ((Npos (XI (XO (XI (XO (XI XH)))))) :: [])), (KInsert,
+    { m_ctrl = true; m_alt = false; m_shift = false })) :: ((((Npos (XO (XI
+    (XO (XO (XI XH)))))) :: ((Npos (XO (XI (XI (XO (XI XH)))))) :: [])),
+    (KInsert, { m_ctrl = true; m_alt = false; m_shift = true })) :: ((((Npos
+    (XO (XI (XO (XO (XI XH)))))) :: ((Npos (XI (XI (XI (XO (XI
+    XH)))))) :: [])), (KInsert, { m_ctrl = true; m_alt = true; m_shift =
+    false })) :: ((((Npos (XO (XI (XO (XO (XI XH)))))) :: ((Npos (XO (XO (XO
+    (XI (XI XH)))))) :: [])), (KInsert, { m_ctrl = true; m_alt = true;
+    m_shift = true })) :: ((((Npos (XI (XI (XO (XO (XI XH)))))) :: ((Npos (XO
+    (XI (XO (XO (XI XH)))))) :: [])), (KDelete, { m_ctrl = false; m_alt =
+    false; m_shift = true })) :: ((((Npos (XI (XI (XO (XO (XI
+    XH)))))) :: ((Npos (XI (XI (XO (XO (XI XH)))))) :: [])), (KDelete,
+    { m_ctrl = false; m_alt = true; m_shift = false })) :: ((((Npos (XI (XI
+    (XO (XO (XI XH)))))) :: ((Npos (XO (XO (XI (XO (XI XH)))))) :: [])),
+    (KDelete, { m_ctrl = false; m_alt = true; m_shift = true })) :: ((((Npos
+    (XI (XI (XO (XO (XI XH)))))) :: ((Npos (XI (XO (XI (XO (XI
+    XH)))))) :: [])), (KDelete, { m_ctrl = true; m_alt = false; m_shift =
+    false })) :: ((((Npos (XI (XI (XO (XO (XI XH)))))) :: ((Npos (XO (XI (XI
+    (XO (XI XH)))))) :: [])), (KDelete, { m_ctrl = true; m_alt = false;
+    m_shift = true })) :: ((((Npos (XI (XI (XO (XO (XI XH)))))) :: ((Npos (XI
+    (XI (XI (XO (XI XH)))))) :: [])), (KDelete, { m_ctrl = true; m_alt =
+    true; m_shift = false })) :: ((((Npos (XI (XI (XO (XO (XI
+    XH)))))) :: ((Npos (XO (XO (XO (XI (XI XH)))))) :: [])), (KDelete,
+    { m_ctrl = true; m_alt = true; m_shift = true })) :: ((((Npos (XI (XO (XI
+    (XO (XI XH)))))) :: ((Npos (XO (XI (XO (XO (XI XH)))))) :: [])),
+    (KPageUp, { m_ctrl = false; m_alt = false; m_shift = true })) :: ((((Npos
+    (XI (XO (XI (XO (XI XH)))))) :: ((Npos (XI (XI (XO (XO (XI
+    XH)))))) :: [])), (KPageUp, { m_ctrl = false; m_alt = true; m_shift =
+    false })) :: ((((Npos (XI (XO (XI (XO (XI XH)))))) :: ((Npos (XO (XO (XI
+    (XO (XI XH)))))) :: [])), (KPageUp, { m_ctrl = false; m_alt = true;
+    m_shift = true })) :: ((((Npos (XI (XO (XI (XO (XI XH)))))) :: ((Npos (XI
+    (XO (XI (XO (XI XH)))))) :: [])), (KPageUp, { m_ctrl = true; m_alt =
+    false; m_shift = false })) :: ((((Npos (XI (XO (XI (XO (XI
+    XH)))))) :: ((Npos (XO (XI (XI (XO (XI XH)))))) :: [])), (KPageUp,
+    { m_ctrl = true; m_alt = false; m_shift = true })) :: ((((Npos (XI (XO
+    (XI (XO (XI XH)))))) :: ((Npos (XI (XI (XI (XO (XI XH)))))) :: [])),
+    (KPageUp, { m_ctrl = true; m_alt = true; m_shift = false })) :: ((((Npos
+    (XI (XO (XI (XO (XI XH)))))) :: ((Npos (XO (XO (XO (XI (XI
+    XH)))))) :: [])), (KPageUp, { m_ctrl = true; m_alt = true; m_shift =
+    true })) :: ((((Npos (XO (XI (XI (XO (XI XH)))))) :: ((Npos (XO (XI (XO
+    (XO (XI XH)))))) :: [])), (KPageDown, { m_ctrl = false; m_alt = false;
+    m_shift = true })) :: ((((Npos (XO (XI (XI (XO (XI XH)))))) :: ((Npos (XI
+    (XI (XO (XO (XI XH)))))) :: [])), (KPageDown, { m_ctrl = false; m_alt =
+    true; m_shift = false })) :: ((((Npos (XO (XI (XI (XO (XI
+    XH)))))) :: ((Npos (XO (XO (XI (XO (XI XH)))))) :: [])), (KPageDown,
+    { m_ctrl = false; m_alt = true; m_shift = true })) :: ((((Npos (XO (XI
+    (XI (XO (XI XH)))))) :: ((Npos (XI (XO (XI (XO (XI XH)))))) :: [])),
+    (KPageDown, { m_ctrl = true; m_alt = false; m_shift =
+    false })) :: ((((Npos (XO (XI (XI (XO (XI XH)))))) :: ((Npos (XO (XI (XI
+    (XO (XI XH)))))) :: [])), (KPageDown, { m_ctrl = true; m_alt = false;
+    m_shift = true })) :: ((((Npos (XO (XI (XI (XO (XI XH)))))) :: ((Npos (XI
+    (XI (XI (XO (XI XH)))))) :: [])), (KPageDown, { m_ctrl = true; m_alt =
+    true; m_shift = false })) :: ((((Npos (XO (XI (XI (XO (XI
+    XH)))))) :: ((Npos (XO (XO (XO (XI (XI XH)))))) :: [])), (KPageDown,
+    { m_ctrl = true; m_alt = true; m_shift =
+    true })) :: [])))))))))))))))))))))))))))
+
+(** val tab_ext_rxvt : (n list * key) list **)
+
+let tab_ext_rxvt =
+  (((Npos (XI (XI (XO (XO (XI XH)))))) :: ((Npos (XO (XI (XI (XI
+    XH))))) :: [])), (KDelete, { m_ctrl = true; m_alt = false; m_shift =
+    false })) :: ((((Npos (XI (XI (XO (XO (XI XH)))))) :: ((Npos (XO (XO (XO
+    (XO (XO (XO XH))))))) :: [])), (KDelete, { m_ctrl = true; m_alt = false;
+    m_shift = true })) :: ((((Npos (XI (XO (XI (XO (XI XH)))))) :: ((Npos (XI
+    (XO (XO (XO (XO (XO XH))))))) :: [])), (KUp, { m_ctrl = true; m_alt =
+    false; m_shift = false })) :: ((((Npos (XI (XO (XI (XO (XI
+    XH)))))) :: ((Npos (XO (XI (XO (XO (XO (XO XH))))))) :: [])), (KDown,
+    { m_ctrl = true; m_alt = false; m_shift = false })) :: ((((Npos (XI (XO
+    (XI (XO (XI XH)))))) :: ((Npos (XI (XI (XO (XO (XO (XO XH))))))) :: [])),
+    (KRight, { m_ctrl = true; m_alt = false; m_shift = false })) :: ((((Npos
+    (XI (XO (XI (XO (XI XH)))))) :: ((Npos (XO (XO (XI (XO (XO (XO
+    XH))))))) :: [])), (KLeft, { m_ctrl = true; m_alt = false; m_shift =
+    false })) :: ((((Npos (XI (XO (XI (XO (XI XH)))))) :: ((Npos (XO (XI (XI
+    (XI XH))))) :: [])), (KPageUp, { m_ctrl = true; m_alt = false; m_shift =
+    false })) :: ((((Npos (XI (XO (XI (XO (XI XH)))))) :: ((Npos (XO (XO (XI
+    (XO (XO XH)))))) :: [])), (KPageUp, { m_ctrl = false; m_alt = false;
+    m_shift = true })) :: ((((Npos (XI (XO (XI (XO (XI XH)))))) :: ((Npos (XO
+    (XO (XO (XO (XO (XO XH))))))) :: [])), (KPageUp, { m_ctrl = true; m_alt =
+    false; m_shift = true })) :: ((((Npos (XO (XI (XI (XO (XI
+    XH)))))) :: ((Npos (XO (XI (XI (XI XH))))) :: [])), (KPageDown,
+    { m_ctrl = true; m_alt = false; m_shift = false })) :: ((((Npos (XO (XI
+    (XI (XO (XI XH)))))) :: ((Npos (XO (XO (XI (XO (XO XH)))))) :: [])),
+    (KPageDown, { m_ctrl = false; m_alt = false; m_shift =
+    true })) :: ((((Npos (XO (XI (XI (XO (XI XH)))))) :: ((Npos (XO (XO (XO
+    (XO (XO (XO XH))))))) :: [])), (KPageDown, { m_ctrl = true; m_alt =
+    false; m_shift = true })) :: ((((Npos (XI (XI (XI (XO (XI
+    XH)))))) :: ((Npos (XO (XI (XI (XI XH))))) :: [])), (KHome, { m_ctrl =
+    true; m_alt = false; m_shift = false })) :: ((((Npos (XI (XI (XI (XO (XI
+    XH)))))) :: ((Npos (XO (XO (XI (XO (XO XH)))))) :: [])), (KHome,
+    { m_ctrl = false; m_alt = false; m_shift = true })) :: ((((Npos (XI (XI
+    (XI (XO (XI XH)))))) :: ((Npos (XO (XO (XO (XO (XO (XO XH))))))) :: [])),
+    (KHome, { m_ctrl = true; m_alt = false; m_shift = true })) :: ((((Npos
+    (XO (XO (XO (XI (XI XH)))))) :: ((Npos (XO (XI (XI (XI XH))))) :: [])),
+    (KEnd, { m_ctrl = true; m_alt = false; m_shift = false })) :: ((((Npos
+    (XO (XO (XO (XI (XI XH)))))) :: ((Npos (XO (XO (XI (XO (XO
+    XH)))))) :: [])), (KEnd, { m_ctrl = false; m_alt = false; m_shift =
+    true })) :: ((((Npos (XO (XO (XO (XI (XI XH)))))) :: ((Npos (XO (XO (XO
+    (XO (XO (XO XH))))))) :: [])), (KEnd, { m_ctrl = true; m_alt = false;
+    m_shift = true })) :: [])))))))))))))))))
+
+(** val tab_ss3 : (n list * key) list **)
+
+let tab_ss3 =
+  (((Npos (XI (XO (XO (XO (XO (XO XH))))))) :: []), (KUp, { m_ctrl = false;
+    m_alt = false; m_shift = false })) :: ((((Npos (XO (XI (XO (XO (XO (XO
+    XH))))))) :: []), (KDown, { m_ctrl = false; m_alt = false; m_shift =
+    false })) :: ((((Npos (XI (XI (XO (XO (XO (XO XH))))))) :: []), (KRight,
+    { m_ctrl = false; m_alt = false; m_shift = false })) :: ((((Npos (XO (XO
+    (XI (XO (XO (XO XH))))))) :: []), (KLeft, { m_ctrl = false; m_alt =
+    false; m_shift = false })) :: ((((Npos (XO (XI (XI (XO (XO (XO
+    XH))))))) :: []), (KEnd, { m_ctrl = false; m_alt = false; m_shift =
+    false })) :: ((((Npos (XO (XO (XO (XI (XO (XO XH))))))) :: []), (KHome,
+    { m_ctrl = false; m_alt = false; m_shift = false })) :: ((((Npos (XI (XO
+    (XI (XI (XO (XO XH))))))) :: []), (KEnter, { m_ctrl = false; m_alt =
+    false; m_shift = false })) :: ((((Npos (XO (XO (XO (XO (XI (XO
+    XH))))))) :: []), ((KF (S O)), { m_ctrl = false; m_alt = false; m_shift =
+    false })) :: ((((Npos (XI (XO (XO (XO (XI (XO XH))))))) :: []), ((KF (S
+    (S O))), { m_ctrl = false; m_alt = false; m_shift = false })) :: ((((Npos
+    (XO (XI (XO (XO (XI (XO XH))))))) :: []), ((KF (S (S (S O)))), { m_ctrl =
+    false; m_alt = false; m_shift = false })) :: ((((Npos (XI (XI (XO (XO (XI
+    (XO XH))))))) :: []), ((KF (S (S (S (S O))))), { m_ctrl = false; m_alt =
+    false; m_shift = false })) :: ((((Npos (XI (XO (XO (XO (XO (XI
+    XH))))))) :: []), (KUp, { m_ctrl = true; m_alt = false; m_shift =
+    false })) :: ((((Npos (XO (XI (XO (XO (XO (XI XH))))))) :: []), (KDown,
+    { m_ctrl = true; m_alt = false; m_shift = false })) :: ((((Npos (XI (XI
+    (XO (XO (XO (XI XH))))))) :: []), (KRight, { m_ctrl = true; m_alt =
+    false; m_shift = false })) :: ((((Npos (XO (XO (XI (XO (XO (XI
+    XH))))))) :: []), (KLeft, { m_ctrl = true; m_alt = false; m_shift =
+    false })) :: ((((Npos (XO (XO (XI (XI (XO (XI XH))))))) :: []), ((KF (S
+    (S (S (S (S (S (S (S O))))))))), { m_ctrl = false; m_alt = false;
+    m_shift = false })) :: ((((Npos (XO (XO (XI (XO (XI (XI XH))))))) :: []),
+    ((KF (S (S (S (S (S O)))))), { m_ctrl = false; m_alt = false; m_shift =
+    false })) :: ((((Npos (XI (XO (XI (XO (XI (XI XH))))))) :: []), ((KF (S
+    (S (S (S (S (S O))))))), { m_ctrl = false; m_alt = false; m_shift =
+    false })) :: ((((Npos (XO (XI (XI (XO (XI (XI XH))))))) :: []), ((KF (S
+    (S (S (S (S (S (S O)))))))), { m_ctrl = false; m_alt = false; m_shift =
+    false })) :: ((((Npos (XI (XI (XI (XO (XI (XI XH))))))) :: []), ((KF (S
+    (S (S (S (S (S (S (S (S O)))))))))), { m_ctrl = false; m_alt = false;
+    m_shift = false })) :: ((((Npos (XO (XO (XO (XI (XI (XI XH))))))) :: []),
+    ((KF (S (S (S (S (S (S (S (S (S (S O))))))))))), { m_ctrl = false;
+    m_alt = false; m_shift = false })) :: []))))))))))))))))))))
+
+type anchor =
+| AAfter
+| ABefore
+
+type cmd =
+| CAbort
+| CAcceptLine
+| CBeginningOfHistory
+| CCapitalizeWord
+| CClearScreen
+| CComplete
+| CCompleteBackward
+| CCompleteHint
+| CDedent of movement
+| CDowncaseWord
+| CEndOfFile
+| CEndOfHistory
+| CForwardSearchHistory
+| CHistorySearchBackward
+| CHistorySearchForward
+| CIndent of movement
+| CInsert of nat * str
+| CInterrupt
+| CKill of movement
+| CMove of movement
+| CNextHistory
+| CNoop
+| CRepaint
+| COverwrite of n
+| CPreviousHistory
+| CQuotedInsert
+| CReplaceChar of nat * n
+| CReplace of movement * str option
+| CReverseSearchHistory
+| CSelfInsert of nat * n
+| CSuspend
+| CTransposeChars
+| CTransposeWords of nat
+| CUndo of nat
+| CUnknown
+| CUpcaseWord
+| CViYankTo of movement
+| CYank of nat * anchor
+| CYankPop
+| CLineUpOrPreviousHistory of nat
+| CLineDownOrNextHistory of nat
+| CNewline
+| CAcceptOrInsertLine of bool
+
+(** val is_char_motion : movement -> bool **)
+
+let is_char_motion = function
+| MBackwardChar _ -> true
+| MForwardChar _ -> true
+| _ -> false
+
+(** val should_reset_kill_ring : cmd -> bool **)
+
+let should_reset_kill_ring = function
+| CClearScreen -> false
+| CKill m0 -> is_char_motion m0
+| CNoop -> false
+| CReplace (_, _) -> false
+| CSuspend -> false
+| CYank (_, _) -> false
+| CYankPop -> false
+| _ -> true
+
+(** val is_repeatable_change : cmd -> bool **)
+
+let is_repeatable_change = function
+| CDedent _ -> true
+| CIndent _ -> true
+| CInsert (_, _) -> true
+| CKill _ -> true
+| CReplaceChar (_, _) -> true
+| CReplace (_, _) -> true
+| CSelfInsert (_, _) -> true
+| CViYankTo _ -> true
+| CYank (_, _) -> true
+| _ -> false
+
+(** val is_repeatable : cmd -> bool **)
+
+let is_repeatable c = match c with
+| CMove _ -> true
+| _ -> is_repeatable_change c
+
+(** val rc : nat -> nat option -> nat **)
+
+let rc previous = function
+| Some n0 -> n0
+| None -> previous
+
+(** val mvt_redo : movement -> nat option -> movement **)
+
+let mvt_redo m0 new0 =
+  match m0 with
+  | MBackwardWord (p, w) -> MBackwardWord ((rc p new0), w)
+  | MForwardWord (p, a, w) -> MForwardWord ((rc p new0), a, w)
+  | MViCharSearch (p, cs) -> MViCharSearch ((rc p new0), cs)
+  | MBackwardChar p -> MBackwardChar (rc p new0)
+  | MForwardChar p -> MForwardChar (rc p new0)
+  | MLineUp p -> MLineUp (rc p new0)
+  | MLineDown p -> MLineDown (rc p new0)
+  | _ -> m0
+
+(** val cs_opposite : char_search -> char_search **)
+
+let cs_opposite = function
+| CsForward c -> CsBackward c
+| CsForwardBefore c -> CsBackwardAfter c
+| CsBackward c -> CsForward c
+| CsBackwardAfter c -> CsForwardBefore c
+
+type inchar =
+| Ch of n
+| Bad
+
+type istream = { in_cur : inchar list; in_rest : inchar list list }
+
+type rerr =
+| EEof
+| EInvalidData
+| EInterrupted
+| EValidator
+| EHangup
+
+type edit_mode =
+| Emacs
+| Vi
+
+type input_mode =
+| IMCommand
+| IMInsert
+| IMReplace
+
+type completion_type =
+| CTCircular
+| CTList
+
+type vresult =
+| VRValid of str option
+| VRInvalid of str option
+| VRIncomplete
+| VRError
+
+type observation = { o_line : str; o_pos : nat; o_mode : input_mode;
+                     o_n : nat; o_positive : bool; o_hint : str option }
+
+type config = { c_mode : edit_mode; c_completion : completion_type;
+                c_timeout_none : bool; c_cols : nat; c_tab_stop : nat;
+                c_indent_size : nat; c_prompt_limit : nat;
+                c_has_helper : bool;
+                c_complete : (str -> nat -> nat * str list);
+                c_hint : (str -> nat -> str option);
+                c_validate : (str -> vresult);
+                c_bindings : (key list * cmd) list; c_veof : key;
+                c_vintr : key; c_vquit : key; c_vsusp : key }
+
+type est = { e_line : lb; e_changes : changeset; e_kr : killring;
+             e_hist : str list; e_hidx : nat; e_saved : (str * nat);
+             e_hint : str option; e_layout : layout; e_prompt : str;
+             e_prompt_size : pos2; i_input_mode : input_mode; i_num_args : 
+             z; i_last_cmd : cmd; i_last_cs : char_search option;
+             e_inp : istream; e_out : n list list; e_obs : observation list }
+
+type 'a eres =
+| EOk of 'a * est
+| EErr of rerr * est
+| EPanic
+| EFuel
+
+type 'a e = est -> 'a eres
+
+(** val eret : 'a1 -> 'a1 e **)
+
+let eret a s =
+  EOk (a, s)
+
+(** val ebind : 'a1 e -> ('a1 -> 'a2 e) -> 'a2 e **)
+
+let ebind m0 f s =
+  match m0 s with
+  | EOk (a, s') -> f a s'
+  | EErr (e0, s') -> EErr (e0, s')
+  | EPanic -> EPanic
+  | EFuel -> EFuel
+
+(** val eget : est e **)
+
+let eget s =
+  EOk (s, s)
+
+(** val efail : rerr -> 'a1 e **)
+
+let efail e0 s =
+  EErr (e0, s)
+
+(** val epanic : 'a1 e **)
+
+let epanic _ =
+  EPanic
+
+(** val efuel : 'a1 e **)
+
+let efuel _ =
+  EFuel
+
+(** val upd_line : (lb -> lb) -> unit e **)
+
+let upd_line f s =
+  EOk ((), { e_line = (f s.e_line); e_changes = s.e_changes; e_kr = s.e_kr;
+    e_hist = s.e_hist; e_hidx = s.e_hidx; e_saved = s.e_saved; e_hint =
+    s.e_hint; e_layout = s.e_layout; e_prompt = s.e_prompt; e_prompt_size =
+    s.e_prompt_size; i_input_mode = s.i_input_mode; i_num_args =
+    s.i_num_args; i_last_cmd = s.i_last_cmd; i_last_cs = s.i_last_cs; e_inp =
+    s.e_inp; e_out = s.e_out; e_obs = s.e_obs })
+
+(** val set_line : lb -> unit e **)
+
+let set_line b =
+  upd_line (fun _ -> b)
+
+(** val set_changes : changeset -> unit e **)
+
+let set_changes c s =
+  EOk ((), { e_line = s.e_line; e_changes = c; e_kr = s.e_kr; e_hist =
+    s.e_hist; e_hidx = s.e_hidx; e_saved = s.e_saved; e_hint = s.e_hint;
+    e_layout = s.e_layout; e_prompt = s.e_prompt; e_prompt_size =
+    s.e_prompt_size; i_input_mode = s.i_input_mode; i_num_args =
+    s.i_num_args; i_last_cmd = s.i_last_cmd; i_last_cs = s.i_last_cs; e_inp =
+    s.e_inp; e_out = s.e_out; e_obs = s.e_obs })
+
+(** val set_kr : killring -> unit e **)
+
+let set_kr k s =
+  EOk ((), { e_line = s.e_line; e_changes = s.e_changes; e_kr = k; e_hist =
+    s.e_hist; e_hidx = s.e_hidx; e_saved = s.e_saved; e_hint = s.e_hint;
+    e_layout = s.e_layout; e_prompt = s.e_prompt; e_prompt_size =
+    s.e_prompt_size; i_input_mode = s.i_input_mode; i_num_args =
+    s.i_num_args; i_last_cmd = s.i_last_cmd; i_last_cs = s.i_last_cs; e_inp =
+    s.e_inp; e_out = s.e_out; e_obs = s.e_obs })
+
+(** val set_hidx : nat -> unit e **)
+
+let set_hidx i s =
+  EOk ((), { e_line = s.e_line; e_changes = s.e_changes; e_kr = s.e_kr;
+    e_hist = s.e_hist; e_hidx = i; e_saved = s.e_saved; e_hint = s.e_hint;
+    e_layout = s.e_layout; e_prompt = s.e_prompt; e_prompt_size =
+    s.e_prompt_size; i_input_mode = s.i_input_mode; i_num_args =
+    s.i_num_args; i_last_cmd = s.i_last_cmd; i_last_cs = s.i_last_cs; e_inp =
+    s.e_inp; e_out = s.e_out; e_obs = s.e_obs })
+
+(** val set_saved : (str * nat) -> unit e **)
+
+let set_saved v s =
+  EOk ((), { e_line = s.e_line; e_changes = s.e_changes; e_kr = s.e_kr;
+    e_hist = s.e_hist; e_hidx = s.e_hidx; e_saved = v; e_hint = s.e_hint;
+    e_layout = s.e_layout; e_prompt = s.e_prompt; e_prompt_size =
+    s.e_prompt_size; i_input_mode = s.i_input_mode; i_num_args =
+    s.i_num_args; i_last_cmd = s.i_last_cmd; i_last_cs = s.i_last_cs; e_inp =
+    s.e_inp; e_out = s.e_out; e_obs = s.e_obs })
+
+(** val set_hint : str option -> unit e **)
+
+let set_hint h s =
+  EOk ((), { e_line = s.e_line; e_changes = s.e_changes; e_kr = s.e_kr;
+    e_hist = s.e_hist; e_hidx = s.e_hidx; e_saved = s.e_saved; e_hint = h;
+    e_layout = s.e_layout; e_prompt = s.e_prompt; e_prompt_size =
+    s.e_prompt_size; i_input_mode = s.i_input_mode; i_num_args =
+    s.i_num_args; i_last_cmd = s.i_last_cmd; i_last_cs = s.i_last_cs; e_inp =
+    s.e_inp; e_out = s.e_out; e_obs = s.e_obs })
+
+(** val set_layout : layout -> unit e **)
+
+let set_layout l s =
+  EOk ((), { e_line = s.e_line; e_changes = s.e_changes; e_kr = s.e_kr;
+    e_hist = s.e_hist; e_hidx = s.e_hidx; e_saved = s.e_saved; e_hint =
+    s.e_hint; e_layout = l; e_prompt = s.e_prompt; e_prompt_size =
+    s.e_prompt_size; i_input_mode = s.i_input_mode; i_num_args =
+    s.i_num_args; i_last_cmd = s.i_last_cmd; i_last_cs = s.i_last_cs; e_inp =
+    s.e_inp; e_out = s.e_out; e_obs = s.e_obs })
+
+(** val set_input_mode : input_mode -> unit e **)
+
+let set_input_mode m0 s =
+  EOk ((), { e_line = s.e_line; e_changes = s.e_changes; e_kr = s.e_kr;
+    e_hist = s.e_hist; e_hidx = s.e_hidx; e_saved = s.e_saved; e_hint =
+    s.e_hint; e_layout = s.e_layout; e_prompt = s.e_prompt; e_prompt_size =
+    s.e_prompt_size; i_input_mode = m0; i_num_args = s.i_num_args;
+    i_last_cmd = s.i_last_cmd; i_last_cs = s.i_last_cs; e_inp = s.e_inp;
+    e_out = s.e_out; e_obs = s.e_obs })
+
+(** val set_num_args : z -> unit e **)
+
+let set_num_args z0 s =
+  EOk ((), { e_line = s.e_line; e_changes = s.e_changes; e_kr = s.e_kr;
+    e_hist = s.e_hist; e_hidx = s.e_hidx; e_saved = s.e_saved; e_hint =
+    s.e_hint; e_layout = s.e_layout; e_prompt = s.e_prompt; e_prompt_size =
+    s.e_prompt_size; i_input_mode = s.i_input_mode; i_num_args = z0;
+    i_last_cmd = s.i_last_cmd; i_last_cs = s.i_last_cs; e_inp = s.e_inp;
+    e_out = s.e_out; e_obs = s.e_obs })
+
+(** val set_last_cmd : cmd -> unit e **)
+
+let set_last_cmd c s =
+  EOk ((), { e_line = s.e_line; e_changes = s.e_changes; e_kr = s.e_kr;
+    e_hist = s.e_hist; e_hidx = s.e_hidx; e_saved = s.e_saved; e_hint =
+    s.e_hint; e_layout = s.e_layout; e_prompt = s.e_prompt; e_prompt_size =
+    s.e_prompt_size; i_input_mode = s.i_input_mode; i_num_args =
+    s.i_num_args; i_last_cmd = c; i_last_cs = s.i_last_cs; e_inp = s.e_inp;
+    e_out = s.e_out; e_obs = s.e_obs })
+
+(** val set_last_cs : char_search option -> unit e **)
+
+let set_last_cs c s =
+  EOk ((), { e_line = s.e_line; e_changes = s.e_changes; e_kr = s.e_kr;
+    e_hist = s.e_hist; e_hidx = s.e_hidx; e_saved = s.e_saved; e_hint =
+    s.e_hint; e_layout = s.e_layout; e_prompt = s.e_prompt; e_prompt_size =
+    s.e_prompt_size; i_input_mode = s.i_input_mode; i_num_args =
+    s.i_num_args; i_last_cmd = s.i_last_cmd; i_last_cs = c; e_inp = s.e_inp;
+    e_out = s.e_out; e_obs = s.e_obs })
+
+(** val set_inp : istream -> unit e **)
+
+let set_inp i s =
+  EOk ((), { e_line = s.e_line; e_changes = s.e_changes; e_kr = s.e_kr;
+    e_hist = s.e_hist; e_hidx = s.e_hidx; e_saved = s.e_saved; e_hint =
+    s.e_hint; e_layout = s.e_layout; e_prompt = s.e_prompt; e_prompt_size =
+    s.e_prompt_size; i_input_mode = s.i_input_mode; i_num_args =
+    s.i_num_args; i_last_cmd = s.i_last_cmd; i_last_cs = s.i_last_cs; e_inp =
+    i; e_out = s.e_out; e_obs = s.e_obs })
+
+(** val write : str -> unit e **)
+
+let write bytes s =
+  EOk ((), { e_line = s.e_line; e_changes = s.e_changes; e_kr = s.e_kr;
+    e_hist = s.e_hist; e_hidx = s.e_hidx; e_saved = s.e_saved; e_hint =
+    s.e_hint; e_layout = s.e_layout; e_prompt = s.e_prompt; e_prompt_size =
+    s.e_prompt_size; i_input_mode = s.i_input_mode; i_num_args =
+    s.i_num_args; i_last_cmd = s.i_last_cmd; i_last_cs = s.i_last_cs; e_inp =
+    s.e_inp; e_out = (bytes :: s.e_out); e_obs = s.e_obs })
+
+(** val observe : observation -> unit e **)
+
+let observe o s =
+  EOk ((), { e_line = s.e_line; e_changes = s.e_changes; e_kr = s.e_kr;
+    e_hist = s.e_hist; e_hidx = s.e_hidx; e_saved = s.e_saved; e_hint =
+    s.e_hint; e_layout = s.e_layout; e_prompt = s.e_prompt; e_prompt_size =
+    s.e_prompt_size; i_input_mode = s.i_input_mode; i_num_args =
+    s.i_num_args; i_last_cmd = s.i_last_cmd; i_last_cs = s.i_last_cs; e_inp =
+    s.e_inp; e_out = s.e_out; e_obs = (o :: s.e_obs) })
+
+(** val seg : uData -> str -> str list **)
+
+let seg =
+  useg
+
+(** val cols : config -> nat **)
+
+let cols cfg =
+  cfg.c_cols
+
+(** val take_char :
+    inchar list -> inchar list list -> (inchar * istream) option **)
+
+let rec take_char cur rest =
+  match cur with
+  | [] -> (match rest with
+           | [] -> None
+           | ch :: rest' -> take_char ch rest')
+  | c :: t -> Some (c, { in_cur = t; in_rest = rest })
+
+(** val next_char : n e **)
+
+let next_char s =
+  match take_char s.e_inp.in_cur s.e_inp.in_rest with
+  | Some p ->
+    let (i0, i) = p in
+    (match i0 with
+     | Ch c ->
+       (match set_inp i s with
+        | EOk (_, s') -> EOk (c, s')
+        | _ -> EPanic)
+     | Bad ->
+       (match set_inp i s with
+        | EOk (_, s') -> EErr (EInvalidData, s')
+        | _ -> EPanic))
+  | None -> EErr (EHangup, s)
+
+type ptimeout =
+| TZero
+| TForever
+| THundred
+
+(** val poll : ptimeout -> bool e **)
+
+let poll t =
+  ebind eget (fun s ->
+    match s.e_inp.in_cur with
+    | [] -> (match t with
+             | TZero -> eret false
+             | _ -> eret true)
+    | _ :: _ -> eret true)
+
+(** val cfg_timeout : config -> ptimeout **)
+
+let cfg_timeout cfg =
+  if cfg.c_timeout_none then TForever else TZero
+
+(** val add_alt : key -> key **)
+
+let add_alt k =
+  ((fst k), (with_alt (snd k)))
+
+(** val escape_o : key e **)
+
+let escape_o =
+  ebind next_char (fun c -> eret (lookup_key (c :: []) tab_ss3))
+
+(** val extended_escape : n -> key e **)
+
+let extended_escape seq2 =
+  ebind next_char (fun seq3 ->
+    if N.eqb seq3 (Npos (XO (XI (XI (XI (XI (XI XH)))))))
+    then eret (lookup_key (seq2 :: []) tab_ext_tilde)
+    else if is_digit seq3
+         then ebind next_char (fun seq4 ->
+                if N.eqb seq4 (Npos (XO (XI (XI (XI (XI (XI XH)))))))
+                then eret (lookup_key (seq2 :: (seq3 :: [])) tab_ext_2d_tilde)
+                else if N.eqb seq4 (Npos (XI (XI (XO (XI (XI XH))))))
+                     then ebind next_char (fun seq5 ->
+                            if is_digit seq5
+                            then ebind next_char (fun seq6 ->
+                                   if is_digit seq6
+                                   then ebind next_char (fun _ ->
+                                          eret k_UNKNOWN)
+                                   else if N.eqb seq6 (Npos (XO (XI (XO (XO
+                                             (XI (XO XH)))))))
+                                        then eret k_UNKNOWN
+                                        else if N.eqb seq6 (Npos (XO (XI (XI
+                                                  (XI (XI (XI XH)))))))
+                                             then eret
+                                                    (lookup_key
+                                                      (seq2 :: (seq3 :: (seq5 :: [])))
+                                                      tab_ext_2d_mod_tilde)
+                                             else eret k_UNKNOWN)
+                            else eret k_UNKNOWN)
+                     else if is_digit seq4
+                          then ebind next_char (fun seq5 ->
+                                 if N.eqb seq5 (Npos (XO (XI (XI (XI (XI (XI
+                                      XH)))))))
+                                 then eret
+                                        (lookup_key
+                                          (seq2 :: (seq3 :: (seq4 :: [])))
+                                          tab_ext_3d_tilde)
+                                 else eret k_UNKNOWN)
+                          else eret k_UNKNOWN)
+         else if N.eqb seq3 (Npos (XI (XI (XO (XI (XI XH))))))
+              then ebind next_char (fun seq4 ->
+                     if is_digit seq4
+                     then ebind next_char (fun seq5 ->
+                            if is_digit seq5
+                            then ebind next_char (fun _ -> eret k_UNKNOWN)
+                            else if N.eqb seq2 (Npos (XI (XO (XO (XO (XI
+                                      XH))))))
+                                 then eret
+                                        (lookup_key (seq4 :: (seq5 :: []))
+                                          tab_ext_1_mod)
+                                 else if N.eqb seq5 (Npos (XO (XI (XI (XI (XI
+                                           (XI XH)))))))
+                                      then eret
+                                             (lookup_key
+                                               (seq2 :: (seq4 :: []))
+                                               tab_ext_mod_tilde)
+                                      else eret k_UNKNOWN)
+                     else eret k_UNKNOWN)
+              else eret (lookup_key (seq2 :: (seq3 :: [])) tab_ext_rxvt))
+
+(** val escape_csi : key e **)
+
+let escape_csi =
+  ebind next_char (fun seq2 ->
+    if is_digit seq2
+    then if (||) (N.eqb seq2 (Npos (XO (XO (XO (XO (XI XH)))))))
+              (N.eqb seq2 (Npos (XI (XO (XO (XI (XI XH)))))))
+         then eret k_UNKNOWN
+         else extended_escape seq2
+    else if N.eqb seq2 (Npos (XI (XI (XO (XI (XI (XO XH)))))))
+         then ebind next_char (fun seq3 ->
+                eret (lookup_key (seq3 :: []) tab_csi_linux))
+         else eret (lookup_key (seq2 :: []) tab_csi_ansi))
+
+(** val do_escape_sequence : uData -> config -> bool -> key e **)
+
+let do_escape_sequence u cfg allow_recurse =
+  ebind next_char (fun seq1 ->
+    if N.eqb seq1 (Npos (XI (XI (XO (XI (XI (XO XH)))))))
+    then escape_csi
+    else if N.eqb seq1 (Npos (XI (XI (XI (XI (XO (XO XH)))))))
+         then escape_o
+         else if N.eqb seq1 (Npos (XI (XI (XO (XI XH)))))
+              then if negb allow_recurse
+                   then eret (KEsc, m_NONE)
+                   else ebind
+                          (poll
+                            (if cfg.c_timeout_none then THundred else TZero))
+                          (fun p ->
+                          if p
+                          then ebind next_char (fun seq1' ->
+                                 ebind
+                                   (if N.eqb seq1' (Npos (XI (XI (XO (XI (XI
+                                         (XO XH)))))))
+                                    then escape_csi
+                                    else if N.eqb seq1' (Npos (XI (XI (XI (XI
+                                              (XO (XO XH)))))))
+                                         then escape_o
+                                         else if N.eqb seq1' (Npos (XI (XI
+                                                   (XO (XI XH)))))
+                                              then eret (KEsc, m_NONE)
+                                              else eret
+                                                     (key_new u seq1' m_ALT))
+                                   (fun k -> eret (add_alt k)))
+                          else eret (KEsc, m_NONE))
+              else eret (key_new u seq1 m_ALT))
+
+(** val next_key : uData -> config -> bool -> key e **)
+
+let next_key u cfg single_esc_abort =
+  ebind next_char (fun c ->
+    let k = key_new u c m_NONE in
+    if key_eqb k (KEsc, m_NONE)
+    then ebind
+           (poll
+             (if (&&) single_esc_abort cfg.c_timeout_none
+              then TZero
+              else cfg_timeout cfg)) (fun p ->
+           if p then do_escape_sequence u cfg true else eret k)
+    else eret k)
+
+(** val replace_crlf : str -> str **)
+
+let rec replace_crlf = function
+| [] -> []
+| c :: t ->
+  (match c with
+   | N0 -> c :: (replace_crlf t)
+   | Npos p ->
+     (match p with
+      | XI p1 ->
+        (match p1 with
+         | XO p2 ->
+           (match p2 with
+            | XI p3 ->
+              (match p3 with
+               | XH ->
+                 (match t with
+                  | [] -> (Npos (XO (XI (XO XH)))) :: (replace_crlf t)
+                  | n0 :: t0 ->
+                    (match n0 with
+                     | N0 -> (Npos (XO (XI (XO XH)))) :: (replace_crlf t)
+                     | Npos p4 ->
+                       (match p4 with
+                        | XO p5 ->
+                          (match p5 with
+                           | XI p6 ->
+                             (match p6 with
+                              | XO p7 ->
+                                (match p7 with
+                                 | XH ->
+                                   (Npos (XO (XI (XO
+                                     XH)))) :: (replace_crlf t0)
+                                 | _ ->
+                                   (Npos (XO (XI (XO
+                                     XH)))) :: (replace_crlf t))
+                              | _ ->
+                                (Npos (XO (XI (XO XH)))) :: (replace_crlf t))
+                           | _ -> (Npos (XO (XI (XO XH)))) :: (replace_crlf t))
+                        | _ -> (Npos (XO (XI (XO XH)))) :: (replace_crlf t))))
+               | _ -> c :: (replace_crlf t))
+            | _ -> c :: (replace_crlf t))
+         | _ -> c :: (replace_crlf t))
+      | _ -> c :: (replace_crlf t)))
+
+(** val read_pasted : uData -> config -> nat -> str -> str e **)
+
+let rec read_pasted u cfg fuel acc =
+  match fuel with
+  | O -> efuel
+  | S f ->
+    ebind next_char (fun c ->
+      if N.eqb c (Npos (XI (XI (XO (XI XH)))))
+      then ebind (do_escape_sequence u cfg true) (fun k ->
+             if key_eqb k (KPasteEnd, m_NONE)
+             then eret (replace_crlf (rev acc))
+             else read_pasted u cfg f acc)
+      else read_pasted u cfg f (c :: acc))
+
+(** val stream_size : istream -> nat **)
+
+let stream_size i =
+  add (length i.in_cur)
+    (fold_left (fun a ch -> add a (length ch)) i.in_rest O)
+
+(** val calc : uData -> config -> str -> pos2 -> pos2 **)
+
+let calc u cfg s orig =
+  calculate_position u (seg u) (cols cfg) cfg.c_tab_stop s orig
+
+(** val line_before : lb -> str **)
+
+let line_before b =
+  match bsplit b.buf b.pos with
+  | Some p -> let (l, _) = p in l
+  | None -> b.buf
+
+(** val line_after : lb -> str **)
+
+let line_after b =
+  match bsplit b.buf b.pos with
+  | Some p -> let (_, r) = p in r
+  | None -> []
+
+(** val update_hint : config -> unit e **)
+
+let update_hint cfg =
+  ebind eget (fun s ->
+    if cfg.c_has_helper
+    then set_hint
+           (match cfg.c_hint s.e_line.buf s.e_line.pos with
+            | Some s0 ->
+              (match s0 with
+               | [] -> None
+               | n0 :: l -> Some (n0 :: l))
+            | None -> None)
+    else set_hint None)
+
+(** val refresh :
+    uData -> config -> str -> pos2 -> bool -> str option -> unit e **)
+
+let refresh u cfg prompt prompt_size default_prompt info =
+  ebind eget (fun s ->
+    let b = s.e_line in
+    let new_layout =
+      compute_layout u (seg u) (cols cfg) cfg.c_tab_stop prompt_size
+        default_prompt (line_before b) (line_after b) info
+    in
+    ebind
+      (write (refresh_bytes prompt b.buf b.buf info s.e_layout new_layout))
+      (fun _ -> set_layout new_layout))
+
+(** val refresh_line : uData -> config -> unit e **)
+
+let refresh_line u cfg =
+  ebind (update_hint cfg) (fun _ ->
+    ebind eget (fun s ->
+      refresh u cfg s.e_prompt s.e_prompt_size true s.e_hint))
+
+(** val refresh_line_with_msg : uData -> config -> str option -> unit e **)
+
+let refresh_line_with_msg u cfg msg =
+  ebind (set_hint None) (fun _ ->
+    ebind eget (fun s -> refresh u cfg s.e_prompt s.e_prompt_size true msg))
+
+(** val refresh_prompt_and_line : uData -> config -> str -> unit e **)
+
+let refresh_prompt_and_line u cfg prompt =
+  ebind (update_hint cfg) (fun _ ->
+    ebind eget (fun s ->
+      refresh u cfg prompt (calc u cfg prompt p0) false s.e_hint))
+
+(** val move_cursor : uData -> config -> unit e **)
+
+let move_cursor u cfg =
+  ebind eget (fun s ->
+    let cursor = calc u cfg (line_before s.e_line) s.e_prompt_size in
+    if pos2_eqb s.e_layout.l_cursor cursor
+    then eret ()
+    else ebind (write (move_cursor_bytes s.e_layout.l_cursor cursor))
+           (fun _ ->
+           set_layout { l_prompt_size = s.e_prompt_size; l_default_prompt =
+             s.e_layout.l_default_prompt; l_cursor = cursor; l_end =
+             s.e_layout.l_end }))
+
+(** val move_cursor_to_end : unit e **)
+
+let move_cursor_to_end =
+  ebind eget (fun s ->
+    let lay = s.e_layout in
+    if pos2_eqb lay.l_cursor lay.l_end
+    then eret ()
+    else ebind (write (move_cursor_bytes lay.l_cursor lay.l_end)) (fun _ ->
+           set_layout { l_prompt_size = lay.l_prompt_size; l_default_prompt =
+             lay.l_default_prompt; l_cursor = lay.l_end; l_end = lay.l_end }))
+
+(** val lb_changes : uData -> 'a1 m -> 'a1 e **)
+
+let lb_changes u m0 =
+  ebind eget (fun s ->
+    match m0 s.e_line with
+    | Ok a0 ->
+      let (p, ev) = a0 in
+      let (a, b') = p in
+      ebind (set_line b') (fun _ ->
+        ebind (set_changes (cs_notify_all u (seg u) s.e_changes ev))
+          (fun _ -> eret a))
+    | Panic -> epanic)
+
+(** val lb_quiet : 'a1 m -> 'a1 e **)
+
+let lb_quiet m0 =
+  ebind eget (fun s ->
+    match m0 s.e_line with
+    | Ok a0 ->
+      let (p, _) = a0 in
+      let (a, b') = p in ebind (set_line b') (fun _ -> eret a)
+    | Panic -> epanic)
+
+(** val lb_kill : uData -> 'a1 m -> 'a1 e **)
+
+let lb_kill u m0 =
+  ebind eget (fun s ->
+    match m0 s.e_line with
+    | Ok a0 ->
+      let (p, ev) = a0 in
+      let (a, b') = p in
+      (match kr_notify_all s.e_kr ev with
+       | Ok k' ->
+         ebind (set_line b') (fun _ ->
+           ebind (set_changes (cs_notify_all u (seg u) s.e_changes ev))
+             (fun _ -> ebind (set_kr k') (fun _ -> eret a)))
+       | Panic -> epanic)
+    | Panic -> epanic)
+
+(** val changes_begin : nat e **)
+
+let changes_begin =
+  ebind eget (fun s ->
+    let (c, mark) = cs_begin s.e_changes in
+    ebind (set_changes c) (fun _ -> eret mark))
+
+(** val changes_end : bool e **)
+
+let changes_end =
+  ebind eget (fun s ->
+    let (c, t) = cs_end s.e_changes in ebind (set_changes c) (fun _ -> eret t))
+
+(** val is_emacs0 : config -> bool **)
+
+let is_emacs0 cfg =
+  match cfg.c_mode with
+  | Emacs -> true
+  | Vi -> false
+
+(** val cwidth : uData -> n -> nat **)
+
+let cwidth u c =
+  u.u_width c
+
+(** val edit_insert : uData -> config -> n -> nat -> unit e **)
+
+let edit_insert u cfg ch n0 =
+  ebind (lb_changes u (insert ch n0)) (fun r ->
+    match r with
+    | Some push ->
+      if push
+      then ebind eget (fun s0 ->
+             let no_previous_hint =
+               match s0.e_hint with
+               | Some _ -> false
+               | None -> true
+             in
+             ebind (update_hint cfg) (fun _ ->
+               ebind eget (fun s ->
+                 let w = cwidth u ch in
+                 if (&&)
+                      ((&&)
+                        ((&&) ((&&) (Nat.eqb n0 (S O)) (negb (Nat.eqb w O)))
+                          (Nat.ltb (add s.e_layout.l_cursor.p_col w)
+                            (cols cfg)))
+                        (match s.e_hint with
+                         | Some _ -> false
+                         | None -> true)) no_previous_hint
+                 then let lay = s.e_layout in
+                      ebind
+                        (set_layout { l_prompt_size = lay.l_prompt_size;
+                          l_default_prompt = lay.l_default_prompt; l_cursor =
+                          { p_col = (add lay.l_cursor.p_col w); p_row =
+                          lay.l_cursor.p_row }; l_end = { p_col =
+                          (add lay.l_end.p_col w); p_row =
+                          lay.l_end.p_row } }) (fun _ -> write (ch :: []))
+                 else refresh u cfg s.e_prompt s.e_prompt_size true s.e_hint)))
+      else refresh_line u cfg
+    | None -> eret ())
+
+(** val edit_replace_char : uData -> config -> n -> nat -> unit e **)
+
+let edit_replace_char u cfg ch n0 =
+  ebind changes_begin (fun _ ->
+    ebind (lb_changes u (delete (seg u) n0)) (fun r ->
+      ebind
+        (match r with
+         | Some chars ->
+           ebind (lb_changes u (insert ch (length (seg u chars)))) (fun _ ->
+             ebind (lb_quiet (move_backward (seg u) (S O))) (fun _ ->
+               eret true))
+         | None -> eret false) (fun ok ->
+        ebind changes_end (fun _ ->
+          if ok then refresh_line u cfg else eret ()))))
+
+(** val edit_overwrite_char : uData -> config -> n -> unit e **)
+
+let edit_overwrite_char u cfg ch =
+  ebind eget (fun s ->
+    match next_pos (seg u) s.e_line (S O) with
+    | Ok a ->
+      (match a with
+       | Some e0 ->
+         ebind (lb_changes u (replace s.e_line.pos e0 (ch :: []))) (fun _ ->
+           refresh_line u cfg)
+       | None -> eret ())
+    | Panic -> epanic)
+
+(** val edit_yank : uData -> config -> str -> anchor -> nat -> unit e **)
+
+let edit_yank u cfg text a n0 =
+  ebind
+    (match a with
+     | AAfter ->
+       ebind (lb_quiet (move_forward (seg u) (S O))) (fun _ -> eret ())
+     | ABefore -> eret ()) (fun _ ->
+    ebind (lb_changes u (yank text n0)) (fun r ->
+      match r with
+      | Some _ ->
+        ebind
+          (if is_emacs0 cfg
+           then eret ()
+           else ebind (lb_quiet (move_backward (seg u) (S O))) (fun _ ->
+                  eret ())) (fun _ -> refresh_line u cfg)
+      | None -> eret ()))
+
+(** val edit_yank_pop : uData -> config -> nat -> str -> unit e **)
+
+let edit_yank_pop u cfg size text =
+  ebind changes_begin (fun _ ->
+    ebind (lb_changes u (yank_pop size text)) (fun r ->
+      ebind (match r with
+             | Some _ -> refresh_line u cfg
+             | None -> eret ()) (fun _ ->
+        ebind changes_end (fun _ -> eret ()))))
+
+(** val moved : uData -> config -> bool m -> unit e **)
+
+let moved u cfg m0 =
+  ebind (lb_quiet m0) (fun r -> if r then move_cursor u cfg else eret ())
+
+(** val edit_kill : uData -> config -> movement -> unit e **)
+
+let edit_kill u cfg m0 =
+  ebind (lb_kill u (kill u (seg u) m0)) (fun r ->
+    if r then refresh_line u cfg else eret ())
+
+(** val edit_insert_text : uData -> config -> str -> unit e **)
+
+let edit_insert_text u cfg text = match text with
+| [] -> eret ()
+| _ :: _ ->
+  ebind eget (fun s ->
+    ebind (lb_changes u (insert_str s.e_line.pos text)) (fun _ ->
+      refresh_line u cfg))
+
+(** val grouped : uData -> config -> bool m -> unit e **)
+
+let grouped u cfg m0 =
+  ebind changes_begin (fun _ ->
+    ebind (lb_changes u m0) (fun r ->
+      ebind changes_end (fun _ -> if r then refresh_line u cfg else eret ())))
+
+(** val layout_w : uData -> str -> nat **)
+
+let layout_w =
+  layout_width
+
+(** val edit_move_line_up : uData -> config -> nat -> bool e **)
+
+let edit_move_line_up u cfg n0 =
+  ebind eget (fun s ->
+    ebind
+      (lb_quiet
+        (move_to_line_up (seg u) (layout_w u) n0
+          s.e_layout.l_prompt_size.p_col)) (fun r ->
+      if r then ebind (move_cursor u cfg) (fun _ -> eret true) else eret false))
+
+(** val edit_move_line_down : uData -> config -> nat -> bool e **)
+
+let edit_move_line_down u cfg n0 =
+  ebind eget (fun s ->
+    ebind
+      (lb_quiet
+        (move_to_line_down (seg u) (layout_w u) n0
+          s.e_layout.l_prompt_size.p_col)) (fun r ->
+      if r then ebind (move_cursor u cfg) (fun _ -> eret true) else eret false))
+
+(** val hlen_e : est -> nat **)
+
+let hlen_e s =
+  length s.e_hist
+
+(** val backup : unit e **)
+
+let backup =
+  ebind eget (fun s -> set_saved (s.e_line.buf, s.e_line.pos))
+
+(** val restore : uData -> unit e **)
+
+let restore u =
+  ebind eget (fun s -> lb_changes u (update (fst s.e_saved) (snd s.e_saved)))
+
+(** val edit_history_next : uData -> config -> bool -> unit e **)
+
+let edit_history_next u cfg prev =
+  ebind eget (fun s ->
+    if Nat.eqb (hlen_e s) O
+    then eret ()
+    else let at_end = Nat.eqb s.e_hidx (hlen_e s) in
+         if (&&) at_end (negb prev)
+         then eret ()
+         else if (&&) ((&&) (negb at_end) (Nat.eqb s.e_hidx O)) prev
+              then eret ()
+              else ebind (if at_end then backup else eret ()) (fun _ ->
+                     ebind
+                       (if prev
+                        then eret (sub s.e_hidx (S O))
+                        else ebind (set_hidx (S s.e_hidx)) (fun _ ->
+                               eret (S s.e_hidx))) (fun idx ->
+                       if Nat.ltb idx (hlen_e s)
+                       then (match nth_error s.e_hist idx with
+                             | Some entry ->
+                               ebind (set_hidx idx) (fun _ ->
+                                 ebind changes_begin (fun _ ->
+                                   ebind
+                                     (lb_changes u
+                                       (update entry (blen entry))) (fun _ ->
+                                     ebind changes_end (fun _ ->
+                                       refresh_line u cfg))))
+                             | None -> eret ())
+                       else ebind (restore u) (fun _ -> refresh_line u cfg))))
+
+(** val edit_history : uData -> config -> bool -> unit e **)
+
+let edit_history u cfg first =
+  ebind eget (fun s ->
+    if Nat.eqb (hlen_e s) O
+    then eret ()
+    else let at_end = Nat.eqb s.e_hidx (hlen_e s) in
+         if (&&) at_end (negb first)
+         then eret ()
+         else if (&&) ((&&) (negb at_end) (Nat.eqb s.e_hidx O)) first
+              then eret ()
+              else ebind (if at_end then backup else eret ()) (fun _ ->
+                     if first
+                     then (match nth_error s.e_hist O with
+                           | Some entry ->
+                             ebind (set_hidx O) (fun _ ->
+                               ebind changes_begin (fun _ ->
+                                 ebind
+                                   (lb_changes u (update entry (blen entry)))
+                                   (fun _ ->
+                                   ebind changes_end (fun _ ->
+                                     refresh_line u cfg))))
+                           | None -> eret ())
+                     else ebind (set_hidx (hlen_e s)) (fun _ ->
+                            ebind (restore u) (fun _ -> refresh_line u cfg))))
+
+(** val beep : unit e **)
+
+let beep =
+  write ((Npos (XI (XI XH))) :: [])
+
+(** val hist_of : est -> hist **)
+
+let hist_of s =
+  { h_entries = s.e_hist; h_max = (length s.e_hist); h_ign_space = false;
+    h_ign_dups = false }
+
+(** val edit_history_search : uData -> config -> sdir -> unit e **)
+
+let edit_history_search u cfg d =
+  ebind eget (fun s ->
+    if Nat.eqb (hlen_e s) O
+    then beep
+    else if (||)
+              ((&&) (Nat.eqb s.e_hidx (hlen_e s))
+                (match d with
+                 | Forward -> true
+                 | Reverse -> false))
+              ((&&) (Nat.eqb s.e_hidx O)
+                (match d with
+                 | Forward -> false
+                 | Reverse -> true))
+         then beep
+         else let idx =
+                match d with
+                | Forward -> S s.e_hidx
+                | Reverse -> sub s.e_hidx (S O)
+              in
+              ebind (set_hidx idx) (fun _ ->
+                match h_starts_with (hist_of s) (line_before s.e_line) idx d with
+                | Some p1 ->
+                  let (p2, entry) = p1 in
+                  let (i, p) = p2 in
+                  ebind (set_hidx i) (fun _ ->
+                    ebind changes_begin (fun _ ->
+                      ebind (lb_changes u (update entry p)) (fun _ ->
+                        ebind changes_end (fun _ -> refresh_line u cfg))))
+                | None -> beep))
+
+(** val validate : uData -> config -> vresult e **)
+
+let validate u cfg =
+  if cfg.c_has_helper
+  then ebind changes_begin (fun _ ->
+         ebind eget (fun s ->
+           let r = cfg.c_validate s.e_line.buf in
+           (match r with
+            | VRError -> efail EValidator
+            | _ ->
+              ebind changes_end (fun corrected ->
+                ebind eget (fun s' ->
+                  let has_hint =
+                    match s'.e_hint with
+                    | Some _ -> true
+                    | None -> false
+                  in
+                  ebind
+                    (match r with
+                     | VRValid msg ->
+                       if (||) ((||) corrected has_hint)
+                            (match msg with
+                             | Some _ -> true
+                             | None -> false)
+                       then refresh_line_with_msg u cfg msg
+                       else eret ()
+                     | VRInvalid msg ->
+                       if (||) ((||) corrected has_hint)
+                            (match msg with
+                             | Some _ -> true
+                             | None -> false)
+                       then refresh_line_with_msg u cfg msg
+                       else eret ()
+                     | _ -> eret ()) (fun _ -> eret r))))))
+  else eret (VRValid None)
+
+(** val hint_of : est -> str option **)
+
+let hint_of s =
+  s.e_hint
+
+(** val find_binding : key list -> (key list * cmd) list -> cmd option **)
+
+let rec find_binding ks = function
+| [] -> None
+| p1 :: t ->
+  let (p, c) = p1 in
+  if (&&) (Nat.eqb (length p) (length ks))
+       (forallb (fun pq -> key_eqb (fst pq) (snd pq)) (combine p ks))
+  then Some c
+  else find_binding ks t
+
+(** val is_proper_prefix : key list -> key list -> bool **)
+
+let rec is_proper_prefix ks p =
+  match ks with
+  | [] -> (match p with
+           | [] -> false
+           | _ :: _ -> true)
+  | k :: ks' ->
+    (match p with
+     | [] -> false
+     | q :: p' -> (&&) (key_eqb k q) (is_proper_prefix ks' p'))
+
+(** val has_descendant : config -> key list -> bool **)
+
+let has_descendant cfg ks =
+  existsb (fun b ->
+    (||) (is_proper_prefix ks (fst b))
+      ((&&) (Nat.eqb (length (fst b)) (length ks))
+        (forallb (fun pq -> key_eqb (fst pq) (snd pq)) (combine (fst b) ks))))
+    cfg.c_bindings
+
+(** val custom_binding : config -> key -> nat -> bool -> cmd option e **)
+
+let custom_binding cfg k n0 positive0 =
+  match find_binding (k :: []) cfg.c_bindings with
+  | Some c -> eret (Some c)
+  | None ->
+    ebind eget (fun s ->
+      ebind
+        (observe { o_line = s.e_line.buf; o_pos = s.e_line.pos; o_mode =
+          s.i_input_mode; o_n = n0; o_positive = positive0; o_hint =
+          (hint_of s) }) (fun _ -> eret None))
+
+(** val custom_seq_binding :
+    uData -> config -> nat -> key list -> (cmd option * key list) e **)
+
+let rec custom_seq_binding u cfg fuel ks =
+  match fuel with
+  | O -> eret (None, ks)
+  | S f ->
+    if has_descendant cfg ks
+    then ebind (next_key u cfg true) (fun k2 ->
+           let ks' = app ks (k2 :: []) in
+           (match find_binding ks' cfg.c_bindings with
+            | Some c -> eret ((Some c), ks')
+            | None -> custom_seq_binding u cfg f ks'))
+    else eret (None, ks)
+
+(** val term_binding : config -> key -> cmd option e **)
+
+let term_binding cfg k =
+  ebind eget (fun s ->
+    let r =
+      if key_eqb k cfg.c_veof
+      then Some CEndOfFile
+      else if key_eqb k cfg.c_vintr
+           then Some CInterrupt
+           else if key_eqb k cfg.c_vquit
+                then Some CInterrupt
+                else if key_eqb k cfg.c_vsusp then Some CSuspend else None
+    in
+    (match r with
+     | Some c ->
+       (match c with
+        | CEndOfFile ->
+          if Nat.eqb (lb_len s.e_line) O then eret r else eret None
+        | _ -> eret r)
+     | None -> eret r))
+
+(** val last_insert : str option e **)
+
+let last_insert =
+  ebind eget (fun s -> eret (cs_last_insert s.e_changes))
+
+(** val cmd_redo : cmd -> nat option -> cmd e **)
+
+let cmd_redo c new0 =
+  match c with
+  | CDedent m0 -> eret (CDedent (mvt_redo m0 new0))
+  | CIndent m0 -> eret (CIndent (mvt_redo m0 new0))
+  | CInsert (p, t) -> eret (CInsert ((rc p new0), t))
+  | CKill m0 -> eret (CKill (mvt_redo m0 new0))
+  | CMove m0 -> eret (CMove (mvt_redo m0 new0))
+  | CReplaceChar (p, ch) -> eret (CReplaceChar ((rc p new0), ch))
+  | CReplace (m0, t) ->
+    (match t with
+     | Some _ -> eret (CReplace ((mvt_redo m0 new0), t))
+     | None ->
+       ebind last_insert (fun li ->
+         match m0 with
+         | MForwardChar n0 ->
+           (match n0 with
+            | O ->
+              let k = match li with
+                      | Some t' -> blen t'
+                      | None -> O in
+              if Nat.ltb
+                   (N.to_nat (Npos (XI (XI (XI (XI (XI (XI (XI (XI (XI (XI
+                     (XI (XI (XI (XI (XI XH))))))))))))))))) k
+              then epanic
+              else eret (CReplace ((MForwardChar k), li))
+            | S _ -> eret (CReplace ((mvt_redo m0 new0), li)))
+         | _ -> eret (CReplace ((mvt_redo m0 new0), li))))
+  | CSelfInsert (p, ch) ->
+    ebind last_insert (fun li ->
+      match li with
+      | Some text -> eret (CInsert ((rc p new0), text))
+      | None -> eret (CSelfInsert ((rc p new0), ch)))
+  | CViYankTo m0 -> eret (CViYankTo (mvt_redo m0 new0))
+  | CYank (p, a) -> eret (CYank ((rc p new0), a))
+  | _ -> epanic
+
+(** val i16_sat : z -> z **)
+
+let i16_sat z0 =
+  Z.max (Zneg (XO (XO (XO (XO (XO (XO (XO (XO (XO (XO (XO (XO (XO (XO (XO
+    XH))))))))))))))))
+    (Z.min (Zpos (XI (XI (XI (XI (XI (XI (XI (XI (XI (XI (XI (XI (XI (XI
+      XH))))))))))))))) z0)
+
+(** val take_num_args : z e **)
+
+let take_num_args =
+  ebind eget (fun s ->
+    let n0 = if Z.eqb s.i_num_args Z0 then Zpos XH else s.i_num_args in
+    ebind (set_num_args Z0) (fun _ -> eret n0))
+
+(** val emacs_num_args : (nat * bool) e **)
+
+let emacs_num_args =
+  ebind take_num_args (fun z0 ->
+    if Z.ltb z0 Z0
+    then eret
+           ((Z.to_nat
+              (Z.min (Zpos (XI (XI (XI (XI (XI (XI (XI (XI (XI (XI (XI (XI
+                (XI (XI (XI XH)))))))))))))))) (Z.opp z0))), false)
+    else eret ((Z.to_nat z0), true))
+
+(** val vi_num_args : nat e **)
+
+let vi_num_args =
+  ebind take_num_args (fun z0 ->
+    if Z.ltb z0 Z0 then epanic else eret (Z.to_nat z0))
+
+(** val arg_prompt : z -> str **)
+
+let arg_prompt z0 =
+  app ((Npos (XO (XO (XO (XI (XO XH)))))) :: ((Npos (XI (XO (XO (XO (XO (XI
+    XH))))))) :: ((Npos (XO (XI (XO (XO (XI (XI XH))))))) :: ((Npos (XI (XI
+    (XI (XO (XO (XI XH))))))) :: ((Npos (XO (XI (XO (XI (XI
+    XH)))))) :: ((Npos (XO (XO (XO (XO (XO XH)))))) :: []))))))
+    (app
+      (if Z.ltb z0 Z0 then (Npos (XI (XO (XI (XI (XO XH)))))) :: [] else [])
+      (app (dec (Z.to_nat (Z.abs z0))) ((Npos (XI (XO (XO (XI (XO
+        XH)))))) :: ((Npos (XO (XO (XO (XO (XO XH)))))) :: []))))
+
+(** val digit_val : n -> z **)
+
+let digit_val c =
+  Z.of_N (N.sub c (Npos (XO (XO (XO (XO (XI XH)))))))
+
+(** val is_plain_or_alt : mods -> bool **)
+
+let is_plain_or_alt m0 =
+  (||) (mods_eqb m0 m_NONE) (mods_eqb m0 m_ALT)
+
+(** val emacs_digit_loop : uData -> config -> nat -> bool -> key e **)
+
+let rec emacs_digit_loop u cfg fuel minus_only =
+  match fuel with
+  | O -> efuel
+  | S f ->
+    ebind eget (fun s ->
+      ebind (refresh_prompt_and_line u cfg (arg_prompt s.i_num_args))
+        (fun _ ->
+        ebind (next_key u cfg true) (fun k ->
+          let (k0, m0) = k in
+          (match k0 with
+           | KChar c ->
+             if (&&) (is_digit c) (is_plain_or_alt m0)
+             then ebind eget (fun s1 ->
+                    let d = digit_val c in
+                    if minus_only
+                    then ebind (set_num_args (Z.opp d)) (fun _ ->
+                           emacs_digit_loop u cfg f false)
+                    else if Z.ltb (Z.abs s1.i_num_args) (Zpos (XO (XO (XO (XI
+                              (XO (XI (XI (XI (XI XH))))))))))
+                         then let sh =
+                                i16_sat
+                                  (Z.mul s1.i_num_args (Zpos (XO (XI (XO
+                                    XH)))))
+                              in
+                              ebind
+                                (set_num_args
+                                  (i16_sat
+                                    (if Z.ltb s1.i_num_args Z0
+                                     then Z.sub sh d
+                                     else Z.add sh d))) (fun _ ->
+                                emacs_digit_loop u cfg f false)
+                         else emacs_digit_loop u cfg f false)
+             else if (&&) (N.eqb c (Npos (XI (XO (XI (XI (XO XH)))))))
+                       (is_plain_or_alt m0)
+                  then emacs_digit_loop u cfg f minus_only
+                  else ebind (refresh_line u cfg) (fun _ -> eret k)
+           | _ -> ebind (refresh_line u cfg) (fun _ -> eret k)))))
+
+(** val emacs_digit_argument : uData -> config -> nat -> n -> key e **)
+
+let emacs_digit_argument u cfg fuel digit =
+  ebind
+    (if N.eqb digit (Npos (XI (XO (XI (XI (XO XH))))))
+     then set_num_args (Zneg XH)
+     else set_num_args (digit_val digit)) (fun _ ->
+    emacs_digit_loop u cfg fuel
+      (N.eqb digit (Npos (XI (XO (XI (XI (XO XH))))))))
+
+(** val vi_arg_digit_loop : uData -> config -> nat -> key e **)
+
+let rec vi_arg_digit_loop u cfg = function
+| O -> efuel
+| S f ->
+  ebind eget (fun s ->
+    ebind (refresh_prompt_and_line u cfg (arg_prompt s.i_num_args)) (fun _ ->
+      ebind (next_key u cfg false) (fun k ->
+        let (k0, m0) = k in
+        (match k0 with
+         | KChar c ->
+           if (&&) (is_digit c) (mods_eqb m0 m_NONE)
+           then ebind eget (fun s1 ->
+                  if Z.ltb (Z.abs s1.i_num_args) (Zpos (XO (XO (XO (XI (XO
+                       (XI (XI (XI (XI XH))))))))))
+                  then ebind
+                         (set_num_args
+                           (i16_sat
+                             (Z.add
+                               (i16_sat
+                                 (Z.mul s1.i_num_args (Zpos (XO (XI (XO
+                                   XH)))))) (digit_val c)))) (fun _ ->
+                         vi_arg_digit_loop u cfg f)
+                  else vi_arg_digit_loop u cfg f)
+           else ebind (refresh_line u cfg) (fun _ -> eret k)
+         | _ -> ebind (refresh_line u cfg) (fun _ -> eret k)))))
+
+(** val vi_arg_digit : uData -> config -> nat -> n -> key e **)
+
+let vi_arg_digit u cfg fuel digit =
+  ebind (set_num_args (digit_val digit)) (fun _ ->
+    vi_arg_digit_loop u cfg fuel)
+
+(** val has_hint_at_end : bool e **)
+
+let has_hint_at_end =
+  ebind eget (fun s ->
+    eret
+      ((&&) (match s.e_hint with
+             | Some _ -> true
+             | None -> false) (Nat.eqb s.e_line.pos (lb_len s.e_line))))
+
+(** val kc : n -> mods -> key **)
+
+let kc c m0 =
+  ((KChar c), m0)
+
+(** val common : uData -> config -> nat -> key -> nat -> bool -> cmd e **)
+
+let common u cfg fuel k n0 positive0 =
+  ebind eget (fun s ->
+    let line_empty = Nat.eqb (lb_len s.e_line) O in
+    let is = fun k' -> key_eqb k k' in
+    if is (KHome, m_NONE)
+    then eret (CMove MBeginningOfLine)
+    else if is (KLeft, m_NONE)
+         then eret (CMove
+                (if positive0 then MBackwardChar n0 else MForwardChar n0))
+         else if is (kc (Npos (XO (XO (XI (XO (XO (XO XH))))))) m_CTRL)
+              then if (&&) (is_emacs0 cfg) (negb line_empty)
+                   then eret (CKill
+                          (if positive0
+                           then MForwardChar n0
+                           else MBackwardChar n0))
+                   else if negb line_empty
+                        then eret CEndOfFile
+                        else eret CUnknown
+              else if is (KDelete, m_NONE)
+                   then eret (CKill
+                          (if positive0
+                           then MForwardChar n0
+                           else MBackwardChar n0))
+                   else if is (KEnd, m_NONE)
+                        then eret (CMove MEndOfLine)
+                        else if is (KRight, m_NONE)
+                             then eret (CMove
+                                    (if positive0
+                                     then MForwardChar n0
+                                     else MBackwardChar n0))
+                             else if (||)
+                                       ((||)
+                                         (is
+                                           (kc (Npos (XO (XI (XO (XI (XO (XO
+                                             XH))))))) m_CTRL))
+                                         (is
+                                           (kc (Npos (XI (XO (XI (XI (XO (XO
+                                             XH))))))) m_CTRL)))
+                                       (is (KEnter, m_NONE))
+                                  then eret (CAcceptOrInsertLine true)
+                                  else if is (KDown, m_NONE)
+                                       then eret (CLineDownOrNextHistory (S
+                                              O))
+                                       else if is (KUp, m_NONE)
+                                            then eret
+                                                   (CLineUpOrPreviousHistory
+                                                   (S O))
+                                            else if is
+                                                      (kc (Npos (XO (XI (XO
+                                                        (XO (XI (XO XH)))))))
+                                                        m_CTRL)
+                                                 then eret
+                                                        CReverseSearchHistory
+                                                 else if is
+                                                           (kc (Npos (XI (XI
+                                                             (XO (XO (XI (XO
+                                                             XH))))))) m_CTRL)
+                                                      then eret
+                                                             CForwardSearchHistory
+                                                      else if is
+                                                                (kc (Npos (XO
+                                                                  (XO (XI (XO
+                                                                  (XI (XO
+                                                                  XH)))))))
+                                                                  m_CTRL)
+                                                           then eret
+                                                                  CTransposeChars
+                                                           else if is
+                                                                    (kc (Npos
+                                                                    (XI (XO
+                                                                    (XI (XO
+                                                                    (XI (XO
+                                                                    XH)))))))
+                                                                    m_CTRL)
+                                                                then 
+                                                                  eret (CKill
+                                                                    (
+                                                                    if positive0
+                                                                    then 
+                                                                    MBeginningOfLine
+                                                                    else 
+                                                                    MEndOfLine))
+                                                                else 
+                                                                  if 
+                                                                    (||)
+                                                                    (is
+                                                                    (kc (Npos
+                                                                    (XI (XO
+                                                                    (XO (XO
+                                                                    (XI (XO
+                                                                    XH)))))))
+                                                                    m_CTRL))
+                                                                    (is
+                                                                    (kc (Npos
+                                                                    (XO (XI
+                                                                    (XI (XO
+                                                                    (XI (XO
+                                                                    XH)))))))
+                                                                    m_CTRL))
+                                                                  then 
+                                                                    eret
+                                                                    CQuotedInsert
+                                                                  else 
+                                                                    if 
+                                                                    is
+                                                                    (kc (Npos
+                                                                    (XI (XI
+                                                                    (XI (XO
+                                                                    (XI (XO
+                                                                    XH)))))))
+                                                                    m_CTRL)
+                                                                    then 
+                                                                    eret
+                                                                    (CKill
+                                                                    (if positive0
+                                                                    then 
+                                                                    MBackwardWord
+                                                                    (n0, WBig)
+                                                                    else 
+                                                                    MForwardWord
+                                                                    (n0,
+                                                                    AtAfterEnd,
+                                                                    WBig)))
+                                                                    else 
+                                                                    if 
+                                                                    is
+                                                                    (kc (Npos
+                                                                    (XI (XO
+                                                                    (XO (XI
+                                                                    (XI (XO
+                                                                    XH)))))))
+                                                                    m_CTRL)
+                                                                    then 
+                                                                    eret
+                                                                    (if positive0
+                                                                    then 
+                                                                    CYank
+                                                                    (n0,
+                                                                    ABefore)
+                                                                    else 
+                                                                    CUnknown)
+                                                                    else 
+                                                                    if 
+                                                                    is
+                                                                    (kc (Npos
+                                                                    (XI (XI
+                                                                    (XI (XI
+                                                                    (XI (XO
+                                                                    XH)))))))
+                                                                    m_CTRL)
+                                                                    then 
+                                                                    eret
+                                                                    (CUndo n0)
+                                                                    else 
+                                                                    if 
+                                                                    is
+                                                                    (KUnknown,
+                                                                    m_NONE)
+                                                                    then 
+                                                                    eret CNoop
+                                                                    else 
+                                                                    if 
+                                                                    is
+                                                                    (KPasteStart,
+                                                                    m_NONE)
+                                                                    then 
+                                                                    ebind
+                                                                    eget
+                                                                    (fun s1 ->
+                                                                    ebind
+                                                                    (read_pasted
+                                                                    u cfg (S
+                                                                    (stream_size
+                                                                    s1.e_inp))
+                                                                    [])
+                                                                    (fun text ->
+                                                                    eret
+                                                                    (CInsert
+                                                                    ((S O),
+                                                                    text))))
+                                                                    else 
+                                                                    ebind
+                                                                    (custom_seq_binding
+                                                                    u cfg
+                                                                    fuel
+                                                                    (k :: []))
+                                                                    (fun r ->
+                                                                    eret
+                                                                    (match 
+                                                                    fst r with
+                                                                    | Some c ->
+                                                                    c
+                                                                    | None ->
+                                                                    CUnknown)))
+
+(** val is_ctrl_or_ctrl_alt : mods -> bool **)
+
+let is_ctrl_or_ctrl_alt m0 =
+  (||) (mods_eqb m0 m_CTRL) (mods_eqb m0 m_CTRL_ALT)
+
+(** val emacs : uData -> config -> nat -> key -> cmd e **)
+
+let emacs u cfg fuel k0 =
+  ebind
+    (let (k, m0) = k0 in
+     (match k with
+      | KChar c ->
+        if (&&) (mods_eqb m0 m_ALT)
+             ((||) (N.eqb c (Npos (XI (XO (XI (XI (XO XH))))))) (is_digit c))
+        then emacs_digit_argument u cfg fuel c
+        else eret k0
+      | _ -> eret k0)) (fun k ->
+    ebind emacs_num_args (fun np ->
+      let (n0, positive0) = np in
+      ebind (custom_binding cfg k n0 positive0) (fun cb ->
+        match cb with
+        | Some c -> if is_repeatable c then cmd_redo c (Some n0) else eret c
+        | None ->
+          ebind (term_binding cfg k) (fun tb ->
+            match tb with
+            | Some c -> eret c
+            | None ->
+              let is = fun k' -> key_eqb k k' in
+              let (k1, m0) = k in
+              (match k1 with
+               | KChar c ->
+                 if mods_eqb m0 m_NONE
+                 then eret
+                        (if positive0 then CSelfInsert (n0, c) else CUnknown)
+                 else if is
+                           (kc (Npos (XI (XO (XO (XO (XO (XO XH))))))) m_CTRL)
+                      then eret (CMove MBeginningOfLine)
+                      else if is
+                                (kc (Npos (XO (XI (XO (XO (XO (XO XH)))))))
+                                  m_CTRL)
+                           then eret (CMove
+                                  (if positive0
+                                   then MBackwardChar n0
+                                   else MForwardChar n0))
+                           else if is
+                                     (kc (Npos (XI (XO (XI (XO (XO (XO
+                                       XH))))))) m_CTRL)
+                                then eret (CMove MEndOfLine)
+                                else if is
+                                          (kc (Npos (XO (XI (XI (XO (XO (XO
+                                            XH))))))) m_CTRL)
+                                     then eret (CMove
+                                            (if positive0
+                                             then MForwardChar n0
+                                             else MBackwardChar n0))
+                                     else if (&&)
+                                               (N.eqb c (Npos (XI (XI (XI (XO
+                                                 (XO (XO XH))))))))
+                                               (is_ctrl_or_ctrl_alt m0)
+                                          then eret CAbort
+                                          else if is
+                                                    (kc (Npos (XO (XO (XO (XI
+                                                      (XO (XO XH)))))))
+                                                      m_CTRL)
+                                               then eret (CKill
+                                                      (if positive0
+                                                       then MBackwardChar n0
+                                                       else MForwardChar n0))
+                                               else if is
+                                                         (kc (Npos (XI (XO
+                                                           (XO (XI (XO (XO
+                                                           XH))))))) m_CTRL)
+                                                    then eret
+                                                           (if positive0
+                                                            then CComplete
+                                                            else CCompleteBackward)
+                                                    else if is
+                                                              (kc (Npos (XI
+                                                                (XI (XO (XI
+                                                                (XO (XO
+                                                                XH)))))))
+                                                                m_CTRL)
+                                                         then eret (CKill
+                                                                (if positive0
+                                                                 then 
+                                                                   MEndOfLine
+                                                                 else 
+                                                                   MBeginningOfLine))
+                                                         else if is
+                                                                   (kc (Npos
+                                                                    (XO (XO
+                                                                    (XI (XI
+                                                                    (XO (XO
+                                                                    XH)))))))
+                                                                    m_CTRL)
+                                                              then eret
+                                                                    CClearScreen
+                                                              else if 
+                                                                    is
+                                                                    (kc (Npos
+                                                                    (XO (XI
+                                                                    (XI (XI
+                                                                    (XO (XO
+                                                                    XH)))))))
+                                                                    m_CTRL)
+                                                                   then 
+                                                                    eret
+                                                                    CNextHistory
+                                                                   else 
+                                                                    if 
+                                                                    is
+                                                                    (kc (Npos
+                                                                    (XO (XO
+                                                                    (XO (XO
+                                                                    (XI (XO
+                                                                    XH)))))))
+                                                                    m_CTRL)
+                                                                    then 
+                                                                    eret
+                                                                    CPreviousHistory
+                                                                    else 
+                                                                    if 
+                                                                    is
+                                                                    (kc (Npos
+                                                                    (XO (XO
+                                                                    (XO (XI
+                                                                    (XI (XO
+                                                                    XH)))))))
+                                                                    m_CTRL)
+                                                                    then 
+                                                                    ebind
+                                                                    (custom_seq_binding
+                                                                    u cfg
+                                                                    fuel
+                                                                    (k :: []))
+                                                                    (fun r ->
+                                                                    match 
+                                                                    fst r with
+                                                                    | Some c' ->
+                                                                    eret c'
+                                                                    | None ->
+                                                                    ebind
+                                                                    (match 
+                                                                    snd r with
+                                                                    | [] ->
+                                                                    next_key
+                                                                    u cfg true
+                                                                    | _ :: l ->
+                                                                    (match l with
+                                                                    | [] ->
+                                                                    next_key
+                                                                    u cfg true
+                                                                    | k2 :: _ ->
+                                                                    eret k2))
+                                                                    (fun snd_key ->
+                                                                    if 
+                                                                    (||)
+                                                                    (key_eqb
+                                                                    snd_key
+                                                                    (kc (Npos
+                                                                    (XI (XI
+                                                                    (XI (XO
+                                                                    (XO (XO
+                                                                    XH)))))))
+                                                                    m_CTRL))
+                                                                    (key_eqb
+                                                                    snd_key
+                                                                    (KEsc,
+                                                                    m_NONE))
+                                                                    then 
+                                                                    eret
+                                                                    CAbort
+                                                                    else 
+                                                                    if 
+                                                                    key_eqb
+                                                                    snd_key
+                                                                    (kc (Npos
+                                                                    (XI (XO
+                                                                    (XI (XO
+                                                                    (XI (XO
+                                                                    XH)))))))
+                                                                    m_CTRL)
+                                                                    then 
+                                                                    eret
+                                                                    (CUndo n0)
+                                                                    else 
+                                                                    if 
+                                                                    key_eqb
+                                                                    snd_key
+                                                                    (KBackspace,
+                                                                    m_NONE)
+                                                                    then 
+                                                                    eret
+                                                                    (CKill
+                                                                    (if positive0
+                                                                    then 
+                                                                    MBeginningOfLine
+                                                                    else 
+                                                                    MEndOfLine))
+                                                                    else 
+                                                                    eret
+                                                                    CUnknown))
+                                                                    else 
+                                                                    if 
+                                                                    (&&)
+                                                                    (N.eqb c
+                                                                    (Npos (XI
+                                                                    (XO (XI
+                                                                    (XI (XI
+                                                                    (XO
+                                                                    XH))))))))
+                                                                    (is_ctrl_or_ctrl_alt
+                                                                    m0)
+                                                                    then 
+                                                                    ebind
+                                                                    (next_key
+                                                                    u cfg
+                                                                    false)
+                                                                    (fun ch ->
+                                                                    let (
+                                                                    k2, m') =
+                                                                    ch
+                                                                    in
+                                                                    (
+                                                                    match k2 with
+                                                                    | KChar x ->
+                                                                    if 
+                                                                    mods_eqb
+                                                                    m' m_NONE
+                                                                    then 
+                                                                    eret
+                                                                    (CMove
+                                                                    (MViCharSearch
+                                                                    (n0,
+                                                                    (if positive0
+                                                                    then 
+                                                                    if m0.m_alt
+                                                                    then 
+                                                                    CsBackward
+                                                                    x
+                                                                    else 
+                                                                    CsForwardBefore
+                                                                    x
+                                                                    else 
+                                                                    if m0.m_alt
+                                                                    then 
+                                                                    CsForwardBefore
+                                                                    x
+                                                                    else 
+                                                                    CsBackward
+                                                                    x))))
+                                                                    else 
+                                                                    eret
+                                                                    CUnknown
+                                                                    | _ ->
+                                                                    eret
+                                                                    CUnknown))
+                                                                    else 
+                                                                    if 
+                                                                    mods_eqb
+                                                                    m0 m_ALT
+                                                                    then 
+                                                                    if 
+                                                                    N.eqb c
+                                                                    (Npos (XO
+                                                                    (XO (XI
+                                                                    (XI (XI
+                                                                    XH))))))
+                                                                    then 
+                                                                    eret
+                                                                    CBeginningOfHistory
+                                                                    else 
+                                                                    if 
+                                                                    N.eqb c
+                                                                    (Npos (XO
+                                                                    (XI (XI
+                                                                    (XI (XI
+                                                                    XH))))))
+                                                                    then 
+                                                                    eret
+                                                                    CEndOfHistory
+                                                                    else 
+                                                                    if 
+                                                                    (||)
+                                                                    (N.eqb c
+                                                                    (Npos (XO
+                                                                    (XI (XO
+                                                                    (XO (XO
+                                                                    (XO
+                                                                    XH))))))))
+                                                                    (N.eqb c
+                                                                    (Npos (XO
+                                                                    (XI (XO
+                                                                    (XO (XO
+                                                                    (XI
+                                                                    XH))))))))
+                                                                    then 
+                                                                    eret
+                                                                    (CMove
+                                                                    (if positive0
+                                                                    then 
+                                                                    MBackwardWord
+                                                                    (n0,
+                                                                    WEmacs)
+                                                                    else 
+                                                                    MForwardWord
+                                                                    (n0,
+                                                                    AtAfterEnd,
+                                                                    WEmacs)))
+                                                                    else 
+                                                                    if 
+                                                                    (||)
+                                                                    (N.eqb c
+                                                                    (Npos (XI
+                                                                    (XI (XO
+                                                                    (XO (XO
+                                                                    (XO
+                                                                    XH))))))))
+                                                                    (N.eqb c
+                                                                    (Npos (XI
+                                                                    (XI (XO
+                                                                    (XO (XO
+                                                                    (XI
+                                                                    XH))))))))
+                                                                    then 
+                                                                    eret
+                                                                    CCapitalizeWord
+                                                                    else 
+                                                                    if 
+                                                                    (||)
+                                                                    (N.eqb c
+                                                                    (Npos (XO
+                                                                    (XO (XI
+                                                                    (XO (XO
+                                                                    (XO
+                                                                    XH))))))))
+                                                                    (N.eqb c
+                                                                    (Npos (XO
+                                                                    (XO (XI
+                                                                    (XO (XO
+                                                                    (XI
+                                                                    XH))))))))
+                                                                    then 
+                                                                    eret
+                                                                    (CKill
+                                                                    (if positive0
+                                                                    then 
+                                                                    MForwardWord
+                                                                    (n0,
+                                                                    AtAfterEnd,
+                                                                    WEmacs)
+                                                                    else 
+                                                                    MBackwardWord
+                                                                    (n0,
+                                                                    WEmacs)))
+                                                                    else 
+                                                                    if 
+                                                                    (||)
+                                                                    (N.eqb c
+                                                                    (Npos (XO
+                                                                    (XI (XI
+                                                                    (XO (XO
+                                                                    (XO
+                                                                    XH))))))))
+                                                                    (N.eqb c
+                                                                    (Npos (XO
+                                                                    (XI (XI
+                                                                    (XO (XO
+                                                                    (XI
+                                                                    XH))))))))
+                                                                    then 
+                                                                    eret
+                                                                    (CMove
+                                                                    (if positive0
+                                                                    then 
+                                                                    MForwardWord
+                                                                    (n0,
+                                                                    AtAfterEnd,
+                                                                    WEmacs)
+                                                                    else 
+                                                                    MBackwardWord
+                                                                    (n0,
+                                                                    WEmacs)))
+                                                                    else 
+                                                                    if 
+                                                                    (||)
+                                                                    (N.eqb c
+                                                                    (Npos (XO
+                                                                    (XO (XI
+                                                                    (XI (XO
+                                                                    (XO
+                                                                    XH))))))))
+                                                                    (N.eqb c
+                                                                    (Npos (XO
+                                                                    (XO (XI
+                                                                    (XI (XO
+                                                                    (XI
+                                                                    XH))))))))
+                                                                    then 
+                                                                    eret
+                                                                    CDowncaseWord
+                                                                    else 
+                                                                    if 
+                                                                    (||)
+                                                                    (N.eqb c
+                                                                    (Npos (XO
+                                                                    (XO (XI
+                                                                    (XO (XI
+                                                                    (XO
+                                                                    XH))))))))
+                                                                    (N.eqb c
+                                                                    (Npos (XO
+                                                                    (XO (XI
+                                                                    (XO (XI
+                                                                    (XI
+                                                                    XH))))))))
+                                                                    then 
+                                                                    eret
+                                                                    (CTransposeWords
+                                                                    n0)
+                                                                    else 
+                                                                    if 
+                                                                    (||)
+                                                                    (N.eqb c
+                                                                    (Npos (XI
+                                                                    (XO (XI
+                                                                    (XO (XI
+                                                                    (XO
+                                                                    XH))))))))
+                                                                    (N.eqb c
+                                                                    (Npos (XI
+                                                                    (XO (XI
+                                                                    (XO (XI
+                                                                    (XI
+                                                                    XH))))))))
+                                                                    then 
+                                                                    eret
+                                                                    CUpcaseWord
+                                                                    else 
+                                                                    if 
+                                                                    (||)
+                                                                    (N.eqb c
+                                                                    (Npos (XI
+                                                                    (XO (XO
+                                                                    (XI (XI
+                                                                    (XO
+                                                                    XH))))))))
+                                                                    (N.eqb c
+                                                                    (Npos (XI
+                                                                    (XO (XO
+                                                                    (XI (XI
+                                                                    (XI
+                                                                    XH))))))))
+                                                                    then 
+                                                                    eret
+                                                                    CYankPop
+                                                                    else 
+                                                                    common u
+                                                                    cfg fuel
+                                                                    k n0
+                                                                    positive0
+                                                                    else 
+                                                                    common u
+                                                                    cfg fuel
+                                                                    k n0
+                                                                    positive0
+               | _ ->
+                 if is (KEsc, m_NONE)
+                 then eret CAbort
+                 else if is (KBackspace, m_NONE)
+                      then eret (CKill
+                             (if positive0
+                              then MBackwardChar n0
+                              else MForwardChar n0))
+                      else if is (KBackTab, m_NONE)
+                           then eret CCompleteBackward
+                           else if is (KTab, m_NONE)
+                                then eret
+                                       (if positive0
+                                        then CComplete
+                                        else CCompleteBackward)
+                                else if is (KRight, m_NONE)
+                                     then ebind has_hint_at_end (fun h ->
+                                            if h
+                                            then eret CCompleteHint
+                                            else common u cfg fuel k n0
+                                                   positive0)
+                                     else if is (KBackspace, m_ALT)
+                                          then eret (CKill
+                                                 (if positive0
+                                                  then MBackwardWord (n0,
+                                                         WEmacs)
+                                                  else MForwardWord (n0,
+                                                         AtAfterEnd, WEmacs)))
+                                          else if (||) (is (KLeft, m_ALT))
+                                                    (is (KLeft, m_CTRL))
+                                               then eret (CMove
+                                                      (if positive0
+                                                       then MBackwardWord
+                                                              (n0, WEmacs)
+                                                       else MForwardWord (n0,
+                                                              AtAfterEnd,
+                                                              WEmacs)))
+                                               else if (||)
+                                                         (is (KRight, m_ALT))
+                                                         (is (KRight, m_CTRL))
+                                                    then eret (CMove
+                                                           (if positive0
+                                                            then MForwardWord
+                                                                   (n0,
+                                                                   AtAfterEnd,
+                                                                   WEmacs)
+                                                            else MBackwardWord
+                                                                   (n0,
+                                                                   WEmacs)))
+                                                    else common u cfg fuel k
+                                                           n0 positive0)))))
+
+(** val vi_char_search : uData -> config -> n -> char_search option e **)
+
+let vi_char_search u cfg c =
+  ebind (next_key u cfg false) (fun ch ->
+    let (k, m0) = ch in
+    (match k with
+     | KChar x ->
+       if mods_eqb m0 m_NONE
+       then let cs =
+              if N.eqb c (Npos (XO (XI (XI (XO (XO (XI XH)))))))
+              then CsForward x
+              else if N.eqb c (Npos (XO (XO (XI (XO (XI (XI XH)))))))
+                   then CsForwardBefore x
+                   else if N.eqb c (Npos (XO (XI (XI (XO (XO (XO XH)))))))
+                        then CsBackward x
+                        else CsBackwardAfter x
+            in
+            ebind (set_last_cs (Some cs)) (fun _ -> eret (Some cs))
+       else eret None
+     | _ -> eret None))
+
+(** val is_fFtT : n -> bool **)
+
+let is_fFtT c =
+  (||)
+    ((||)
+      ((||) (N.eqb c (Npos (XO (XI (XI (XO (XO (XI XH))))))))
+        (N.eqb c (Npos (XO (XI (XI (XO (XO (XO XH)))))))))
+      (N.eqb c (Npos (XO (XO (XI (XO (XI (XI XH)))))))))
+    (N.eqb c (Npos (XO (XO (XI (XO (XI (XO XH))))))))
+
+(** val sat_mul_u16 : nat -> nat -> nat **)
+
+let sat_mul_u16 a b =
+  Nat.min
+    (N.to_nat (Npos (XI (XI (XI (XI (XI (XI (XI (XI (XI (XI (XI (XI (XI (XI
+      (XI XH))))))))))))))))) (mul a b)
+
+(** val vi_cmd_motion :
+    uData -> config -> nat -> key -> nat -> movement option e **)
+
+let vi_cmd_motion u cfg fuel k n0 =
+  ebind (next_key u cfg false) (fun mvt0 ->
+    if key_eqb mvt0 k
+    then eret (Some MWholeLine)
+    else ebind
+           (let (k0, m0) = mvt0 in
+            (match k0 with
+             | KChar c ->
+               if (&&) (mods_eqb m0 m_NONE)
+                    ((&&) (N.leb (Npos (XI (XO (XO (XO (XI XH)))))) c)
+                      (N.leb c (Npos (XI (XO (XO (XI (XI XH))))))))
+               then ebind (vi_arg_digit u cfg fuel c) (fun mvt' ->
+                      ebind vi_num_args (fun a ->
+                        eret (mvt', (sat_mul_u16 a n0))))
+               else eret (mvt0, n0)
+             | _ -> eret (mvt0, n0))) (fun mn ->
+           let (mvt, n1) = mn in
+           let is_c =
+             key_eqb k (kc (Npos (XI (XI (XO (XO (XO (XI XH))))))) m_NONE)
+           in
+           let (k0, m0) = mvt in
+           (match k0 with
+            | KChar c ->
+              if mods_eqb m0 m_NONE
+              then if N.eqb c (Npos (XO (XO (XI (XO (XO XH))))))
+                   then eret (Some MEndOfLine)
+                   else if N.eqb c (Npos (XO (XO (XO (XO (XI XH))))))
+                        then eret (Some MBeginningOfLine)
+                        else if N.eqb c (Npos (XO (XI (XI (XI (XI (XO
+                                  XH)))))))
+                             then eret (Some MViFirstPrint)
+                             else if N.eqb c (Npos (XO (XI (XO (XO (XO (XI
+                                       XH)))))))
+                                  then eret (Some (MBackwardWord (n1, WVi)))
+                                  else if N.eqb c (Npos (XO (XI (XO (XO (XO
+                                            (XO XH)))))))
+                                       then eret (Some (MBackwardWord (n1,
+                                              WBig)))
+                                       else if N.eqb c (Npos (XI (XO (XI (XO
+                                                 (XO (XI XH)))))))
+                                            then eret (Some (MForwardWord
+                                                   (n1, AtAfterEnd, WVi)))
+                                            else if N.eqb c (Npos (XI (XO (XI
+                                                      (XO (XO (XO XH)))))))
+                                                 then eret (Some
+                                                        (MForwardWord (n1,
+                                                        AtAfterEnd, WBig)))
+                                                 else if is_fFtT c
+                                                      then ebind
+                                                             (vi_char_search
+                                                               u cfg c)
+                                                             (fun cs ->
+                                                             eret
+                                                               (match cs with
+                                                                | Some x ->
+                                                                  Some
+                                                                    (MViCharSearch
+                                                                    (n1, x))
+                                                                | None -> None))
+                                                      else if N.eqb c (Npos
+                                                                (XI (XI (XO
+                                                                (XI (XI
+                                                                XH))))))
+                                                           then ebind eget
+                                                                  (fun s ->
+                                                                  eret
+                                                                    (
+                                                                    match s.i_last_cs with
+                                                                    | Some x ->
+                                                                    Some
+                                                                    (MViCharSearch
+                                                                    (n1, x))
+                                                                    | None ->
+                                                                    None))
+                                                           else if N.eqb c
+                                                                    (Npos (XO
+                                                                    (XO (XI
+                                                                    (XI (XO
+                                                                    XH))))))
+                                                                then 
+                                                                  ebind eget
+                                                                    (fun s ->
+                                                                    eret
+                                                                    (match s.i_last_cs with
+                                                                    | Some x ->
+                                                                    Some
+                                                                    (MViCharSearch
+                                                                    (n1,
+                                                                    (cs_opposite
+                                                                    x)))
+                                                                    | None ->
+                                                                    None))
+                                                                else 
+                                                                  if 
+                                                                    N.eqb c
+                                                                    (Npos (XO
+                                                                    (XO (XO
+                                                                    (XI (XO
+                                                                    (XI
+                                                                    XH)))))))
+                                                                  then 
+                                                                    eret
+                                                                    (Some
+                                                                    (MBackwardChar
+                                                                    n1))
+                                                                  else 
+                                                                    if 
+                                                                    (||)
+                                                                    (N.eqb c
+                                                                    (Npos (XO
+                                                                    (XO (XI
+                                                                    (XI (XO
+                                                                    (XI
+                                                                    XH))))))))
+                                                                    (N.eqb c
+                                                                    (Npos (XO
+                                                                    (XO (XO
+                                                                    (XO (XO
+                                                                    XH)))))))
+                                                                    then 
+                                                                    eret
+                                                                    (Some
+                                                                    (MForwardChar
+                                                                    n1))
+                                                                    else 
+                                                                    if 
+                                                                    (||)
+                                                                    (N.eqb c
+                                                                    (Npos (XO
+                                                                    (XI (XO
+                                                                    (XI (XO
+                                                                    (XI
+                                                                    XH))))))))
+                                                                    (N.eqb c
+                                                                    (Npos (XI
+                                                                    (XI (XO
+                                                                    (XI (XO
+                                                                    XH)))))))
+                                                                    then 
+                                                                    eret
+                                                                    (Some
+                                                                    (MLineDown
+                                                                    n1))
+                                                                    else 
+                                                                    if 
+                                                                    (||)
+                                                                    (N.eqb c
+                                                                    (Npos (XI
+                                                                    (XI (XO
+                                                                    (XI (XO
+                                                                    (XI
+                                                                    XH))))))))
+                                                                    (N.eqb c
+                                                                    (Npos (XI
+                                                                    (XO (XI
+                                                                    (XI (XO
+                                                                    XH)))))))
+                                                                    then 
+                                                                    eret
+                                                                    (Some
+                                                                    (MLineUp
+                                                                    n1))
+                                                                    else 
+                                                                    if 
+                                                                    N.eqb c
+                                                                    (Npos (XI
+                                                                    (XI (XI
+                                                                    (XO (XI
+                                                                    (XI
+                                                                    XH)))))))
+                                                                    then 
+                                                                    eret
+                                                                    (Some
+                                                                    (if is_c
+                                                                    then 
+                                                                    MForwardWord
+                                                                    (n1,
+                                                                    AtAfterEnd,
+                                                                    WVi)
+                                                                    else 
+                                                                    MForwardWord
+                                                                    (n1,
+                                                                    AtStart,
+                                                                    WVi)))
+                                                                    else 
+                                                                    if 
+                                                                    N.eqb c
+                                                                    (Npos (XI
+                                                                    (XI (XI
+                                                                    (XO (XI
+                                                                    (XO
+                                                                    XH)))))))
+                                                                    then 
+                                                                    eret
+                                                                    (Some
+                                                                    (if is_c
+                                                                    then 
+                                                                    MForwardWord
+                                                                    (n1,
+                                                                    AtAfterEnd,
+                                                                    WBig)
+                                                                    else 
+                                                                    MForwardWord
+                                                                    (n1,
+                                                                    AtStart,
+                                                                    WBig)))
+                                                                    else 
+                                                                    eret None
+              else if key_eqb mvt
+                        (kc (Npos (XO (XO (XO (XI (XO (XO XH))))))) m_CTRL)
+                   then eret (Some (MBackwardChar n1))
+                   else eret None
+            | _ ->
+              if key_eqb mvt (KBackspace, m_NONE)
+              then eret (Some (MBackwardChar n1))
+              else eret None)))
+
+(** val doing_insert : unit e **)
+
+let doing_insert =
+  ebind changes_begin (fun _ -> eret ())
+
+(** val done_inserting : unit e **)
+
+let done_inserting =
+  ebind changes_end (fun _ -> eret ())
+
+(** val vi_command : uData -> config -> nat -> key -> cmd e **)
+
+let vi_command u cfg fuel k0 =
+  ebind
+    (let (k, m0) = k0 in
+     (match k with
+      | KChar c ->
+        if (&&) (mods_eqb m0 m_NONE)
+             ((&&) (N.leb (Npos (XI (XO (XO (XO (XI XH)))))) c)
+               (N.leb c (Npos (XI (XO (XO (XI (XI XH))))))))
+        then vi_arg_digit u cfg fuel c
+        else eret k0
+      | _ -> eret k0)) (fun k ->
+    ebind eget (fun s0 ->
+      let no_num_args = Z.eqb s0.i_num_args Z0 in
+      ebind vi_num_args (fun n0 ->
+        ebind (custom_binding cfg k n0 true) (fun cb ->
+          match cb with
+          | Some c ->
+            if is_repeatable c
+            then cmd_redo c (if no_num_args then None else Some n0)
+            else eret c
+          | None ->
+            ebind (term_binding cfg k) (fun tb ->
+              match tb with
+              | Some c -> eret c
+              | None ->
+                let is = fun k' -> key_eqb k k' in
+                ebind
+                  (let (k1, m0) = k in
+                   (match k1 with
+                    | KChar c ->
+                      if mods_eqb m0 m_NONE
+                      then if N.eqb c (Npos (XO (XO (XI (XO (XO XH))))))
+                           then eret (CMove MEndOfLine)
+                           else if N.eqb c (Npos (XO (XI (XI (XI (XO XH))))))
+                                then ebind eget (fun s ->
+                                       if negb (is_repeatable s.i_last_cmd)
+                                       then eret CNoop
+                                       else cmd_redo s.i_last_cmd
+                                              (if no_num_args
+                                               then None
+                                               else Some n0))
+                                else if N.eqb c (Npos (XO (XO (XO (XO (XI
+                                          XH))))))
+                                     then eret (CMove MBeginningOfLine)
+                                     else if N.eqb c (Npos (XO (XI (XI (XI
+                                               (XI (XO XH)))))))
+                                          then eret (CMove MViFirstPrint)
+                                          else if N.eqb c (Npos (XI (XO (XO
+                                                    (XO (XO (XI XH)))))))
+                                               then ebind
+                                                      (set_input_mode
+                                                        IMInsert) (fun _ ->
+                                                      ebind doing_insert
+                                                        (fun _ ->
+                                                        eret (CMove
+                                                          (MForwardChar n0))))
+                                               else if N.eqb c (Npos (XI (XO
+                                                         (XO (XO (XO (XO
+                                                         XH)))))))
+                                                    then ebind
+                                                           (set_input_mode
+                                                             IMInsert)
+                                                           (fun _ ->
+                                                           ebind doing_insert
+                                                             (fun _ ->
+                                                             eret (CMove
+                                                               MEndOfLine)))
+                                                    else if N.eqb c (Npos (XO
+                                                              (XI (XO (XO (XO
+                                                              (XI XH)))))))
+                                                         then eret (CMove
+                                                                (MBackwardWord
+                                                                (n0, WVi)))
+                                                         else if N.eqb c
+                                                                   (Npos (XO
+                                                                   (XI (XO
+                                                                   (XO (XO
+                                                                   (XO
+                                                                   XH)))))))
+                                                              then eret
+                                                                    (CMove
+                                                                    (MBackwardWord
+                                                                    (n0,
+                                                                    WBig)))
+                                                              else if 
+                                                                    N.eqb c
+                                                                    (Npos (XI
+                                                                    (XI (XO
+                                                                    (XO (XO
+                                                                    (XI
+                                                                    XH)))))))
+                                                                   then 
+                                                                    ebind
+                                                                    (set_input_mode
+                                                                    IMInsert)
+                                                                    (fun _ ->
+                                                                    ebind
+                                                                    (vi_cmd_motion
+                                                                    u cfg
+                                                                    fuel k n0)
+                                                                    (fun m' ->
+                                                                    eret
+                                                                    (match m' with
+                                                                    | Some mv ->
+                                                                    CReplace
+                                                                    (mv, None)
+                                                                    | None ->
+                                                                    CUnknown)))
+                                                                   else 
+                                                                    if 
+                                                                    N.eqb c
+                                                                    (Npos (XI
+                                                                    (XI (XO
+                                                                    (XO (XO
+                                                                    (XO
+                                                                    XH)))))))
+                                                                    then 
+                                                                    ebind
+                                                                    (set_input_mode
+                                                                    IMInsert)
+                                                                    (fun _ ->
+                                                                    eret
+                                                                    (CReplace
+                                                                    (MEndOfLine,
+                                                                    None)))
+                                                                    else 
+                                                                    if 
+                                                                    N.eqb c
+                                                                    (Npos (XO
+                                                                    (XO (XI
+                                                                    (XO (XO
+                                                                    (XI
+                                                                    XH)))))))
+                                                                    then 
+                                                                    ebind
+                                                                    (vi_cmd_motion
+                                                                    u cfg
+                                                                    fuel k n0)
+                                                                    (fun m' ->
+                                                                    eret
+                                                                    (match m' with
+                                                                    | Some mv ->
+                                                                    CKill mv
+                                                                    | None ->
+                                                                    CUnknown))
+                                                                    else 
+                                                                    if 
+                                                                    N.eqb c
+                                                                    (Npos (XO
+                                                                    (XO (XI
+                                                                    (XO (XO
+                                                                    (XO
+                                                                    XH)))))))
+                                                                    then 
+                                                                    eret
+                                                                    (CKill
+                                                                    MEndOfLine)
+                                                                    else 
+                                                                    if 
+                                                                    N.eqb c
+                                                                    (Npos (XI
+                                                                    (XO (XI
+                                                                    (XO (XO
+                                                                    (XI
+                                                                    XH)))))))
+                                                                    then 
+                                                                    eret
+                                                                    (CMove
+                                                                    (MForwardWord
+                                                                    (n0,
+                                                                    AtBeforeEnd,
+                                                                    WVi)))
+                                                                    else 
+                                                                    if 
+                                                                    N.eqb c
+                                                                    (Npos (XI
+                                                                    (XO (XI
+                                                                    (XO (XO
+                                                                    (XO
+                                                                    XH)))))))
+                                                                    then 
+                                                                    eret
+                                                                    (CMove
+                                                                    (MForwardWord
+                                                                    (n0,
+                                                                    AtBeforeEnd,
+                                                                    WBig)))
+                                                                    else 
+                                                                    if 
+                                                                    N.eqb c
+                                                                    (Npos (XI
+                                                                    (XO (XO
+                                                                    (XI (XO
+                                                                    (XI
+                                                                    XH)))))))
+                                                                    then 
+                                                                    ebind
+                                                                    (set_input_mode
+                                                                    IMInsert)
+                                                                    (fun _ ->
+                                                                    ebind
+                                                                    doing_insert
+                                                                    (fun _ ->
+                                                                    eret CNoop))
+                                                                    else 
+                                                                    if 
+                                                                    N.eqb c
+                                                                    (Npos (XI
+                                                                    (XO (XO
+                                                                    (XI (XO
+                                                                    (XO
+                                                                    XH)))))))
+                                                                    then 
+                                                                    ebind
+                                                                    (set_input_mode
+                                                                    IMInsert)
+                                                                    (fun _ ->
+                                                                    ebind
+                                                                    doing_insert
+                                                                    (fun _ ->
+                                                                    eret
+                                                                    (CMove
+                                                                    MBeginningOfLine)))
+                                                                    else 
+                                                                    if 
+                                                                    is_fFtT c
+                                                                    then 
+                                                                    ebind
+                                                                    (vi_char_search
+                                                                    u cfg c)
+                                                                    (fun cs ->
+                                                                    eret
+                                                                    (match cs with
+                                                                    | Some x ->
+                                                                    CMove
+                                                                    (MViCharSearch
+                                                                    (n0, x))
+                                                                    | None ->
+                                                                    CUnknown))
+                                                                    else 
+                                                                    if 
+                                                                    N.eqb c
+                                                                    (Npos (XI
+                                                                    (XI (XO
+                                                                    (XI (XI
+                                                                    XH))))))
+                                                                    then 
+                                                                    ebind
+                                                                    eget
+                                                                    (fun s ->
+                                                                    eret
+                                                                    (match s.i_last_cs with
+                                                                    | Some x ->
+                                                                    CMove
+                                                                    (MViCharSearch
+                                                                    (n0, x))
+                                                                    | None ->
+                                                                    CNoop))
+                                                                    else 
+                                                                    if 
+                                                                    N.eqb c
+                                                                    (Npos (XO
+                                                                    (XO (XI
+                                                                    (XI (XO
+                                                                    XH))))))
+                                                                    then 
+                                                                    ebind
+                                                                    eget
+                                                                    (fun s ->
+                                                                    eret
+                                                                    (match s.i_last_cs with
+                                                                    | Some x ->
+                                                                    CMove
+                                                                    (MViCharSearch
+                                                                    (n0,
+                                                                    (cs_opposite
+                                                                    x)))
+                                                                    | None ->
+                                                                    CNoop))
+                                                                    else 
+                                                                    if 
+                                                                    N.eqb c
+                                                                    (Npos (XO
+                                                                    (XO (XO
+                                                                    (XO (XI
+                                                                    (XI
+                                                                    XH)))))))
+                                                                    then 
+                                                                    eret
+                                                                    (CYank
+                                                                    (n0,
+                                                                    AAfter))
+                                                                    else 
+                                                                    if 
+                                                                    N.eqb c
+                                                                    (Npos (XO
+                                                                    (XO (XO
+                                                                    (XO (XI
+                                                                    (XO
+                                                                    XH)))))))
+                                                                    then 
+                                                                    eret
+                                                                    (CYank
+                                                                    (n0,
+                                                                    ABefore))
+                                                                    else 
+                                                                    if 
+                                                                    N.eqb c
+                                                                    (Npos (XO
+                                                                    (XI (XO
+                                                                    (XO (XI
+                                                                    (XI
+                                                                    XH)))))))
+                                                                    then 
+                                                                    ebind
+                                                                    (next_key
+                                                                    u cfg
+                                                                    false)
+                                                                    (fun ch ->
+                                                                    let (
+                                                                    k2, m') =
+                                                                    ch
+                                                                    in
+                                                                    (
+                                                                    match k2 with
+                                                                    | KChar x ->
+                                                                    if 
+                                                                    mods_eqb
+                                                                    m' m_NONE
+                                                                    then 
+                                                                    eret
+                                                                    (CReplaceChar
+                                                                    (n0, x))
+                                                                    else 
+                                                                    eret
+                                                                    CUnknown
+                                                                    | _ ->
+                                                                    if 
+                                                                    key_eqb
+                                                                    ch (KEsc,
+                                                                    m_NONE)
+                                                                    then 
+                                                                    eret CNoop
+                                                                    else 
+                                                                    eret
+                                                                    CUnknown))
+                                                                    else 
+                                                                    if 
+                                                                    N.eqb c
+                                                                    (Npos (XO
+                                                                    (XI (XO
+                                                                    (XO (XI
+                                                                    (XO
+                                                                    XH)))))))
+                                                                    then 
+                                                                    ebind
+                                                                    (set_input_mode
+                                                                    IMReplace)
+                                                                    (fun _ ->
+                                                                    eret
+                                                                    (CReplace
+                                                                    ((MForwardChar
+                                                                    O), None)))
+                                                                    else 
+                                                                    if 
+                                                                    N.eqb c
+                                                                    (Npos (XI
+                                                                    (XI (XO
+                                                                    (XO (XI
+                                                                    (XI
+                                                                    XH)))))))
+                                                                    then 
+                                                                    ebind
+                                                                    (set_input_mode
+                                                                    IMInsert)
+                                                                    (fun _ ->
+                                                                    eret
+                                                                    (CReplace
+                                                                    ((MForwardChar
+                                                                    n0),
+                                                                    None)))
+                                                                    else 
+                                                                    if 
+                                                                    N.eqb c
+                                                                    (Npos (XI
+                                                                    (XI (XO
+                                                                    (XO (XI
+                                                                    (XO
+                                                                    XH)))))))
+                                                                    then 
+                                                                    ebind
+                                                                    (set_input_mode
+                                                                    IMInsert)
+                                                                    (fun _ ->
+                                                                    eret
+                                                                    (CReplace
+                                                                    (MWholeLine,
+                                                                    None)))
+                                                                    else 
+                                                                    if 
+                                                                    N.eqb c
+                                                                    (Npos (XI
+                                                                    (XO (XI
+                                                                    (XO (XI
+                                                                    (XI
+                                                                    XH)))))))
+                                                                    then 
+                                                                    eret
+                                                                    (CUndo n0)
+                                                                    else 
+                                                                    if 
+                                                                    N.eqb c
+                                                                    (Npos (XI
+                                                                    (XI (XI
+                                                                    (XO (XI
+                                                                    (XI
+                                                                    XH)))))))
+                                                                    then 
+                                                                    eret
+                                                                    (CMove
+                                                                    (MForwardWord
+                                                                    (n0,
+                                                                    AtStart,
+                                                                    WVi)))
+                                                                    else 
+                                                                    if 
+                                                                    N.eqb c
+                                                                    (Npos (XI
+                                                                    (XI (XI
+                                                                    (XO (XI
+                                                                    (XO
+                                                                    XH)))))))
+                                                                    then 
+                                                                    eret
+                                                                    (CMove
+                                                                    (MForwardWord
+                                                                    (n0,
+                                                                    AtStart,
+                                                                    WBig)))
+                                                                    else 
+                                                                    if 
+                                                                    N.eqb c
+                                                                    (Npos (XO
+                                                                    (XO (XO
+                                                                    (XI (XI
+                                                                    (XI
+                                                                    XH)))))))
+                                                                    then 
+                                                                    eret
+                                                                    (CKill
+                                                                    (MForwardChar
+                                                                    n0))
+                                                                    else 
+                                                                    if 
+                                                                    N.eqb c
+                                                                    (Npos (XO
+                                                                    (XO (XO
+                                                                    (XI (XI
+                                                                    (XO
+                                                                    XH)))))))
+                                                                    then 
+                                                                    eret
+                                                                    (CKill
+                                                                    (MBackwardChar
+                                                                    n0))
+                                                                    else 
+                                                                    if 
+                                                                    N.eqb c
+                                                                    (Npos (XI
+                                                                    (XO (XO
+                                                                    (XI (XI
+                                                                    (XI
+                                                                    XH)))))))
+                                                                    then 
+                                                                    ebind
+                                                                    (vi_cmd_motion
+                                                                    u cfg
+                                                                    fuel k n0)
+                                                                    (fun m' ->
+                                                                    eret
+                                                                    (match m' with
+                                                                    | Some mv ->
+                                                                    CViYankTo
+                                                                    mv
+                                                                    | None ->
+                                                                    CUnknown))
+                                                                    else 
+                                                                    if 
+                                                                    N.eqb c
+                                                                    (Npos (XO
+                                                                    (XO (XO
+                                                                    (XI (XO
+                                                                    (XI
+                                                                    XH)))))))
+                                                                    then 
+                                                                    eret
+                                                                    (CMove
+                                                                    (MBackwardChar
+                                                                    n0))
+                                                                    else 
+                                                                    if 
+                                                                    (||)
+                                                                    (N.eqb c
+                                                                    (Npos (XO
+                                                                    (XO (XI
+                                                                    (XI (XO
+                                                                    (XI
+                                                                    XH))))))))
+                                                                    (N.eqb c
+                                                                    (Npos (XO
+                                                                    (XO (XO
+                                                                    (XO (XO
+                                                                    XH)))))))
+                                                                    then 
+                                                                    eret
+                                                                    (CMove
+                                                                    (MForwardChar
+                                                                    n0))
+                                                                    else 
+                                                                    if 
+                                                                    (||)
+                                                                    (N.eqb c
+                                                                    (Npos (XI
+                                                                    (XI (XO
+                                                                    (XI (XO
+                                                                    XH)))))))
+                                                                    (N.eqb c
+                                                                    (Npos (XO
+                                                                    (XI (XO
+                                                                    (XI (XO
+                                                                    (XI
+                                                                    XH))))))))
+                                                                    then 
+                                                                    eret
+                                                                    (CLineDownOrNextHistory
+                                                                    n0)
+                                                                    else 
+                                                                    if 
+                                                                    (||)
+                                                                    (N.eqb c
+                                                                    (Npos (XI
+                                                                    (XO (XI
+                                                                    (XI (XO
+                                                                    XH)))))))
+                                                                    (N.eqb c
+                                                                    (Npos (XI
+                                                                    (XI (XO
+                                                                    (XI (XO
+                                                                    (XI
+                                                                    XH))))))))
+                                                                    then 
+                                                                    eret
+                                                                    (CLineUpOrPreviousHistory
+                                                                    n0)
+                                                                    else 
+                                                                    if 
+                                                                    N.eqb c
+                                                                    (Npos (XO
+                                                                    (XO (XI
+                                                                    (XI (XI
+                                                                    XH))))))
+                                                                    then 
+                                                                    ebind
+                                                                    (vi_cmd_motion
+                                                                    u cfg
+                                                                    fuel k n0)
+                                                                    (fun m' ->
+                                                                    eret
+                                                                    (match m' with
+                                                                    | Some mv ->
+                                                                    CDedent mv
+                                                                    | None ->
+                                                                    CUnknown))
+                                                                    else 
+                                                                    if 
+                                                                    N.eqb c
+                                                                    (Npos (XO
+                                                                    (XI (XI
+                                                                    (XI (XI
+                                                                    XH))))))
+                                                                    then 
+                                                                    ebind
+                                                                    (vi_cmd_motion
+                                                                    u cfg
+                                                                    fuel k n0)
+                                                                    (fun m' ->
+                                                                    eret
+                                                                    (match m' with
+                                                                    | Some mv ->
+                                                                    CIndent mv
+                                                                    | None ->
+                                                                    CUnknown))
+                                                                    else 
+                                                                    common u
+                                                                    cfg fuel
+                                                                    k n0 true
+                      else if is
+                                (kc (Npos (XI (XI (XO (XI (XO (XO XH)))))))
+                                  m_CTRL)
+                           then eret (CKill MEndOfLine)
+                           else if is
+                                     (kc (Npos (XO (XO (XO (XI (XO (XO
+                                       XH))))))) m_CTRL)
+                                then eret (CMove (MBackwardChar n0))
+                                else if is
+                                          (kc (Npos (XI (XI (XI (XO (XO (XO
+                                            XH))))))) m_CTRL)
+                                     then eret CAbort
+                                     else if is
+                                               (kc (Npos (XO (XO (XI (XI (XO
+                                                 (XO XH))))))) m_CTRL)
+                                          then eret CClearScreen
+                                          else if is
+                                                    (kc (Npos (XO (XI (XI (XI
+                                                      (XO (XO XH)))))))
+                                                      m_CTRL)
+                                               then eret CNextHistory
+                                               else if is
+                                                         (kc (Npos (XO (XO
+                                                           (XO (XO (XI (XO
+                                                           XH))))))) m_CTRL)
+                                                    then eret CPreviousHistory
+                                                    else if is
+                                                              (kc (Npos (XO
+                                                                (XI (XO (XO
+                                                                (XI (XO
+                                                                XH)))))))
+                                                                m_CTRL)
+                                                         then ebind
+                                                                (set_input_mode
+                                                                  IMInsert)
+                                                                (fun _ ->
+                                                                eret
+                                                                  CReverseSearchHistory)
+                                                         else if is
+                                                                   (kc (Npos
+                                                                    (XI (XI
+                                                                    (XO (XO
+                                                                    (XI (XO
+                                                                    XH)))))))
+                                                                    m_CTRL)
+                                                              then ebind
+                                                                    (set_input_mode
+                                                                    IMInsert)
+                                                                    (fun _ ->
+                                                                    eret
+                                                                    CForwardSearchHistory)
+                                                              else common u
+                                                                    cfg fuel
+                                                                    k n0 true
+                    | _ ->
+                      if is (KEnd, m_NONE)
+                      then eret (CMove MEndOfLine)
+                      else if is (KBackspace, m_NONE)
+                           then eret (CMove (MBackwardChar n0))
+                           else if is (KEsc, m_NONE)
+                                then eret CNoop
+                                else common u cfg fuel k n0 true)) (fun c ->
+                  ebind
+                    (if is_repeatable_change c
+                     then set_last_cmd c
+                     else eret ()) (fun _ -> eret c)))))))
+
+(** val vi_insert : uData -> config -> nat -> key -> cmd e **)
+
+let vi_insert u cfg fuel k =
+  ebind (custom_binding cfg k O true) (fun cb ->
+    match cb with
+    | Some c -> if is_repeatable c then cmd_redo c None else eret c
+    | None ->
+      ebind (term_binding cfg k) (fun tb ->
+        match tb with
+        | Some c -> eret c
+        | None ->
+          let is = fun k' -> key_eqb k k' in
+          ebind
+            (let (k0, m0) = k in
+             (match k0 with
+              | KChar c ->
+                if mods_eqb m0 m_NONE
+                then ebind eget (fun s ->
+                       eret
+                         (match s.i_input_mode with
+                          | IMReplace -> COverwrite c
+                          | _ -> CSelfInsert ((S O), c)))
+                else if is (kc (Npos (XO (XO (XO (XI (XO (XO XH))))))) m_CTRL)
+                     then eret (CKill (MBackwardChar (S O)))
+                     else if is
+                               (kc (Npos (XI (XO (XO (XI (XO (XO XH)))))))
+                                 m_CTRL)
+                          then eret CComplete
+                          else if mods_eqb m0 m_ALT
+                               then ebind (set_input_mode IMCommand)
+                                      (fun _ ->
+                                      ebind done_inserting (fun _ ->
+                                        vi_command u cfg fuel ((KChar c),
+                                          m_NONE)))
+                               else common u cfg fuel k (S O) true
+              | _ ->
+                if is (KBackspace, m_NONE)
+                then eret (CKill (MBackwardChar (S O)))
+                else if is (KBackTab, m_NONE)
+                     then eret CCompleteBackward
+                     else if is (KTab, m_NONE)
+                          then eret CComplete
+                          else if is (KRight, m_NONE)
+                               then ebind has_hint_at_end (fun h ->
+                                      if h
+                                      then eret CCompleteHint
+                                      else common u cfg fuel k (S O) true)
+                               else if is (KEsc, m_NONE)
+                                    then ebind (set_input_mode IMCommand)
+                                           (fun _ ->
+                                           ebind done_inserting (fun _ ->
+                                             eret (CMove (MBackwardChar (S
+                                               O)))))
+                                    else common u cfg fuel k (S O) true))
+            (fun c ->
+            ebind eget (fun s ->
+              ebind
+                (if is_repeatable_change c
+                 then (match s.i_last_cmd with
+                       | CReplace (_, _) ->
+                         (match c with
+                          | CSelfInsert (_, _) -> eret ()
+                          | _ -> set_last_cmd c)
+                       | CSelfInsert (_, _) ->
+                         (match c with
+                          | CSelfInsert (_, _) -> eret ()
+                          | _ -> set_last_cmd c)
+                       | _ -> set_last_cmd c)
+                 else eret ()) (fun _ -> eret c)))))
+
+(** val next_cmd : uData -> config -> nat -> bool -> cmd e **)
+
+let next_cmd u cfg fuel single_esc_abort =
+  ebind (next_key u cfg ((&&) single_esc_abort (is_emacs0 cfg))) (fun k ->
+    ebind eget (fun s ->
+      ebind
+        (if is_emacs0 cfg
+         then emacs u cfg fuel k
+         else (match s.i_input_mode with
+               | IMCommand -> vi_command u cfg fuel k
+               | _ -> vi_insert u cfg fuel k)) (fun c ->
+        ebind
+          (match c with
+           | CReplace (_, _) -> ebind changes_begin (fun _ -> eret ())
+           | _ -> eret ()) (fun _ -> eret c))))
+
+type status =
+| Proceed
+| Submit
+
+(** val complete_hint_line : uData -> config -> unit e **)
+
+let complete_hint_line u cfg =
+  ebind eget (fun s ->
+    match s.e_hint with
+    | Some text ->
+      ebind (lb_quiet move_end) (fun _ ->
+        ebind (lb_changes u (yank text (S O))) (fun r ->
+          ebind (match r with
+                 | Some _ -> eret ()
+                 | None -> beep) (fun _ -> refresh_line u cfg)))
+    | None -> eret ())
+
+(** val is_default_prompt : est -> bool **)
+
+let is_default_prompt s =
+  s.e_layout.l_default_prompt
+
+(** val starts_with_ws : uData -> str -> bool **)
+
+let starts_with_ws u = function
+| [] -> false
+| c :: _ -> u.u_is_whitespace c
+
+(** val execute : uData -> config -> cmd -> status e **)
+
+let execute u cfg c =
+  ebind eget (fun s0 ->
+    ebind
+      (match c with
+       | CAcceptLine ->
+         if (||) (match s0.e_hint with
+                  | Some _ -> true
+                  | None -> false) (negb (is_default_prompt s0))
+         then refresh_line_with_msg u cfg None
+         else eret ()
+       | CEndOfFile ->
+         if (||) (match s0.e_hint with
+                  | Some _ -> true
+                  | None -> false) (negb (is_default_prompt s0))
+         then refresh_line_with_msg u cfg None
+         else eret ()
+       | CNewline ->
+         if (||) (match s0.e_hint with
+                  | Some _ -> true
+                  | None -> false) (negb (is_default_prompt s0))
+         then refresh_line_with_msg u cfg None
+         else eret ()
+       | CAcceptOrInsertLine _ ->
+         if (||) (match s0.e_hint with
+                  | Some _ -> true
+                  | None -> false) (negb (is_default_prompt s0))
+         then refresh_line_with_msg u cfg None
+         else eret ()
+       | _ -> eret ()) (fun _ ->
+      match c with
+      | CAcceptLine ->
+        ebind (validate u cfg) (fun vr ->
+          ebind eget (fun s ->
+            let valid = match vr with
+                        | VRValid _ -> true
+                        | _ -> false in
+            let e0 = is_end_of_input u s.e_line in
+            (match c with
+             | CAcceptLine -> eret Submit
+             | CAcceptOrInsertLine aim ->
+               if (&&) valid ((||) e0 aim)
+               then eret Submit
+               else ebind
+                      (if (||) valid
+                            (negb
+                              (match vr with
+                               | VRValid msg ->
+                                 (match msg with
+                                  | Some _ -> true
+                                  | None -> false)
+                               | VRInvalid msg ->
+                                 (match msg with
+                                  | Some _ -> true
+                                  | None -> false)
+                               | _ -> false))
+                       then edit_insert u cfg (Npos (XO (XI (XO XH)))) (S O)
+                       else eret ()) (fun _ -> eret Proceed)
+             | _ -> eret Proceed)))
+      | CBeginningOfHistory ->
+        ebind (edit_history u cfg true) (fun _ -> eret Proceed)
+      | CCapitalizeWord ->
+        ebind (grouped u cfg (edit_word u (seg u) Capitalize)) (fun _ ->
+          eret Proceed)
+      | CClearScreen ->
+        ebind
+          (write ((Npos (XI (XI (XO (XI XH))))) :: ((Npos (XI (XI (XO (XI (XI
+            (XO XH))))))) :: ((Npos (XO (XO (XO (XI (XO (XO
+            XH))))))) :: ((Npos (XI (XI (XO (XI XH))))) :: ((Npos (XI (XI (XO
+            (XI (XI (XO XH))))))) :: ((Npos (XO (XI (XO (XI (XO (XO
+            XH))))))) :: []))))))) (fun _ ->
+          ebind eget (fun s ->
+            ebind
+              (set_layout { l_prompt_size = s.e_layout.l_prompt_size;
+                l_default_prompt = s.e_layout.l_default_prompt; l_cursor =
+                p0; l_end = p0 }) (fun _ ->
+              ebind (refresh_line u cfg) (fun _ -> eret Proceed))))
+      | CCompleteHint ->
+        ebind (complete_hint_line u cfg) (fun _ -> eret Proceed)
+      | CDedent m0 ->
+        ebind (lb_changes u (indent u (seg u) m0 cfg.c_indent_size true))
+          (fun r ->
+          ebind (if r then refresh_line u cfg else eret ()) (fun _ ->
+            eret Proceed))
+      | CDowncaseWord ->
+        ebind (grouped u cfg (edit_word u (seg u) Lowercase)) (fun _ ->
+          eret Proceed)
+      | CEndOfFile ->
+        ebind eget (fun s ->
+          if Nat.eqb (lb_len s.e_line) O
+          then efail EEof
+          else if negb (is_emacs0 cfg) then eret Submit else eret Proceed)
+      | CEndOfHistory ->
+        ebind (edit_history u cfg false) (fun _ -> eret Proceed)
+      | CHistorySearchBackward ->
+        ebind (edit_history_search u cfg Reverse) (fun _ -> eret Proceed)
+      | CHistorySearchForward ->
+        ebind (edit_history_search u cfg Forward) (fun _ -> eret Proceed)
+      | CIndent m0 ->
+        ebind (lb_changes u (indent u (seg u) m0 cfg.c_indent_size false))
+          (fun r ->
+          ebind (if r then refresh_line u cfg else eret ()) (fun _ ->
+            eret Proceed))
+      | CInsert (n0, text) ->
+        ebind (edit_yank u cfg text ABefore n0) (fun _ -> eret Proceed)
+      | CInterrupt -> ebind move_cursor_to_end (fun _ -> efail EInterrupted)
+      | CKill m0 -> ebind (edit_kill u cfg m0) (fun _ -> eret Proceed)
+      | CMove m0 ->
+        (match m0 with
+         | MBeginningOfLine ->
+           ebind (moved u cfg move_home) (fun _ -> eret Proceed)
+         | MEndOfLine -> ebind (moved u cfg move_end) (fun _ -> eret Proceed)
+         | MBackwardWord (n0, w) ->
+           ebind (moved u cfg (move_to_prev_word u (seg u) w n0)) (fun _ ->
+             eret Proceed)
+         | MForwardWord (n0, a, w) ->
+           ebind (moved u cfg (move_to_next_word u (seg u) a w n0)) (fun _ ->
+             eret Proceed)
+         | MViCharSearch (n0, cs) ->
+           ebind (moved u cfg (move_to (seg u) cs n0)) (fun _ -> eret Proceed)
+         | MViFirstPrint ->
+           ebind (moved u cfg move_home) (fun _ ->
+             ebind eget (fun s ->
+               ebind
+                 (if starts_with_ws u s.e_line.buf
+                  then moved u cfg
+                         (move_to_next_word u (seg u) AtStart WBig (S O))
+                  else eret ()) (fun _ -> eret Proceed)))
+         | MBackwardChar n0 ->
+           ebind (moved u cfg (move_backward (seg u) n0)) (fun _ ->
+             eret Proceed)
+         | MForwardChar n0 ->
+           ebind (moved u cfg (move_forward (seg u) n0)) (fun _ ->
+             eret Proceed)
+         | MLineUp n0 ->
+           ebind (edit_move_line_up u cfg n0) (fun _ -> eret Proceed)
+         | MLineDown n0 ->
+           ebind (edit_move_line_down u cfg n0) (fun _ -> eret Proceed)
+         | MBeginningOfBuffer ->
+           ebind (moved u cfg move_buffer_start) (fun _ -> eret Proceed)
+         | MEndOfBuffer ->
+           ebind (moved u cfg move_buffer_end) (fun _ -> eret Proceed)
+         | _ -> eret Proceed)
+      | CNextHistory ->
+        ebind (edit_history_next u cfg false) (fun _ -> eret Proceed)
+      | CRepaint -> ebind (refresh_line u cfg) (fun _ -> eret Proceed)
+      | COverwrite ch ->
+        ebind (edit_overwrite_char u cfg ch) (fun _ -> eret Proceed)
+      | CPreviousHistory ->
+        ebind (edit_history_next u cfg true) (fun _ -> eret Proceed)
+      | CReplaceChar (n0, ch) ->
+        ebind (edit_replace_char u cfg ch n0) (fun _ -> eret Proceed)
+      | CReplace (m0, text) ->
+        ebind (edit_kill u cfg m0) (fun _ ->
+          ebind
+            (match text with
+             | Some t -> edit_insert_text u cfg t
+             | None -> eret ()) (fun _ -> eret Proceed))
+      | CSelfInsert (n0, ch) ->
+        ebind (edit_insert u cfg ch n0) (fun _ -> eret Proceed)
+      | CTransposeChars ->
+        ebind (grouped u cfg (transpose_chars (seg u))) (fun _ ->
+          eret Proceed)
+      | CTransposeWords n0 ->
+        ebind (grouped u cfg (transpose_words u (seg u) n0)) (fun _ ->
+          eret Proceed)
+      | CUndo n0 ->
+        ebind eget (fun s ->
+          match cs_undo s.e_changes s.e_line n0 with
+          | Ok a ->
+            let (p, undone) = a in
+            let (c', b') = p in
+            ebind (set_changes c') (fun _ ->
+              ebind (set_line b') (fun _ ->
+                ebind (if undone then refresh_line u cfg else eret ())
+                  (fun _ -> eret Proceed)))
+          | Panic -> epanic)
+      | CUpcaseWord ->
+        ebind (grouped u cfg (edit_word u (seg u) Uppercase)) (fun _ ->
+          eret Proceed)
+      | CViYankTo m0 ->
+        ebind eget (fun s ->
+          match copy u (seg u) s.e_line m0 with
+          | Ok a ->
+            (match a with
+             | Some text ->
+               (match kr_kill s.e_kr text KAppend with
+                | Ok k' -> ebind (set_kr k') (fun _ -> eret Proceed)
+                | Panic -> epanic)
+             | None -> eret Proceed)
+          | Panic -> epanic)
+      | CYank (n0, a) ->
+        ebind eget (fun s ->
+          let (k', t) = kr_yank s.e_kr in
+          ebind (set_kr k') (fun _ ->
+            ebind
+              (match t with
+               | Some text -> edit_yank u cfg text a n0
+               | None -> eret ()) (fun _ -> eret Proceed)))
+      | CYankPop ->
+        ebind eget (fun s ->
+          let (k', r) = kr_yank_pop s.e_kr in
+          ebind (set_kr k') (fun _ ->
+            ebind
+              (match r with
+               | Some p ->
+                 let (size, text) = p in edit_yank_pop u cfg size text
+               | None -> eret ()) (fun _ -> eret Proceed)))
+      | CLineUpOrPreviousHistory n0 ->
+        ebind (edit_move_line_up u cfg n0) (fun r ->
+          ebind (if r then eret () else edit_history_next u cfg true)
+            (fun _ -> eret Proceed))
+      | CLineDownOrNextHistory n0 ->
+        ebind (edit_move_line_down u cfg n0) (fun r ->
+          ebind (if r then eret () else edit_history_next u cfg false)
+            (fun _ -> eret Proceed))
+      | CNewline ->
+        ebind (edit_insert u cfg (Npos (XO (XI (XO XH)))) (S O)) (fun _ ->
+          eret Proceed)
+      | CAcceptOrInsertLine _ ->
+        ebind (validate u cfg) (fun vr ->
+          ebind eget (fun s ->
+            let valid = match vr with
+                        | VRValid _ -> true
+                        | _ -> false in
+            let e0 = is_end_of_input u s.e_line in
+            (match c with
+             | CAcceptLine -> eret Submit
+             | CAcceptOrInsertLine aim ->
+               if (&&) valid ((||) e0 aim)
+               then eret Submit
+               else ebind
+                      (if (||) valid
+                            (negb
+                              (match vr with
+                               | VRValid msg ->
+                                 (match msg with
+                                  | Some _ -> true
+                                  | None -> false)
+                               | VRInvalid msg ->
+                                 (match msg with
+                                  | Some _ -> true
+                                  | None -> false)
+                               | _ -> false))
+                       then edit_insert u cfg (Npos (XO (XI (XO XH)))) (S O)
+                       else eret ()) (fun _ -> eret Proceed)
+             | _ -> eret Proceed)))
+      | _ -> eret Proceed))
+
+(** val lcp2 : str -> str -> str **)
+
+let rec lcp2 a b =
+  match a with
+  | [] -> []
+  | x :: a' ->
+    (match b with
+     | [] -> []
+     | y :: b' -> if N.eqb x y then x :: (lcp2 a' b') else [])
+
+(** val lcp_all : str list -> str option **)
+
+let lcp_all = function
+| [] -> None
+| c :: rest ->
+  (match rest with
+   | [] -> Some c
+   | _ :: _ ->
+     (match fold_left lcp2 rest c with
+      | [] -> None
+      | n0 :: l -> Some (n0 :: l)))
+
+(** val completer_update : uData -> nat -> str -> unit e **)
+
+let completer_update u start elected =
+  ebind eget (fun s -> lb_changes u (replace start s.e_line.pos elected))
+
+(** val complete_circular :
+    uData -> config -> nat -> nat -> str list -> (str * nat) -> nat -> nat ->
+    cmd option e **)
+
+let rec complete_circular u cfg fuel start cands backup0 mark i =
+  match fuel with
+  | O -> efuel
+  | S f ->
+    ebind
+      (if Nat.ltb i (length cands)
+       then (match nth_error cands i with
+             | Some c -> completer_update u start c
+             | None -> eret ())
+       else lb_changes u (update (fst backup0) (snd backup0))) (fun _ ->
+      ebind (refresh_line u cfg) (fun _ ->
+        ebind (next_cmd u cfg f true) (fun c ->
+          match c with
+          | CAbort ->
+            ebind
+              (if Nat.ltb i (length cands)
+               then ebind (lb_changes u (update (fst backup0) (snd backup0)))
+                      (fun _ -> refresh_line u cfg)
+               else eret ()) (fun _ ->
+              ebind eget (fun s ->
+                ebind (set_changes (cs_truncate s.e_changes mark)) (fun _ ->
+                  eret None)))
+          | CComplete ->
+            let i' = Nat.modulo (add i (S O)) (add (length cands) (S O)) in
+            ebind (if Nat.eqb i' (length cands) then beep else eret ())
+              (fun _ -> complete_circular u cfg f start cands backup0 mark i')
+          | CCompleteBackward ->
+            ebind (if Nat.eqb i O then beep else eret ()) (fun _ ->
+              complete_circular u cfg f start cands backup0 mark
+                (if Nat.eqb i O
+                 then length cands
+                 else Nat.modulo (sub i (S O)) (add (length cands) (S O))))
+          | _ -> ebind changes_end (fun _ -> eret (Some c)))))
+
+(** val msg_display_all : nat -> str **)
+
+let msg_display_all n0 =
+  app ((Npos (XO (XI (XO XH)))) :: ((Npos (XO (XO (XI (XO (XO (XO
+    XH))))))) :: ((Npos (XI (XO (XO (XI (XO (XI XH))))))) :: ((Npos (XI (XI
+    (XO (XO (XI (XI XH))))))) :: ((Npos (XO (XO (XO (XO (XI (XI
+    XH))))))) :: ((Npos (XO (XO (XI (XI (XO (XI XH))))))) :: ((Npos (XI (XO
+    (XO (XO (XO (XI XH))))))) :: ((Npos (XI (XO (XO (XI (XI (XI
+    XH))))))) :: ((Npos (XO (XO (XO (XO (XO XH)))))) :: ((Npos (XI (XO (XO
+    (XO (XO (XI XH))))))) :: ((Npos (XO (XO (XI (XI (XO (XI
+    XH))))))) :: ((Npos (XO (XO (XI (XI (XO (XI XH))))))) :: ((Npos (XO (XO
+    (XO (XO (XO XH)))))) :: [])))))))))))))
+    (app (dec n0) ((Npos (XO (XO (XO (XO (XO XH)))))) :: ((Npos (XO (XO (XO
+      (XO (XI (XI XH))))))) :: ((Npos (XI (XI (XI (XI (XO (XI
+      XH))))))) :: ((Npos (XI (XI (XO (XO (XI (XI XH))))))) :: ((Npos (XI (XI
+      (XO (XO (XI (XI XH))))))) :: ((Npos (XI (XO (XO (XI (XO (XI
+      XH))))))) :: ((Npos (XO (XI (XO (XO (XO (XI XH))))))) :: ((Npos (XI (XO
+      (XO (XI (XO (XI XH))))))) :: ((Npos (XO (XO (XI (XI (XO (XI
+      XH))))))) :: ((Npos (XI (XO (XO (XI (XO (XI XH))))))) :: ((Npos (XO (XO
+      (XI (XO (XI (XI XH))))))) :: ((Npos (XI (XO (XO (XI (XO (XI
+      XH))))))) :: ((Npos (XI (XO (XI (XO (XO (XI XH))))))) :: ((Npos (XI (XI
+      (XO (XO (XI (XI XH))))))) :: ((Npos (XI (XI (XI (XI (XI
+      XH)))))) :: ((Npos (XO (XO (XO (XO (XO XH)))))) :: ((Npos (XO (XO (XO
+      (XI (XO XH)))))) :: ((Npos (XI (XO (XO (XI (XI (XI XH))))))) :: ((Npos
+      (XO (XO (XO (XO (XO XH)))))) :: ((Npos (XI (XI (XI (XI (XO (XI
+      XH))))))) :: ((Npos (XO (XI (XO (XO (XI (XI XH))))))) :: ((Npos (XO (XO
+      (XO (XO (XO XH)))))) :: ((Npos (XO (XI (XI (XI (XO (XI
+      XH))))))) :: ((Npos (XI (XO (XO (XI (XO
+      XH)))))) :: [])))))))))))))))))))))))))
+
+(** val page_completions_simple :
+    uData -> config -> str list -> cmd option e **)
+
+let page_completions_simple u cfg cands =
+  let max_width =
+    Nat.min (cols cfg)
+      (add (fold_left Nat.max (map (layout_w u) cands) O) (S (S O)))
+  in
+  let num_cols = Nat.div (cols cfg) max_width in
+  let nbc = length cands in
+  let num_rows = Nat.div (sub (add nbc num_cols) (S O)) num_cols in
+  let row_text = fun row ->
+    concat
+      (map (fun col ->
+        let i = add (mul col num_rows) row in
+        (match nth_error cands i with
+         | Some c ->
+           app c
+             (if Nat.ltb (add (mul (add col (S O)) num_rows) row) nbc
+              then repeat (Npos (XO (XO (XO (XO (XO XH))))))
+                     (sub max_width (layout_w u c))
+              else [])
+         | None -> [])) (seq O num_cols))
+  in
+  ebind
+    (let rec rows k row =
+       match k with
+       | O -> eret ()
+       | S k' ->
+         ebind (write ((Npos (XO (XI (XO XH)))) :: [])) (fun _ ->
+           ebind (write (row_text row)) (fun _ -> rows k' (S row)))
+     in rows num_rows O) (fun _ ->
+    ebind (write ((Npos (XO (XI (XO XH)))) :: [])) (fun _ ->
+      ebind eget (fun s ->
+        let lay = s.e_layout in
+        ebind
+          (set_layout { l_prompt_size = lay.l_prompt_size; l_default_prompt =
+            lay.l_default_prompt; l_cursor = { p_col = lay.l_cursor.p_col;
+            p_row = O }; l_end = { p_col = lay.l_end.p_col; p_row = O } })
+          (fun _ -> ebind (refresh_line u cfg) (fun _ -> eret None)))))
+
+(** val wait_yn : uData -> config -> nat -> cmd -> cmd e **)
+
+let rec wait_yn u cfg fuel c =
+  match fuel with
+  | O -> efuel
+  | S f ->
+    (match c with
+     | CKill m0 ->
+       (match m0 with
+        | MBackwardChar n0 ->
+          (match n0 with
+           | O ->
+             ebind (next_cmd u cfg f false) (fun c' -> wait_yn u cfg f c')
+           | S n1 ->
+             (match n1 with
+              | O -> eret c
+              | S _ ->
+                ebind (next_cmd u cfg f false) (fun c' -> wait_yn u cfg f c')))
+        | _ -> ebind (next_cmd u cfg f false) (fun c' -> wait_yn u cfg f c'))
+     | CSelfInsert (n0, c0) ->
+       (match n0 with
+        | O -> ebind (next_cmd u cfg f false) (fun c' -> wait_yn u cfg f c')
+        | S n1 ->
+          (match n1 with
+           | O ->
+             (match c0 with
+              | N0 ->
+                ebind (next_cmd u cfg f false) (fun c' -> wait_yn u cfg f c')
+              | Npos p ->
+                (match p with
+                 | XI p1 ->
+                   (match p1 with
+                    | XO p2 ->
+                      (match p2 with
+                       | XO p3 ->
+                         (match p3 with
+                          | XI p4 ->
+                            (match p4 with
+                             | XI p5 ->
+                               (match p5 with
+                                | XI p6 ->
+                                  (match p6 with
+                                   | XH -> eret c
+                                   | _ ->
+                                     ebind (next_cmd u cfg f false)
+                                       (fun c' -> wait_yn u cfg f c'))
+                                | XO p6 ->
+                                  (match p6 with
+                                   | XH -> eret c
+                                   | _ ->
+                                     ebind (next_cmd u cfg f false)
+                                       (fun c' -> wait_yn u cfg f c'))
+                                | XH ->
+                                  ebind (next_cmd u cfg f false) (fun c' ->
+                                    wait_yn u cfg f c'))
+                             | _ ->
+                               ebind (next_cmd u cfg f false) (fun c' ->
+                                 wait_yn u cfg f c'))
+                          | _ ->
+                            ebind (next_cmd u cfg f false) (fun c' ->
+                              wait_yn u cfg f c'))
+                       | _ ->
+                         ebind (next_cmd u cfg f false) (fun c' ->
+                           wait_yn u cfg f c'))
+                    | _ ->
+                      ebind (next_cmd u cfg f false) (fun c' ->
+                        wait_yn u cfg f c'))
+                 | XO p1 ->
+                   (match p1 with
+                    | XI p2 ->
+                      (match p2 with
+                       | XI p3 ->
+                         (match p3 with
+                          | XI p4 ->
+                            (match p4 with
+                             | XO p5 ->
+                               (match p5 with
+                                | XI p6 ->
+                                  (match p6 with
+                                   | XH -> eret c
+                                   | _ ->
+                                     ebind (next_cmd u cfg f false)
+                                       (fun c' -> wait_yn u cfg f c'))
+                                | XO p6 ->
+                                  (match p6 with
+                                   | XH -> eret c
+                                   | _ ->
+                                     ebind (next_cmd u cfg f false)
+                                       (fun c' -> wait_yn u cfg f c'))
+                                | XH ->
+                                  ebind (next_cmd u cfg f false) (fun c' ->
+                                    wait_yn u cfg f c'))
+                             | _ ->
+                               ebind (next_cmd u cfg f false) (fun c' ->
+                                 wait_yn u cfg f c'))
+                          | _ ->
+                            ebind (next_cmd u cfg f false) (fun c' ->
+                              wait_yn u cfg f c'))
+                       | _ ->
+                         ebind (next_cmd u cfg f false) (fun c' ->
+                           wait_yn u cfg f c'))
+                    | _ ->
+                      ebind (next_cmd u cfg f false) (fun c' ->
+                        wait_yn u cfg f c'))
+                 | XH ->
+                   ebind (next_cmd u cfg f false) (fun c' ->
+                     wait_yn u cfg f c')))
+           | S _ ->
+             ebind (next_cmd u cfg f false) (fun c' -> wait_yn u cfg f c')))
+     | _ -> ebind (next_cmd u cfg f false) (fun c' -> wait_yn u cfg f c'))
+
+(** val complete_line : uData -> config -> nat -> cmd option e **)
+
+let complete_line u cfg fuel =
+  ebind eget (fun s ->
+    let (start, cands) = cfg.c_complete s.e_line.buf s.e_line.pos in
+    (match cands with
+     | [] -> ebind beep (fun _ -> eret None)
+     | _ :: _ ->
+       (match cfg.c_completion with
+        | CTCircular ->
+          ebind changes_begin (fun mark ->
+            complete_circular u cfg fuel start cands (s.e_line.buf,
+              s.e_line.pos) mark O)
+        | CTList ->
+          ebind
+            (match lcp_all cands with
+             | Some lcp ->
+               if (||) (Nat.ltb (sub s.e_line.pos start) (blen lcp))
+                    (Nat.eqb (length cands) (S O))
+               then ebind (completer_update u start lcp) (fun _ ->
+                      refresh_line u cfg)
+               else eret ()
+             | None -> eret ()) (fun _ ->
+            if Nat.ltb (S O) (length cands)
+            then ebind beep (fun _ ->
+                   ebind (next_cmd u cfg fuel true) (fun c ->
+                     match c with
+                     | CComplete ->
+                       ebind eget (fun s1 ->
+                         let save_pos = s1.e_line.pos in
+                         ebind (moved u cfg move_end) (fun _ ->
+                           ebind (lb_quiet (set_pos save_pos)) (fun _ ->
+                             if Nat.ltb cfg.c_prompt_limit (length cands)
+                             then ebind
+                                    (write (msg_display_all (length cands)))
+                                    (fun _ ->
+                                    ebind eget (fun s2 ->
+                                      let lay = s2.e_layout in
+                                      ebind
+                                        (set_layout { l_prompt_size =
+                                          lay.l_prompt_size;
+                                          l_default_prompt =
+                                          lay.l_default_prompt; l_cursor =
+                                          lay.l_cursor; l_end = { p_col =
+                                          lay.l_end.p_col; p_row = (S
+                                          lay.l_end.p_row) } }) (fun _ ->
+                                        ebind (wait_yn u cfg fuel c)
+                                          (fun c2 ->
+                                          match c2 with
+                                          | CSelfInsert (n0, c0) ->
+                                            (match n0 with
+                                             | O ->
+                                               ebind (refresh_line u cfg)
+                                                 (fun _ -> eret None)
+                                             | S n1 ->
+                                               (match n1 with
+                                                | O ->
+                                                  (match c0 with
+                                                   | N0 ->
+                                                     ebind
+                                                       (refresh_line u cfg)
+                                                       (fun _ -> eret None)
+                                                   | Npos p ->
+                                                     (match p with
+                                                      | XI p1 ->
+                                                        (match p1 with
+                                                         | XO p2 ->
+                                                           (match p2 with
+                                                            | XO p3 ->
+                                                              (match p3 with
+                                                               | XI p4 ->
+                                                                 (match p4 with
+                                                                  | XI p5 ->
+                                                                    (match p5 with
+                                                                    | XI p6 ->
+                                                                    (match p6 with
+                                                                    | XH ->
+                                                                    page_completions_simple
+                                                                    u cfg
+                                                                    cands
+                                                                    | _ ->
+                                                                    ebind
+                                                                    (refresh_line
+                                                                    u cfg)
+                                                                    (fun _ ->
+                                                                    eret None))
+                                                                    | XO p6 ->
+                                                                    (match p6 with
+                                                                    | XH ->
+                                                                    page_completions_simple
+                                                                    u cfg
+                                                                    cands
+                                                                    | _ ->
+                                                                    ebind
+                                                                    (refresh_line
+                                                                    u cfg)
+                                                                    (fun _ ->
+                                                                    eret None))
+                                                                    | XH ->
+                                                                    ebind
+                                                                    (refresh_line
+                                                                    u cfg)
+                                                                    (fun _ ->
+                                                                    eret None))
+                                                                  | _ ->
+                                                                    ebind
+                                                                    (refresh_line
+                                                                    u cfg)
+                                                                    (fun _ ->
+                                                                    eret None))
+                                                               | _ ->
+                                                                 ebind
+                                                                   (refresh_line
+                                                                    u cfg)
+                                                                   (fun _ ->
+                                                                   eret None))
+                                                            | _ ->
+                                                              ebind
+                                                                (refresh_line
+                                                                  u cfg)
+                                                                (fun _ ->
+                                                                eret None))
+                                                         | _ ->
+                                                           ebind
+                                                             (refresh_line u
+                                                               cfg) (fun _ ->
+                                                             eret None))
+                                                      | _ ->
+                                                        ebind
+                                                          (refresh_line u cfg)
+                                                          (fun _ -> eret None)))
+                                                | S _ ->
+                                                  ebind (refresh_line u cfg)
+                                                    (fun _ -> eret None)))
+                                          | _ ->
+                                            ebind (refresh_line u cfg)
+                                              (fun _ -> eret None)))))
+                             else page_completions_simple u cfg cands)))
+                     | _ -> eret (Some c)))
+            else eret None))))
+
+(** val search_prompt : bool -> str -> str **)
+
+let search_prompt success term =
+  app
+    (if success
+     then (Npos (XO (XO (XO (XI (XO XH)))))) :: []
+     else (Npos (XO (XO (XO (XI (XO XH)))))) :: ((Npos (XO (XI (XI (XO (XO
+            (XI XH))))))) :: ((Npos (XI (XO (XO (XO (XO (XI
+            XH))))))) :: ((Npos (XI (XO (XO (XI (XO (XI XH))))))) :: ((Npos
+            (XO (XO (XI (XI (XO (XI XH))))))) :: ((Npos (XI (XO (XI (XO (XO
+            (XI XH))))))) :: ((Npos (XO (XO (XI (XO (XO (XI
+            XH))))))) :: ((Npos (XO (XO (XO (XO (XO XH)))))) :: []))))))))
+    (app ((Npos (XO (XI (XO (XO (XI (XI XH))))))) :: ((Npos (XI (XO (XI (XO
+      (XO (XI XH))))))) :: ((Npos (XO (XI (XI (XO (XI (XI XH))))))) :: ((Npos
+      (XI (XO (XI (XO (XO (XI XH))))))) :: ((Npos (XO (XI (XO (XO (XI (XI
+      XH))))))) :: ((Npos (XI (XI (XO (XO (XI (XI XH))))))) :: ((Npos (XI (XO
+      (XI (XO (XO (XI XH))))))) :: ((Npos (XI (XO (XI (XI (XO
+      XH)))))) :: ((Npos (XI (XO (XO (XI (XO (XI XH))))))) :: ((Npos (XI (XO
+      (XI (XI (XO XH)))))) :: ((Npos (XI (XI (XO (XO (XI (XI
+      XH))))))) :: ((Npos (XI (XO (XI (XO (XO (XI XH))))))) :: ((Npos (XI (XO
+      (XO (XO (XO (XI XH))))))) :: ((Npos (XO (XI (XO (XO (XI (XI
+      XH))))))) :: ((Npos (XI (XI (XO (XO (XO (XI XH))))))) :: ((Npos (XO (XO
+      (XO (XI (XO (XI XH))))))) :: ((Npos (XI (XO (XO (XI (XO
+      XH)))))) :: ((Npos (XO (XO (XO (XO (XO (XI
+      XH))))))) :: []))))))))))))))))))
+      (app term ((Npos (XI (XI (XI (XO (XO XH)))))) :: ((Npos (XO (XI (XO (XI
+        (XI XH)))))) :: ((Npos (XO (XO (XO (XO (XO XH)))))) :: [])))))
+
+(** val isearch_loop :
+    uData -> config -> nat -> (str * nat) -> nat -> str -> nat -> sdir ->
+    bool -> cmd option e **)
+
+let rec isearch_loop u cfg fuel backup0 mark term idx d success =
+  match fuel with
+  | O -> efuel
+  | S f ->
+    ebind (refresh_prompt_and_line u cfg (search_prompt success term))
+      (fun _ ->
+      ebind (next_cmd u cfg f true) (fun c ->
+        ebind eget (fun s ->
+          let do_search = fun term' idx' d' ->
+            match h_search (hist_of s) term' idx' d' with
+            | Some p1 ->
+              let (p2, entry) = p1 in
+              let (i, p) = p2 in
+              ebind (lb_changes u (update entry p)) (fun _ ->
+                isearch_loop u cfg f backup0 mark term' i d' true)
+            | None -> isearch_loop u cfg f backup0 mark term' idx' d' false
+          in
+          (match c with
+           | CAbort ->
+             ebind (lb_changes u (update (fst backup0) (snd backup0)))
+               (fun _ ->
+               ebind (refresh_line u cfg) (fun _ ->
+                 ebind eget (fun s1 ->
+                   ebind (set_changes (cs_truncate s1.e_changes mark))
+                     (fun _ -> eret None))))
+           | CForwardSearchHistory ->
+             if Nat.ltb idx (sub (hlen_e s) (S O))
+             then do_search term (S idx) Forward
+             else isearch_loop u cfg f backup0 mark term idx Forward false
+           | CKill m0 ->
+             (match m0 with
+              | MBackwardChar _ ->
+                isearch_loop u cfg f backup0 mark (removelast term) idx d
+                  success
+              | _ -> ebind changes_end (fun _ -> eret (Some c)))
+           | CMove _ ->
+             ebind (refresh_line u cfg) (fun _ ->
+               ebind changes_end (fun _ -> eret (Some c)))
+           | CReverseSearchHistory ->
+             if Nat.ltb O idx
+             then do_search term (sub idx (S O)) Reverse
+             else isearch_loop u cfg f backup0 mark term idx Reverse false
+           | CSelfInsert (_, ch) -> do_search (app term (ch :: [])) idx d
+           | _ -> ebind changes_end (fun _ -> eret (Some c))))))
+
+(** val incremental_search : uData -> config -> nat -> cmd option e **)
+
+let incremental_search u cfg fuel =
+  ebind eget (fun s ->
+    if Nat.eqb (hlen_e s) O
+    then eret None
+    else ebind changes_begin (fun mark ->
+           isearch_loop u cfg fuel (s.e_line.buf, s.e_line.pos) mark []
+             (sub (hlen_e s) (S O)) Reverse true))
+
+type outcome =
+| OLine of str
+| OEof
+| OInterrupted
+| OInvalidData
+| OValidatorError
+| OHangup
+| OPanic
+| OOutOfFuel
+
+(** val main_loop : uData -> config -> nat -> unit e **)
+
+let rec main_loop u cfg = function
+| O -> efuel
+| S f ->
+  ebind (next_cmd u cfg f false) (fun c0 ->
+    ebind
+      (if should_reset_kill_ring c0
+       then ebind eget (fun s -> set_kr (kr_reset s.e_kr))
+       else eret ()) (fun _ ->
+      ebind
+        (match c0 with
+         | CComplete ->
+           if cfg.c_has_helper then complete_line u cfg f else eret (Some c0)
+         | _ -> eret (Some c0)) (fun oc ->
+        match oc with
+        | Some c1 ->
+          ebind
+            (match c1 with
+             | CReverseSearchHistory -> incremental_search u cfg f
+             | _ -> eret (Some c1)) (fun oc2 ->
+            match oc2 with
+            | Some c2 ->
+              (match c2 with
+               | CQuotedInsert ->
+                 ebind next_char (fun ch ->
+                   ebind (edit_insert u cfg ch (S O)) (fun _ ->
+                     main_loop u cfg f))
+               | CSuspend -> main_loop u cfg f
+               | _ ->
+                 ebind (execute u cfg c2) (fun st ->
+                   match st with
+                   | Proceed -> main_loop u cfg f
+                   | Submit -> eret ()))
+            | None -> main_loop u cfg f)
+        | None -> main_loop u cfg f)))
+
+(** val initial_state :
+    uData -> config -> str -> str list -> killring -> istream -> est **)
+
+let initial_state u cfg prompt history kr inp =
+  { e_line = { buf = []; pos = O; cap = (N.to_nat max_line); grow = true };
+    e_changes = cs_new; e_kr = kr; e_hist = history; e_hidx =
+    (length history); e_saved = ([], O); e_hint = None; e_layout = layout0;
+    e_prompt = prompt; e_prompt_size = (calc u cfg prompt p0); i_input_mode =
+    IMInsert; i_num_args = Z0; i_last_cmd = CNoop; i_last_cs = None; e_inp =
+    inp; e_out = []; e_obs = [] }
+
+(** val read_line :
+    uData -> config -> str -> (str * str) option -> str list -> killring ->
+    istream -> outcome * est option **)
+
+let read_line u cfg prompt initial history kr inp =
+  let s0 = initial_state u cfg prompt history (kr_reset kr) inp in
+  let fuel = mul (S (S (stream_size inp))) (S (S (S (S O)))) in
+  let prog =
+    ebind
+      (match initial with
+       | Some p -> let (l, r) = p in lb_changes u (update (app l r) (blen l))
+       | None -> eret ()) (fun _ ->
+      ebind (refresh_line u cfg) (fun _ ->
+        ebind (main_loop u cfg fuel) (fun _ -> moved u cfg move_buffer_end)))
+  in
+  (match prog s0 with
+   | EOk (_, s) -> ((OLine s.e_line.buf), (Some s))
+   | EErr (e0, s) ->
+     (match e0 with
+      | EEof -> (OEof, (Some s))
+      | EInvalidData -> (OInvalidData, (Some s))
+      | EInterrupted -> (OInterrupted, (Some s))
+      | EValidator -> (OValidatorError, (Some s))
+      | EHangup -> (OHangup, (Some s)))
+   | EPanic -> (OPanic, None)
+   | EFuel -> (OOutOfFuel, None))
+
+(** val script_complete : str list -> str -> nat -> nat * str list **)
+
+let script_complete cands line p =
+  let before =
+    match bsplit line p with
+    | Some p1 -> let (l, _) = p1 in l
+    | None -> line
+  in
+  let start =
+    match rfind_char (Npos (XO (XO (XO (XO (XO XH)))))) before with
+    | Some i -> add i (S O)
+    | None -> O
+  in
+  let word =
+    match bsplit before start with
+    | Some p1 -> let (_, w) = p1 in w
+    | None -> []
+  in
+  (start, (filter (fun c -> prefix_b word c) cands))
+
+(** val script_hint : str list -> str -> nat -> str option **)
+
+let script_hint hints line p =
+  match line with
+  | [] -> None
+  | _ :: _ ->
+    if Nat.ltb p (blen line)
+    then None
+    else (match find (fun h ->
+                  (&&) (prefix_b line h) (Nat.ltb (length line) (length h)))
+                  hints with
+          | Some h -> Some (skipn (length line) h)
+          | None -> None)
+
+(** val contains : str -> str -> bool **)
+
+let rec contains t s =
+  (||) (prefix_b t s) (match s with
+                       | [] -> false
+                       | _ :: s' -> contains t s')
+
+(** val script_validate : str -> vresult **)
+
+let script_validate line =
+  if contains ((Npos (XI (XI (XO (XO (XO XH)))))) :: ((Npos (XI (XI (XO (XO
+       (XO XH)))))) :: [])) line
+  then VRError
+  else if contains ((Npos (XI (XO (XO (XO (XO XH)))))) :: ((Npos (XI (XO (XO
+            (XO (XO XH)))))) :: [])) line
+       then VRInvalid (Some ((Npos (XO (XO (XO (XO (XO XH)))))) :: ((Npos (XO
+              (XO (XI (XI (XI XH)))))) :: ((Npos (XI (XO (XI (XI (XO
+              XH)))))) :: ((Npos (XI (XO (XI (XI (XO XH)))))) :: ((Npos (XO
+              (XO (XO (XO (XO XH)))))) :: ((Npos (XO (XI (XO (XO (XO (XI
+              XH))))))) :: ((Npos (XI (XO (XO (XO (XO (XI XH))))))) :: ((Npos
+              (XO (XO (XI (XO (XO (XI XH))))))) :: [])))))))))
+       else if contains ((Npos (XI (XI (XI (XI (XI XH)))))) :: ((Npos (XI (XI
+                 (XI (XI (XI XH)))))) :: [])) line
+            then VRInvalid None
+            else if ends_with line (Npos (XO (XO (XI (XI (XI (XO XH)))))))
+                 then VRIncomplete
+                 else if contains ((Npos (XI (XI (XI (XI (XO (XI
+                           XH))))))) :: ((Npos (XI (XI (XO (XI (XO (XI
+                           XH))))))) :: [])) line
+                      then VRValid (Some ((Npos (XO (XO (XO (XO (XO
+                             XH)))))) :: ((Npos (XO (XI (XI (XO (XO (XI
+                             XH))))))) :: ((Npos (XI (XO (XO (XI (XO (XI
+                             XH))))))) :: ((Npos (XO (XI (XI (XI (XO (XI
+                             XH))))))) :: ((Npos (XI (XO (XI (XO (XO (XI
+                             XH))))))) :: []))))))
+                      else VRValid None
+
+(** val msg_unclosed : n -> str **)
+
+let msg_unclosed c =
+  app ((Npos (XI (XO (XI (XI (XO (XO XH))))))) :: ((Npos (XI (XO (XO (XI (XO
+    (XI XH))))))) :: ((Npos (XI (XI (XO (XO (XI (XI XH))))))) :: ((Npos (XI
+    (XO (XI (XI (XO (XI XH))))))) :: ((Npos (XI (XO (XO (XO (XO (XI
+    XH))))))) :: ((Npos (XO (XO (XI (XO (XI (XI XH))))))) :: ((Npos (XI (XI
+    (XO (XO (XO (XI XH))))))) :: ((Npos (XO (XO (XO (XI (XO (XI
+    XH))))))) :: ((Npos (XI (XO (XI (XO (XO (XI XH))))))) :: ((Npos (XO (XO
+    (XI (XO (XO (XI XH))))))) :: ((Npos (XO (XO (XO (XO (XO
+    XH)))))) :: ((Npos (XO (XI (XO (XO (XO (XI XH))))))) :: ((Npos (XO (XI
+    (XO (XO (XI (XI XH))))))) :: ((Npos (XI (XO (XO (XO (XO (XI
+    XH))))))) :: ((Npos (XI (XI (XO (XO (XO (XI XH))))))) :: ((Npos (XI (XI
+    (XO (XI (XO (XI XH))))))) :: ((Npos (XI (XO (XI (XO (XO (XI
+    XH))))))) :: ((Npos (XO (XO (XI (XO (XI (XI XH))))))) :: ((Npos (XI (XI
+    (XO (XO (XI (XI XH))))))) :: ((Npos (XO (XI (XO (XI (XI
+    XH)))))) :: ((Npos (XO (XO (XO (XO (XO XH)))))) :: ((Npos (XI (XI (XI (XO
+    (XO XH)))))) :: []))))))))))))))))))))))
+    (app (c :: []) ((Npos (XI (XI (XI (XO (XO XH)))))) :: ((Npos (XO (XO (XO
+      (XO (XO XH)))))) :: ((Npos (XI (XO (XO (XI (XO (XI XH))))))) :: ((Npos
+      (XI (XI (XO (XO (XI (XI XH))))))) :: ((Npos (XO (XO (XO (XO (XO
+      XH)))))) :: ((Npos (XO (XI (XI (XI (XO (XI XH))))))) :: ((Npos (XI (XI
+      (XI (XI (XO (XI XH))))))) :: ((Npos (XO (XO (XI (XO (XI (XI
+      XH))))))) :: ((Npos (XO (XO (XO (XO (XO XH)))))) :: ((Npos (XO (XO (XO
+      (XO (XI (XI XH))))))) :: ((Npos (XO (XI (XO (XO (XI (XI
+      XH))))))) :: ((Npos (XI (XI (XI (XI (XO (XI XH))))))) :: ((Npos (XO (XO
+      (XO (XO (XI (XI XH))))))) :: ((Npos (XI (XO (XI (XO (XO (XI
+      XH))))))) :: ((Npos (XO (XI (XO (XO (XI (XI XH))))))) :: ((Npos (XO (XO
+      (XI (XI (XO (XI XH))))))) :: ((Npos (XI (XO (XO (XI (XI (XI
+      XH))))))) :: ((Npos (XO (XO (XO (XO (XO XH)))))) :: ((Npos (XI (XI (XO
+      (XO (XO (XI XH))))))) :: ((Npos (XO (XO (XI (XI (XO (XI
+      XH))))))) :: ((Npos (XI (XI (XI (XI (XO (XI XH))))))) :: ((Npos (XI (XI
+      (XO (XO (XI (XI XH))))))) :: ((Npos (XI (XO (XI (XO (XO (XI
+      XH))))))) :: ((Npos (XO (XO (XI (XO (XO (XI
+      XH))))))) :: [])))))))))))))))))))))))))
+
+(** val msg_unpaired : n -> str **)
+
+let msg_unpaired c =
+  app ((Npos (XI (XO (XI (XI (XO (XO XH))))))) :: ((Npos (XI (XO (XO (XI (XO
+    (XI XH))))))) :: ((Npos (XI (XI (XO (XO (XI (XI XH))))))) :: ((Npos (XI
+    (XO (XI (XI (XO (XI XH))))))) :: ((Npos (XI (XO (XO (XO (XO (XI
+    XH))))))) :: ((Npos (XO (XO (XI (XO (XI (XI XH))))))) :: ((Npos (XI (XI
+    (XO (XO (XO (XI XH))))))) :: ((Npos (XO (XO (XO (XI (XO (XI
+    XH))))))) :: ((Npos (XI (XO (XI (XO (XO (XI XH))))))) :: ((Npos (XO (XO
+    (XI (XO (XO (XI XH))))))) :: ((Npos (XO (XO (XO (XO (XO
+    XH)))))) :: ((Npos (XO (XI (XO (XO (XO (XI XH))))))) :: ((Npos (XO (XI
+    (XO (XO (XI (XI XH))))))) :: ((Npos (XI (XO (XO (XO (XO (XI
+    XH))))))) :: ((Npos (XI (XI (XO (XO (XO (XI XH))))))) :: ((Npos (XI (XI
+    (XO (XI (XO (XI XH))))))) :: ((Npos (XI (XO (XI (XO (XO (XI
+    XH))))))) :: ((Npos (XO (XO (XI (XO (XI (XI XH))))))) :: ((Npos (XI (XI
+    (XO (XO (XI (XI XH))))))) :: ((Npos (XO (XI (XO (XI (XI
+    XH)))))) :: ((Npos (XO (XO (XO (XO (XO XH)))))) :: ((Npos (XI (XI (XI (XO
+    (XO XH)))))) :: []))))))))))))))))))))))
+    (app (c :: []) ((Npos (XI (XI (XI (XO (XO XH)))))) :: ((Npos (XO (XO (XO
+      (XO (XO XH)))))) :: ((Npos (XI (XO (XO (XI (XO (XI XH))))))) :: ((Npos
+      (XI (XI (XO (XO (XI (XI XH))))))) :: ((Npos (XO (XO (XO (XO (XO
+      XH)))))) :: ((Npos (XI (XO (XI (XO (XI (XI XH))))))) :: ((Npos (XO (XI
+      (XI (XI (XO (XI XH))))))) :: ((Npos (XO (XO (XO (XO (XI (XI
+      XH))))))) :: ((Npos (XI (XO (XO (XO (XO (XI XH))))))) :: ((Npos (XI (XO
+      (XO (XI (XO (XI XH))))))) :: ((Npos (XO (XI (XO (XO (XI (XI
+      XH))))))) :: ((Npos (XI (XO (XI (XO (XO (XI XH))))))) :: ((Npos (XO (XO
+      (XI (XO (XO (XI XH))))))) :: []))))))))))))))
+
+(** val brackets_v : str -> n list -> vresult **)
+
+let rec brackets_v s stack =
+  match s with
+  | [] -> (match stack with
+           | [] -> VRValid None
+           | _ :: _ -> VRIncomplete)
+  | c :: t ->
+    if (||)
+         ((||) (N.eqb c (Npos (XO (XO (XO (XI (XO XH)))))))
+           (N.eqb c (Npos (XI (XI (XO (XI (XI (XO XH)))))))))
+         (N.eqb c (Npos (XI (XI (XO (XI (XI (XI XH))))))))
+    then brackets_v t (c :: stack)
+    else if (||)
+              ((||) (N.eqb c (Npos (XI (XO (XO (XI (XO XH)))))))
+                (N.eqb c (Npos (XI (XO (XI (XI (XI (XO XH)))))))))
+              (N.eqb c (Npos (XI (XO (XI (XI (XI (XI XH))))))))
+         then (match stack with
+               | [] -> VRInvalid (Some (msg_unpaired c))
+               | o :: st ->
+                 if (||)
+                      ((||)
+                        ((&&) (N.eqb o (Npos (XO (XO (XO (XI (XO XH)))))))
+                          (N.eqb c (Npos (XI (XO (XO (XI (XO XH))))))))
+                        ((&&)
+                          (N.eqb o (Npos (XI (XI (XO (XI (XI (XO XH))))))))
+                          (N.eqb c (Npos (XI (XO (XI (XI (XI (XO XH))))))))))
+                      ((&&) (N.eqb o (Npos (XI (XI (XO (XI (XI (XI XH))))))))
+                        (N.eqb c (Npos (XI (XO (XI (XI (XI (XI XH)))))))))
+                 then brackets_v t st
+                 else VRInvalid (Some (msg_unclosed o)))
+         else brackets_v t stack
+
+type vkind =
+| VKNone
+| VKBrackets
+| VKScript
+
+(** val mk_config :
+    edit_mode -> completion_type -> bool -> nat -> bool -> str list -> str
+    list -> vkind -> (key list * cmd) list -> config **)
+
+let mk_config mode ct timeout_none cols0 has_helper cands hints vk bindings =
+  { c_mode = mode; c_completion = ct; c_timeout_none = timeout_none; c_cols =
+    cols0; c_tab_stop = default_tab_stop; c_indent_size =
+    default_indent_size; c_prompt_limit = default_completion_prompt_limit;
+    c_has_helper = has_helper; c_complete = (script_complete cands); c_hint =
+    (script_hint hints); c_validate =
+    (match vk with
+     | VKNone -> (fun _ -> VRValid None)
+     | VKBrackets -> (fun l -> brackets_v l [])
+     | VKScript -> script_validate); c_bindings = bindings; c_veof = ((KChar
+    (Npos (XO (XO (XI (XO (XO (XO XH)))))))), m_CTRL); c_vintr = ((KChar
+    (Npos (XI (XI (XO (XO (XO (XO XH)))))))), m_CTRL); c_vquit = ((KChar
+    (Npos (XO (XO (XI (XI (XI (XO XH)))))))), m_CTRL); c_vsusp = ((KChar
+    (Npos (XO (XI (XO (XI (XI (XO XH)))))))), m_CTRL) }
+
+type read_result = { rr_outcome : outcome; rr_obs : observation list;
+                     rr_out : n list list }
+
+(** val run_reads :
+    uData -> config -> str -> (str * str) option -> str list -> killring ->
+    istream -> nat -> read_result list **)
+
+let rec run_reads u cfg prompt initial history kr inp = function
+| O -> []
+| S k ->
+  let (o, o0) = read_line u cfg prompt initial history kr inp in
+  (match o0 with
+   | Some s ->
+     { rr_outcome = o; rr_obs = (rev s.e_obs); rr_out =
+       (rev s.e_out) } :: (run_reads u cfg prompt None history s.e_kr
+                            { in_cur = []; in_rest = s.e_inp.in_rest } k)
+   | None -> { rr_outcome = o; rr_obs = []; rr_out = [] } :: [])
